@@ -1,14 +1,9 @@
 """Must-fire variants: (label, relpath, old text, new text, rule expected to report it).
 Each is a small edit that still compiles; applied in memory by the thorough tier.  An entry whose `old` text is no longer
 present exactly once is skipped (the tree moved on), never an error."""
-
 V = {}
-
-
 def add(prop, label, rel, old, new, rule):
     V.setdefault(prop, []).append((label, rel, old, new, rule))
-
-
 OPS = "nifty/cl/operators/"
 add("C01", "chain capability or-ed", OPS + "chain_operator.py", "self._capability &= op.capability", "self._capability |= op.capability", "R01.2")
 add("C01", "sum capability skips first", OPS + "sum_operator.py", "        for op in ops:\n            self._capability &= op.capability",
@@ -89,7 +84,6 @@ add("C32", "drift with full-step momentum", "nifty/re/hmc.py", "        inverse_
 add("C33", "floordiv bound to truediv", "nifty/re/tree_math/vector.py", "__floordiv__, __rfloordiv__ = _fwd_rev_binary_op(operator.floordiv)",
     "__floordiv__, __rfloordiv__ = _fwd_rev_binary_op(operator.truediv)", "R33.1")
 add("C33", "reflected op keeps order", "nifty/re/tree_math/vector.py", "        return _broadcast_binary_op(op, rhs, lhs)", "        return _broadcast_binary_op(op, lhs, rhs)", "R33.1")
-
 add("C06", "multi-field norm ignores ord", "nifty/cl/multi_field.py", "        return (nrm ** ord).sum() ** (1./ord)", "        return np.sqrt((nrm ** 2).sum())", "R06.6")
 add("C06", "Field.norm drops ord", "nifty/cl/field.py", "        return self._val.norm(ord=ord)", "        return self._val.norm()", "R06.6")
 add("C06", "weight indexes the shape vector with the sub-domain index", "nifty/cl/field.py",
@@ -134,110 +128,13 @@ add("C04", "sum rebuilt as a product", OPS + "operator.py", "            return 
 add("C06", "mean of non-uniform volumes without weights", "nifty/cl/field.py", "        tmp = self.weight(1, spaces)\n        return tmp.sum(spaces)*(1./tmp.total_volume(spaces))", "        tmp = self\n        return tmp.sum(spaces)*(1./tmp.total_volume(spaces))", "R06.9")
 add("C06", "uniform-volume integral forgets the weight", "nifty/cl/field.py", "            res = res*swgt\n            return res", "            return res", "R06.9")
 add("C06", "s_integrate weights twice", "nifty/cl/field.py", "        tmp = self.weight(1)\n        return tmp.s_sum()", "        tmp = self.weight(2)\n        return tmp.s_sum()", "R06.9")
-VARIANTS = V
-
 add("C18", "mirror flag of another position", "nifty/cl/minimization/sample_list.py", "        return self._m.flexible_addsub(self._r[i], self._n[i])",
     "        return self._m.flexible_addsub(self._r[i], self._n[i-1])", "R18.1")
 add("C18", "mirrored sample stored pre-negated", "nifty/cl/minimization/kl_energies.py", "                local_samples.append(yi)\n                local_neg.append(neg)",
     "                local_samples.append(-yi if neg else yi)\n                local_neg.append(neg)", "R18.1")
 add("C19", "residuals shifted when the mean moves", "nifty/cl/minimization/sample_list.py", "        return ResidualSampleList(mean, self._r, self._n, self.comm)",
     "        return ResidualSampleList(mean, [rr + (self._m - mean) for rr in self._r], self._n, self.comm)", "R19.2")
-add("C06", "multi-field norm ignores ord", "nifty/cl/multi_field.py", "        return (nrm ** ord).sum() ** (1./ord)", "        return np.sqrt((nrm ** 2).sum())", "R06.6")
-add("C06", "Field.norm drops ord", "nifty/cl/field.py", "        return self._val.norm(ord=ord)", "        return self._val.norm()", "R06.6")
-add("C06", "weight indexes the shape vector with the sub-domain index", "nifty/cl/field.py",
-    "                new_shape[self._domain.axes[ind][0]:\n                          self._domain.axes[ind][-1]+1] = wgt.shape", "                new_shape[ind] = wgt.size", "R06.8")
-add("C10", "weight indexes the shape vector with the sub-domain index", "nifty/cl/field.py",
-    "                new_shape[self._domain.axes[ind][0]:\n                          self._domain.axes[ind][-1]+1] = wgt.shape", "                new_shape[ind] = wgt.size", "R10.6")
-add("C11", "inverse gamma stores alpha instead of alpha+1", OPS + "energy_operators.py", "        self._alphap1 = alpha+1\n", "        self._alphap1 = alpha\n", "R11.6")
-add("C11", "Bernoulli non-event term in the integer dtype", OPS + "energy_operators.py", ".vdot(self._d-1.)", ".vdot(self._d-1)", "R11.7")
-add("C11", "Poisson energy without the sum of the rates", OPS + "energy_operators.py", "        res = x.sum() - x.log().vdot(self._d)", "        res = -x.log().vdot(self._d)", "R11.6")
-add("C19", "JAX KL sums instead of averaging", "nifty/re/optimize_kl.py", "_reduce = partial(tree_map, partial(jnp.mean, axis=0))", "_reduce = partial(tree_map, partial(jnp.sum, axis=0))", "R19.3")
-add("C19", "JAX Hamiltonian prior without the factor 1/2", "nifty/re/optimize_kl.py", "+ 0.5 * vdot(primals, primals)", "+ vdot(primals, primals)", "R19.3")
-add("C19", "JAX KL metric maps the tangents too", "nifty/re/optimize_kl.py", "vmet = map(ham.metric, in_axes=(0, None))", "vmet = map(ham.metric, in_axes=(0, 0))", "R19.3")
-add("C19", "JAX KL evaluated at the bare residuals", "nifty/re/optimize_kl.py", "    s = vvg(primals_samples.at(primals).samples)", "    s = vvg(primals_samples._samples)", "R19.3")
-add("C19", "constant keys: value stripped instead of gradient", "nifty/re/optimize_kl.py", "                remove_axes=(False, insert_axes),", "                remove_axes=(insert_axes, False),", "R19.4")
-add("C19", "constant keys: tangent slot filled with the frozen primals", "nifty/re/optimize_kl.py", "flat_fill=(primals_frozen, zeros_like(primals_frozen)),", "flat_fill=(primals_frozen, primals_frozen),", "R19.4")
-add("C19", "constant keys: minimiser starts from the full position", "nifty/re/optimize_kl.py", "            x0=pl,", "            x0=samples.pos,", "R19.4")
-add("C18", "both white draws use the same sub-key", "nifty/re/evi.py", "    prr_inv_metric_smpl = random_like(key=subkey_prr, primals=p_liquid)", "    prr_inv_metric_smpl = random_like(key=subkey_nll, primals=p_liquid)", "R18.3")
-add("C18", "metric sample without the prior draw", "nifty/re/evi.py", "    smpl = nll_smpl + prr_smpl\n", "    smpl = nll_smpl\n", "R18.3")
-add("C18", "CG metric without the prior identity", "nifty/re/evi.py", "    return lh.metric(p_liquid, tangents, **primals_kw) + tangents\n\n\ndef draw_linear_residual", "    return lh.metric(p_liquid, tangents, **primals_kw)\n\n\ndef draw_linear_residual", "R18.3")
-add("C18", "classic right-hand side drawn from the prior metric twice", "nifty/cl/operators/sampling_enabler.py", "                nj = self._likelihood.draw_sample(device_id=device_id)", "                nj = self._prior.draw_sample(device_id=device_id)", "R18.3")
-add("C18", "classic initial gradient with the wrong sign", "nifty/cl/operators/sampling_enabler.py", "_grad=self._likelihood(s) - nj)", "_grad=self._likelihood(s) + nj)", "R18.3")
-add("C18", "classic prior draw not from the inverse", "nifty/cl/operators/sampling_enabler.py", "s = self._prior.draw_sample(from_inverse=True, device_id=device_id)", "s = self._prior.draw_sample(from_inverse=False, device_id=device_id)", "R18.3")
-add("C26", "biased variance", "nifty/cl/probing.py", "        return self._M2 * (1./(self._count-1))", "        return self._M2 * (1./self._count)", "R26.7")
-add("C26", "spread accumulated with the old deviation twice", "nifty/cl/probing.py", "            self._M2 = self._M2 + delta*delta2", "            self._M2 = self._M2 + delta*delta", "R26.7")
-add("C26", "running mean divided by the old count", "nifty/cl/probing.py", "            self._mean = self.mean + delta*(1./self._count)", "            self._mean = self.mean + delta*(1./(self._count-1))", "R26.7")
-add("C26", "offset from the standard share of the total", "nifty/cl/minimization/sample_list.py", "    start = sum(n_locals[:comm.Get_rank()])", "    start = shareRange(sum(n_locals), comm.Get_size(), comm.Get_rank())[0]", "R26.4")
-add("C08", "isotropy shortcut tests two axes only", "nifty/cl/domains/rg_space.py", "        if np.all(self.distances == self.distances[0]):  # shortcut", "        if self.distances[0] == self.distances[-1]:  # shortcut", "R08.10")
-OTO = "nifty/cl/operator_tree_optimiser.py"
-add("C05", "rewrite runs on the caller's operator", OTO, "    op_optimised = deepcopy(op)\n", "    op_optimised = op\n", "R05.1")
-add("C05", "placeholder created on the domain of the cut operator", OTO, "FieldAdapter(res_op.target, next(prepend_id) + str(id(res_op)))", "FieldAdapter(res_op.domain, next(prepend_id) + str(id(res_op)))", "R05.2")
-add("C05", "operator.adjoint(placeholder) instead of placeholder.adjoint(operator)", OTO, "        op = op.partial_insert(same_op[key][1].adjoint(same_op[key][0]))", "        op = op.partial_insert(same_op[key][0].adjoint(same_op[key][1]))", "R05.2")
-add("C05", "self-check compares the rewritten operator with itself", OTO, "        myassert(allclose(op(test_field).asnumpy(), op_optimised(test_field).asnumpy(), 1e-10))", "        myassert(allclose(op_optimised(test_field).asnumpy(), op_optimised(test_field).asnumpy(), 1e-10))", "R05.1")
-add("C05", "subtree placeholders are never bound back", OTO, "    for key in key_list_subtrees:\n        op = op.partial_insert(same_subtrees[key][1].adjoint(same_subtrees[key][0]))\n", "", "R05.2")
-EOP = OPS + "energy_operators.py"
-add("C04", "specialised variable-covariance energy halves the log-determinant for complex sampling too", EOP, "            if not self._cplx:\n                trlog /= 2\n", "            trlog /= 2\n", "R04.2")
-add("C04", "specialised variable-covariance energy with the wrong sign of the log-determinant", EOP, "            res = res + ConstantLikelihoodEnergyOperator(-trlog)", "            res = res + ConstantLikelihoodEnergyOperator(trlog)", "R04.2")
-add("C04", "product gives both factors the constants of the first factor's domain", OPS + "operator.py",
-    "        f2, o2 = self._op2.simplify_for_constant_input(\n            c_inp.extract_part(self._op2.domain))\n        if not isinstance(self._target, MultiDomain):\n            return None, _OpProd(o1, o2)",
-    "        f2, o2 = self._op2.simplify_for_constant_input(\n            c_inp.extract_part(self._op1.domain))\n        if not isinstance(self._target, MultiDomain):\n            return None, _OpProd(o1, o2)", "R04.3")
-add("C04", "chain is specialised from the output side", OPS + "chain_operator.py", "        for op in reversed(self._ops):\n            c_inp, t_op = op.simplify_for_constant_input(c_inp)", "        for op in self._ops:\n            c_inp, t_op = op.simplify_for_constant_input(c_inp)", "R04.3")
-add("C04", "sum rebuilt as a product", OPS + "operator.py", "            return None, _OpSum(o1, o2)", "            return None, _OpProd(o1, o2)", "R04.3")
-add("C06", "mean divides by the volume of the whole domain", "nifty/cl/field.py", "        return tmp.sum(spaces)*(1./tmp.total_volume(spaces))", "        return tmp.sum(spaces)*(1./tmp.total_volume())", None)
-add("C06", "mean of non-uniform volumes without weights", "nifty/cl/field.py", "        tmp = self.weight(1, spaces)\n        return tmp.sum(spaces)*(1./tmp.total_volume(spaces))", "        tmp = self\n        return tmp.sum(spaces)*(1./tmp.total_volume(spaces))", "R06.9")
-add("C06", "uniform-volume integral forgets the weight", "nifty/cl/field.py", "            res = res*swgt\n            return res", "            return res", "R06.9")
-add("C06", "s_integrate weights twice", "nifty/cl/field.py", "        tmp = self.weight(1)\n        return tmp.s_sum()", "        tmp = self.weight(2)\n        return tmp.s_sum()", "R06.9")
-VARIANTS = V
-
 add("C04", "constants not removed from the position", "nifty/cl/minimization/energy_adapter.py", "            position = position.extract_by_keys(varkeys)\n", "", "R04.1")
-add("C06", "multi-field norm ignores ord", "nifty/cl/multi_field.py", "        return (nrm ** ord).sum() ** (1./ord)", "        return np.sqrt((nrm ** 2).sum())", "R06.6")
-add("C06", "Field.norm drops ord", "nifty/cl/field.py", "        return self._val.norm(ord=ord)", "        return self._val.norm()", "R06.6")
-add("C06", "weight indexes the shape vector with the sub-domain index", "nifty/cl/field.py",
-    "                new_shape[self._domain.axes[ind][0]:\n                          self._domain.axes[ind][-1]+1] = wgt.shape", "                new_shape[ind] = wgt.size", "R06.8")
-add("C10", "weight indexes the shape vector with the sub-domain index", "nifty/cl/field.py",
-    "                new_shape[self._domain.axes[ind][0]:\n                          self._domain.axes[ind][-1]+1] = wgt.shape", "                new_shape[ind] = wgt.size", "R10.6")
-add("C11", "inverse gamma stores alpha instead of alpha+1", OPS + "energy_operators.py", "        self._alphap1 = alpha+1\n", "        self._alphap1 = alpha\n", "R11.6")
-add("C11", "Bernoulli non-event term in the integer dtype", OPS + "energy_operators.py", ".vdot(self._d-1.)", ".vdot(self._d-1)", "R11.7")
-add("C11", "Poisson energy without the sum of the rates", OPS + "energy_operators.py", "        res = x.sum() - x.log().vdot(self._d)", "        res = -x.log().vdot(self._d)", "R11.6")
-add("C19", "JAX KL sums instead of averaging", "nifty/re/optimize_kl.py", "_reduce = partial(tree_map, partial(jnp.mean, axis=0))", "_reduce = partial(tree_map, partial(jnp.sum, axis=0))", "R19.3")
-add("C19", "JAX Hamiltonian prior without the factor 1/2", "nifty/re/optimize_kl.py", "+ 0.5 * vdot(primals, primals)", "+ vdot(primals, primals)", "R19.3")
-add("C19", "JAX KL metric maps the tangents too", "nifty/re/optimize_kl.py", "vmet = map(ham.metric, in_axes=(0, None))", "vmet = map(ham.metric, in_axes=(0, 0))", "R19.3")
-add("C19", "JAX KL evaluated at the bare residuals", "nifty/re/optimize_kl.py", "    s = vvg(primals_samples.at(primals).samples)", "    s = vvg(primals_samples._samples)", "R19.3")
-add("C19", "constant keys: value stripped instead of gradient", "nifty/re/optimize_kl.py", "                remove_axes=(False, insert_axes),", "                remove_axes=(insert_axes, False),", "R19.4")
-add("C19", "constant keys: tangent slot filled with the frozen primals", "nifty/re/optimize_kl.py", "flat_fill=(primals_frozen, zeros_like(primals_frozen)),", "flat_fill=(primals_frozen, primals_frozen),", "R19.4")
-add("C19", "constant keys: minimiser starts from the full position", "nifty/re/optimize_kl.py", "            x0=pl,", "            x0=samples.pos,", "R19.4")
-add("C18", "both white draws use the same sub-key", "nifty/re/evi.py", "    prr_inv_metric_smpl = random_like(key=subkey_prr, primals=p_liquid)", "    prr_inv_metric_smpl = random_like(key=subkey_nll, primals=p_liquid)", "R18.3")
-add("C18", "metric sample without the prior draw", "nifty/re/evi.py", "    smpl = nll_smpl + prr_smpl\n", "    smpl = nll_smpl\n", "R18.3")
-add("C18", "CG metric without the prior identity", "nifty/re/evi.py", "    return lh.metric(p_liquid, tangents, **primals_kw) + tangents\n\n\ndef draw_linear_residual", "    return lh.metric(p_liquid, tangents, **primals_kw)\n\n\ndef draw_linear_residual", "R18.3")
-add("C18", "classic right-hand side drawn from the prior metric twice", "nifty/cl/operators/sampling_enabler.py", "                nj = self._likelihood.draw_sample(device_id=device_id)", "                nj = self._prior.draw_sample(device_id=device_id)", "R18.3")
-add("C18", "classic initial gradient with the wrong sign", "nifty/cl/operators/sampling_enabler.py", "_grad=self._likelihood(s) - nj)", "_grad=self._likelihood(s) + nj)", "R18.3")
-add("C18", "classic prior draw not from the inverse", "nifty/cl/operators/sampling_enabler.py", "s = self._prior.draw_sample(from_inverse=True, device_id=device_id)", "s = self._prior.draw_sample(from_inverse=False, device_id=device_id)", "R18.3")
-add("C26", "biased variance", "nifty/cl/probing.py", "        return self._M2 * (1./(self._count-1))", "        return self._M2 * (1./self._count)", "R26.7")
-add("C26", "spread accumulated with the old deviation twice", "nifty/cl/probing.py", "            self._M2 = self._M2 + delta*delta2", "            self._M2 = self._M2 + delta*delta", "R26.7")
-add("C26", "running mean divided by the old count", "nifty/cl/probing.py", "            self._mean = self.mean + delta*(1./self._count)", "            self._mean = self.mean + delta*(1./(self._count-1))", "R26.7")
-add("C26", "offset from the standard share of the total", "nifty/cl/minimization/sample_list.py", "    start = sum(n_locals[:comm.Get_rank()])", "    start = shareRange(sum(n_locals), comm.Get_size(), comm.Get_rank())[0]", "R26.4")
-add("C08", "isotropy shortcut tests two axes only", "nifty/cl/domains/rg_space.py", "        if np.all(self.distances == self.distances[0]):  # shortcut", "        if self.distances[0] == self.distances[-1]:  # shortcut", "R08.10")
-OTO = "nifty/cl/operator_tree_optimiser.py"
-add("C05", "rewrite runs on the caller's operator", OTO, "    op_optimised = deepcopy(op)\n", "    op_optimised = op\n", "R05.1")
-add("C05", "placeholder created on the domain of the cut operator", OTO, "FieldAdapter(res_op.target, next(prepend_id) + str(id(res_op)))", "FieldAdapter(res_op.domain, next(prepend_id) + str(id(res_op)))", "R05.2")
-add("C05", "operator.adjoint(placeholder) instead of placeholder.adjoint(operator)", OTO, "        op = op.partial_insert(same_op[key][1].adjoint(same_op[key][0]))", "        op = op.partial_insert(same_op[key][0].adjoint(same_op[key][1]))", "R05.2")
-add("C05", "self-check compares the rewritten operator with itself", OTO, "        myassert(allclose(op(test_field).asnumpy(), op_optimised(test_field).asnumpy(), 1e-10))", "        myassert(allclose(op_optimised(test_field).asnumpy(), op_optimised(test_field).asnumpy(), 1e-10))", "R05.1")
-add("C05", "subtree placeholders are never bound back", OTO, "    for key in key_list_subtrees:\n        op = op.partial_insert(same_subtrees[key][1].adjoint(same_subtrees[key][0]))\n", "", "R05.2")
-EOP = OPS + "energy_operators.py"
-add("C04", "specialised variable-covariance energy halves the log-determinant for complex sampling too", EOP, "            if not self._cplx:\n                trlog /= 2\n", "            trlog /= 2\n", "R04.2")
-add("C04", "specialised variable-covariance energy with the wrong sign of the log-determinant", EOP, "            res = res + ConstantLikelihoodEnergyOperator(-trlog)", "            res = res + ConstantLikelihoodEnergyOperator(trlog)", "R04.2")
-add("C04", "product gives both factors the constants of the first factor's domain", OPS + "operator.py",
-    "        f2, o2 = self._op2.simplify_for_constant_input(\n            c_inp.extract_part(self._op2.domain))\n        if not isinstance(self._target, MultiDomain):\n            return None, _OpProd(o1, o2)",
-    "        f2, o2 = self._op2.simplify_for_constant_input(\n            c_inp.extract_part(self._op1.domain))\n        if not isinstance(self._target, MultiDomain):\n            return None, _OpProd(o1, o2)", "R04.3")
-add("C04", "chain is specialised from the output side", OPS + "chain_operator.py", "        for op in reversed(self._ops):\n            c_inp, t_op = op.simplify_for_constant_input(c_inp)", "        for op in self._ops:\n            c_inp, t_op = op.simplify_for_constant_input(c_inp)", "R04.3")
-add("C04", "sum rebuilt as a product", OPS + "operator.py", "            return None, _OpSum(o1, o2)", "            return None, _OpProd(o1, o2)", "R04.3")
-add("C06", "mean divides by the volume of the whole domain", "nifty/cl/field.py", "        return tmp.sum(spaces)*(1./tmp.total_volume(spaces))", "        return tmp.sum(spaces)*(1./tmp.total_volume())", None)
-add("C06", "mean of non-uniform volumes without weights", "nifty/cl/field.py", "        tmp = self.weight(1, spaces)\n        return tmp.sum(spaces)*(1./tmp.total_volume(spaces))", "        tmp = self\n        return tmp.sum(spaces)*(1./tmp.total_volume(spaces))", "R06.9")
-add("C06", "uniform-volume integral forgets the weight", "nifty/cl/field.py", "            res = res*swgt\n            return res", "            return res", "R06.9")
-add("C06", "s_integrate weights twice", "nifty/cl/field.py", "        tmp = self.weight(1)\n        return tmp.s_sum()", "        tmp = self.weight(2)\n        return tmp.s_sum()", "R06.9")
-VARIANTS = V
-
-# ---- rules added after the seeded rounds 3-5
 add("C08", "empty upper bins not counted", "nifty/cl/domains/power_space.py", "minlength=nbin)", ")", "R08.6")
 add("C09", "config rebinds the shared dict", "nifty/config.py", "    _config[key] = value", "    _config = {**_config, key: value}", "R09.3")
 add("C09", "scipy hartley loses axes on device", "nifty/cl/ducc_dispatch.py", "        tmp = AnyArray(cufftn(a._val, axes=axes))", "        tmp = AnyArray(cufftn(a._val))", "R09.4")
@@ -274,53 +171,6 @@ add("C33", "max reduces pairs with min", "nifty/re/tree_math/vector_math.py", "m
 add("C33", "norm ord=0 branch removed", "nifty/re/tree_math/vector_math.py", "    if ord == 0:\n", "    if ord is None:\n", "R33.2")
 add("C33", "smap returns input for unmapped output", "nifty/re/custom_map.py", "            out.append(el[0])", "            out.append(unmapped.pop(0))", "R33.3")
 add("C33", "smap moves output to the input axis order", "nifty/re/custom_map.py", "out.append(_moveaxis(el, 0, i))", "out.append(_moveaxis(el, i, 0))", "R33.3")
-add("C06", "multi-field norm ignores ord", "nifty/cl/multi_field.py", "        return (nrm ** ord).sum() ** (1./ord)", "        return np.sqrt((nrm ** 2).sum())", "R06.6")
-add("C06", "Field.norm drops ord", "nifty/cl/field.py", "        return self._val.norm(ord=ord)", "        return self._val.norm()", "R06.6")
-add("C06", "weight indexes the shape vector with the sub-domain index", "nifty/cl/field.py",
-    "                new_shape[self._domain.axes[ind][0]:\n                          self._domain.axes[ind][-1]+1] = wgt.shape", "                new_shape[ind] = wgt.size", "R06.8")
-add("C10", "weight indexes the shape vector with the sub-domain index", "nifty/cl/field.py",
-    "                new_shape[self._domain.axes[ind][0]:\n                          self._domain.axes[ind][-1]+1] = wgt.shape", "                new_shape[ind] = wgt.size", "R10.6")
-add("C11", "inverse gamma stores alpha instead of alpha+1", OPS + "energy_operators.py", "        self._alphap1 = alpha+1\n", "        self._alphap1 = alpha\n", "R11.6")
-add("C11", "Bernoulli non-event term in the integer dtype", OPS + "energy_operators.py", ".vdot(self._d-1.)", ".vdot(self._d-1)", "R11.7")
-add("C11", "Poisson energy without the sum of the rates", OPS + "energy_operators.py", "        res = x.sum() - x.log().vdot(self._d)", "        res = -x.log().vdot(self._d)", "R11.6")
-add("C19", "JAX KL sums instead of averaging", "nifty/re/optimize_kl.py", "_reduce = partial(tree_map, partial(jnp.mean, axis=0))", "_reduce = partial(tree_map, partial(jnp.sum, axis=0))", "R19.3")
-add("C19", "JAX Hamiltonian prior without the factor 1/2", "nifty/re/optimize_kl.py", "+ 0.5 * vdot(primals, primals)", "+ vdot(primals, primals)", "R19.3")
-add("C19", "JAX KL metric maps the tangents too", "nifty/re/optimize_kl.py", "vmet = map(ham.metric, in_axes=(0, None))", "vmet = map(ham.metric, in_axes=(0, 0))", "R19.3")
-add("C19", "JAX KL evaluated at the bare residuals", "nifty/re/optimize_kl.py", "    s = vvg(primals_samples.at(primals).samples)", "    s = vvg(primals_samples._samples)", "R19.3")
-add("C19", "constant keys: value stripped instead of gradient", "nifty/re/optimize_kl.py", "                remove_axes=(False, insert_axes),", "                remove_axes=(insert_axes, False),", "R19.4")
-add("C19", "constant keys: tangent slot filled with the frozen primals", "nifty/re/optimize_kl.py", "flat_fill=(primals_frozen, zeros_like(primals_frozen)),", "flat_fill=(primals_frozen, primals_frozen),", "R19.4")
-add("C19", "constant keys: minimiser starts from the full position", "nifty/re/optimize_kl.py", "            x0=pl,", "            x0=samples.pos,", "R19.4")
-add("C18", "both white draws use the same sub-key", "nifty/re/evi.py", "    prr_inv_metric_smpl = random_like(key=subkey_prr, primals=p_liquid)", "    prr_inv_metric_smpl = random_like(key=subkey_nll, primals=p_liquid)", "R18.3")
-add("C18", "metric sample without the prior draw", "nifty/re/evi.py", "    smpl = nll_smpl + prr_smpl\n", "    smpl = nll_smpl\n", "R18.3")
-add("C18", "CG metric without the prior identity", "nifty/re/evi.py", "    return lh.metric(p_liquid, tangents, **primals_kw) + tangents\n\n\ndef draw_linear_residual", "    return lh.metric(p_liquid, tangents, **primals_kw)\n\n\ndef draw_linear_residual", "R18.3")
-add("C18", "classic right-hand side drawn from the prior metric twice", "nifty/cl/operators/sampling_enabler.py", "                nj = self._likelihood.draw_sample(device_id=device_id)", "                nj = self._prior.draw_sample(device_id=device_id)", "R18.3")
-add("C18", "classic initial gradient with the wrong sign", "nifty/cl/operators/sampling_enabler.py", "_grad=self._likelihood(s) - nj)", "_grad=self._likelihood(s) + nj)", "R18.3")
-add("C18", "classic prior draw not from the inverse", "nifty/cl/operators/sampling_enabler.py", "s = self._prior.draw_sample(from_inverse=True, device_id=device_id)", "s = self._prior.draw_sample(from_inverse=False, device_id=device_id)", "R18.3")
-add("C26", "biased variance", "nifty/cl/probing.py", "        return self._M2 * (1./(self._count-1))", "        return self._M2 * (1./self._count)", "R26.7")
-add("C26", "spread accumulated with the old deviation twice", "nifty/cl/probing.py", "            self._M2 = self._M2 + delta*delta2", "            self._M2 = self._M2 + delta*delta", "R26.7")
-add("C26", "running mean divided by the old count", "nifty/cl/probing.py", "            self._mean = self.mean + delta*(1./self._count)", "            self._mean = self.mean + delta*(1./(self._count-1))", "R26.7")
-add("C26", "offset from the standard share of the total", "nifty/cl/minimization/sample_list.py", "    start = sum(n_locals[:comm.Get_rank()])", "    start = shareRange(sum(n_locals), comm.Get_size(), comm.Get_rank())[0]", "R26.4")
-add("C08", "isotropy shortcut tests two axes only", "nifty/cl/domains/rg_space.py", "        if np.all(self.distances == self.distances[0]):  # shortcut", "        if self.distances[0] == self.distances[-1]:  # shortcut", "R08.10")
-OTO = "nifty/cl/operator_tree_optimiser.py"
-add("C05", "rewrite runs on the caller's operator", OTO, "    op_optimised = deepcopy(op)\n", "    op_optimised = op\n", "R05.1")
-add("C05", "placeholder created on the domain of the cut operator", OTO, "FieldAdapter(res_op.target, next(prepend_id) + str(id(res_op)))", "FieldAdapter(res_op.domain, next(prepend_id) + str(id(res_op)))", "R05.2")
-add("C05", "operator.adjoint(placeholder) instead of placeholder.adjoint(operator)", OTO, "        op = op.partial_insert(same_op[key][1].adjoint(same_op[key][0]))", "        op = op.partial_insert(same_op[key][0].adjoint(same_op[key][1]))", "R05.2")
-add("C05", "self-check compares the rewritten operator with itself", OTO, "        myassert(allclose(op(test_field).asnumpy(), op_optimised(test_field).asnumpy(), 1e-10))", "        myassert(allclose(op_optimised(test_field).asnumpy(), op_optimised(test_field).asnumpy(), 1e-10))", "R05.1")
-add("C05", "subtree placeholders are never bound back", OTO, "    for key in key_list_subtrees:\n        op = op.partial_insert(same_subtrees[key][1].adjoint(same_subtrees[key][0]))\n", "", "R05.2")
-EOP = OPS + "energy_operators.py"
-add("C04", "specialised variable-covariance energy halves the log-determinant for complex sampling too", EOP, "            if not self._cplx:\n                trlog /= 2\n", "            trlog /= 2\n", "R04.2")
-add("C04", "specialised variable-covariance energy with the wrong sign of the log-determinant", EOP, "            res = res + ConstantLikelihoodEnergyOperator(-trlog)", "            res = res + ConstantLikelihoodEnergyOperator(trlog)", "R04.2")
-add("C04", "product gives both factors the constants of the first factor's domain", OPS + "operator.py",
-    "        f2, o2 = self._op2.simplify_for_constant_input(\n            c_inp.extract_part(self._op2.domain))\n        if not isinstance(self._target, MultiDomain):\n            return None, _OpProd(o1, o2)",
-    "        f2, o2 = self._op2.simplify_for_constant_input(\n            c_inp.extract_part(self._op1.domain))\n        if not isinstance(self._target, MultiDomain):\n            return None, _OpProd(o1, o2)", "R04.3")
-add("C04", "chain is specialised from the output side", OPS + "chain_operator.py", "        for op in reversed(self._ops):\n            c_inp, t_op = op.simplify_for_constant_input(c_inp)", "        for op in self._ops:\n            c_inp, t_op = op.simplify_for_constant_input(c_inp)", "R04.3")
-add("C04", "sum rebuilt as a product", OPS + "operator.py", "            return None, _OpSum(o1, o2)", "            return None, _OpProd(o1, o2)", "R04.3")
-add("C06", "mean divides by the volume of the whole domain", "nifty/cl/field.py", "        return tmp.sum(spaces)*(1./tmp.total_volume(spaces))", "        return tmp.sum(spaces)*(1./tmp.total_volume())", None)
-add("C06", "mean of non-uniform volumes without weights", "nifty/cl/field.py", "        tmp = self.weight(1, spaces)\n        return tmp.sum(spaces)*(1./tmp.total_volume(spaces))", "        tmp = self\n        return tmp.sum(spaces)*(1./tmp.total_volume(spaces))", "R06.9")
-add("C06", "uniform-volume integral forgets the weight", "nifty/cl/field.py", "            res = res*swgt\n            return res", "            return res", "R06.9")
-add("C06", "s_integrate weights twice", "nifty/cl/field.py", "        tmp = self.weight(1)\n        return tmp.s_sum()", "        tmp = self.weight(2)\n        return tmp.s_sum()", "R06.9")
-VARIANTS = V
-
 SDP = "nifty/re/num/stats_distributions.py"
 SPDP = "nifty/cl/library/special_distributions.py"
 add("C30", "normal inverse multiplies", SDP, "    return (y - mean) / std", "    return (y - mean) * std", "R30.1")
@@ -337,53 +187,6 @@ add("C30", "laplace jacobian branches swapped", SPDP, "np.where(y > 0.5, 1/(1-y)
 add("C30", "inverse gamma mean formula", SPDP, "self._mean = self._q / (self._alpha - 1)", "self._mean = self._q / (self._alpha + 1)", "R30.2")
 add("C30", "gamma alpha from mean and var", SPDP, "            alpha = mean / theta", "            alpha = mean * theta", "R30.2")
 add("C30", "classic lognormal moments", "nifty/cl/utilities.py", "logmean = np.log(mean) - logsigma**2 / 2", "logmean = np.log(mean) + logsigma**2 / 2", "R30.2")
-add("C06", "multi-field norm ignores ord", "nifty/cl/multi_field.py", "        return (nrm ** ord).sum() ** (1./ord)", "        return np.sqrt((nrm ** 2).sum())", "R06.6")
-add("C06", "Field.norm drops ord", "nifty/cl/field.py", "        return self._val.norm(ord=ord)", "        return self._val.norm()", "R06.6")
-add("C06", "weight indexes the shape vector with the sub-domain index", "nifty/cl/field.py",
-    "                new_shape[self._domain.axes[ind][0]:\n                          self._domain.axes[ind][-1]+1] = wgt.shape", "                new_shape[ind] = wgt.size", "R06.8")
-add("C10", "weight indexes the shape vector with the sub-domain index", "nifty/cl/field.py",
-    "                new_shape[self._domain.axes[ind][0]:\n                          self._domain.axes[ind][-1]+1] = wgt.shape", "                new_shape[ind] = wgt.size", "R10.6")
-add("C11", "inverse gamma stores alpha instead of alpha+1", OPS + "energy_operators.py", "        self._alphap1 = alpha+1\n", "        self._alphap1 = alpha\n", "R11.6")
-add("C11", "Bernoulli non-event term in the integer dtype", OPS + "energy_operators.py", ".vdot(self._d-1.)", ".vdot(self._d-1)", "R11.7")
-add("C11", "Poisson energy without the sum of the rates", OPS + "energy_operators.py", "        res = x.sum() - x.log().vdot(self._d)", "        res = -x.log().vdot(self._d)", "R11.6")
-add("C19", "JAX KL sums instead of averaging", "nifty/re/optimize_kl.py", "_reduce = partial(tree_map, partial(jnp.mean, axis=0))", "_reduce = partial(tree_map, partial(jnp.sum, axis=0))", "R19.3")
-add("C19", "JAX Hamiltonian prior without the factor 1/2", "nifty/re/optimize_kl.py", "+ 0.5 * vdot(primals, primals)", "+ vdot(primals, primals)", "R19.3")
-add("C19", "JAX KL metric maps the tangents too", "nifty/re/optimize_kl.py", "vmet = map(ham.metric, in_axes=(0, None))", "vmet = map(ham.metric, in_axes=(0, 0))", "R19.3")
-add("C19", "JAX KL evaluated at the bare residuals", "nifty/re/optimize_kl.py", "    s = vvg(primals_samples.at(primals).samples)", "    s = vvg(primals_samples._samples)", "R19.3")
-add("C19", "constant keys: value stripped instead of gradient", "nifty/re/optimize_kl.py", "                remove_axes=(False, insert_axes),", "                remove_axes=(insert_axes, False),", "R19.4")
-add("C19", "constant keys: tangent slot filled with the frozen primals", "nifty/re/optimize_kl.py", "flat_fill=(primals_frozen, zeros_like(primals_frozen)),", "flat_fill=(primals_frozen, primals_frozen),", "R19.4")
-add("C19", "constant keys: minimiser starts from the full position", "nifty/re/optimize_kl.py", "            x0=pl,", "            x0=samples.pos,", "R19.4")
-add("C18", "both white draws use the same sub-key", "nifty/re/evi.py", "    prr_inv_metric_smpl = random_like(key=subkey_prr, primals=p_liquid)", "    prr_inv_metric_smpl = random_like(key=subkey_nll, primals=p_liquid)", "R18.3")
-add("C18", "metric sample without the prior draw", "nifty/re/evi.py", "    smpl = nll_smpl + prr_smpl\n", "    smpl = nll_smpl\n", "R18.3")
-add("C18", "CG metric without the prior identity", "nifty/re/evi.py", "    return lh.metric(p_liquid, tangents, **primals_kw) + tangents\n\n\ndef draw_linear_residual", "    return lh.metric(p_liquid, tangents, **primals_kw)\n\n\ndef draw_linear_residual", "R18.3")
-add("C18", "classic right-hand side drawn from the prior metric twice", "nifty/cl/operators/sampling_enabler.py", "                nj = self._likelihood.draw_sample(device_id=device_id)", "                nj = self._prior.draw_sample(device_id=device_id)", "R18.3")
-add("C18", "classic initial gradient with the wrong sign", "nifty/cl/operators/sampling_enabler.py", "_grad=self._likelihood(s) - nj)", "_grad=self._likelihood(s) + nj)", "R18.3")
-add("C18", "classic prior draw not from the inverse", "nifty/cl/operators/sampling_enabler.py", "s = self._prior.draw_sample(from_inverse=True, device_id=device_id)", "s = self._prior.draw_sample(from_inverse=False, device_id=device_id)", "R18.3")
-add("C26", "biased variance", "nifty/cl/probing.py", "        return self._M2 * (1./(self._count-1))", "        return self._M2 * (1./self._count)", "R26.7")
-add("C26", "spread accumulated with the old deviation twice", "nifty/cl/probing.py", "            self._M2 = self._M2 + delta*delta2", "            self._M2 = self._M2 + delta*delta", "R26.7")
-add("C26", "running mean divided by the old count", "nifty/cl/probing.py", "            self._mean = self.mean + delta*(1./self._count)", "            self._mean = self.mean + delta*(1./(self._count-1))", "R26.7")
-add("C26", "offset from the standard share of the total", "nifty/cl/minimization/sample_list.py", "    start = sum(n_locals[:comm.Get_rank()])", "    start = shareRange(sum(n_locals), comm.Get_size(), comm.Get_rank())[0]", "R26.4")
-add("C08", "isotropy shortcut tests two axes only", "nifty/cl/domains/rg_space.py", "        if np.all(self.distances == self.distances[0]):  # shortcut", "        if self.distances[0] == self.distances[-1]:  # shortcut", "R08.10")
-OTO = "nifty/cl/operator_tree_optimiser.py"
-add("C05", "rewrite runs on the caller's operator", OTO, "    op_optimised = deepcopy(op)\n", "    op_optimised = op\n", "R05.1")
-add("C05", "placeholder created on the domain of the cut operator", OTO, "FieldAdapter(res_op.target, next(prepend_id) + str(id(res_op)))", "FieldAdapter(res_op.domain, next(prepend_id) + str(id(res_op)))", "R05.2")
-add("C05", "operator.adjoint(placeholder) instead of placeholder.adjoint(operator)", OTO, "        op = op.partial_insert(same_op[key][1].adjoint(same_op[key][0]))", "        op = op.partial_insert(same_op[key][0].adjoint(same_op[key][1]))", "R05.2")
-add("C05", "self-check compares the rewritten operator with itself", OTO, "        myassert(allclose(op(test_field).asnumpy(), op_optimised(test_field).asnumpy(), 1e-10))", "        myassert(allclose(op_optimised(test_field).asnumpy(), op_optimised(test_field).asnumpy(), 1e-10))", "R05.1")
-add("C05", "subtree placeholders are never bound back", OTO, "    for key in key_list_subtrees:\n        op = op.partial_insert(same_subtrees[key][1].adjoint(same_subtrees[key][0]))\n", "", "R05.2")
-EOP = OPS + "energy_operators.py"
-add("C04", "specialised variable-covariance energy halves the log-determinant for complex sampling too", EOP, "            if not self._cplx:\n                trlog /= 2\n", "            trlog /= 2\n", "R04.2")
-add("C04", "specialised variable-covariance energy with the wrong sign of the log-determinant", EOP, "            res = res + ConstantLikelihoodEnergyOperator(-trlog)", "            res = res + ConstantLikelihoodEnergyOperator(trlog)", "R04.2")
-add("C04", "product gives both factors the constants of the first factor's domain", OPS + "operator.py",
-    "        f2, o2 = self._op2.simplify_for_constant_input(\n            c_inp.extract_part(self._op2.domain))\n        if not isinstance(self._target, MultiDomain):\n            return None, _OpProd(o1, o2)",
-    "        f2, o2 = self._op2.simplify_for_constant_input(\n            c_inp.extract_part(self._op1.domain))\n        if not isinstance(self._target, MultiDomain):\n            return None, _OpProd(o1, o2)", "R04.3")
-add("C04", "chain is specialised from the output side", OPS + "chain_operator.py", "        for op in reversed(self._ops):\n            c_inp, t_op = op.simplify_for_constant_input(c_inp)", "        for op in self._ops:\n            c_inp, t_op = op.simplify_for_constant_input(c_inp)", "R04.3")
-add("C04", "sum rebuilt as a product", OPS + "operator.py", "            return None, _OpSum(o1, o2)", "            return None, _OpProd(o1, o2)", "R04.3")
-add("C06", "mean divides by the volume of the whole domain", "nifty/cl/field.py", "        return tmp.sum(spaces)*(1./tmp.total_volume(spaces))", "        return tmp.sum(spaces)*(1./tmp.total_volume())", None)
-add("C06", "mean of non-uniform volumes without weights", "nifty/cl/field.py", "        tmp = self.weight(1, spaces)\n        return tmp.sum(spaces)*(1./tmp.total_volume(spaces))", "        tmp = self\n        return tmp.sum(spaces)*(1./tmp.total_volume(spaces))", "R06.9")
-add("C06", "uniform-volume integral forgets the weight", "nifty/cl/field.py", "            res = res*swgt\n            return res", "            return res", "R06.9")
-add("C06", "s_integrate weights twice", "nifty/cl/field.py", "        tmp = self.weight(1)\n        return tmp.s_sum()", "        tmp = self.weight(2)\n        return tmp.s_sum()", "R06.9")
-VARIANTS = V
-
 add("C36", "re chi-square divided by size for complex input", "nifty/re/minisanity.py", "    ndof = inp.size if jnp.isrealobj(inp) else 2 * inp.size", "    ndof = inp.size", "R36.1")
 add("C36", "re chi-square without conjugation", "nifty/re/minisanity.py", "rchisq = jnp.vdot(inp, inp).real / ndof", "rchisq = jnp.dot(inp, inp).real / ndof", "R36.1")
 add("C36", "re reports std of the wrong statistic", "nifty/re/minisanity.py", "rx = jnp.array([jnp.mean(rx), jnp.std(rx)])", "rx = jnp.array([jnp.mean(rx), jnp.std(m)])", "R36.1")
@@ -393,53 +196,6 @@ add("C36", "classic mean accumulates squares", "nifty/cl/extra.py", "if (tmp:=np
 add("C36", "classic ignored count drops zeros", "nifty/cl/extra.py", "xnigndof[ii][kk] = n_isnan + n_iszero", "xnigndof[ii][kk] = n_isnan", "R36.2")
 add("C36", "classic slots swapped in the result", "nifty/cl/extra.py", "                'data_residuals': xredchisq[0],\n                'latent_variables': xredchisq[1]",
     "                'data_residuals': xredchisq[1],\n                'latent_variables': xredchisq[0]", "R36.2")
-add("C06", "multi-field norm ignores ord", "nifty/cl/multi_field.py", "        return (nrm ** ord).sum() ** (1./ord)", "        return np.sqrt((nrm ** 2).sum())", "R06.6")
-add("C06", "Field.norm drops ord", "nifty/cl/field.py", "        return self._val.norm(ord=ord)", "        return self._val.norm()", "R06.6")
-add("C06", "weight indexes the shape vector with the sub-domain index", "nifty/cl/field.py",
-    "                new_shape[self._domain.axes[ind][0]:\n                          self._domain.axes[ind][-1]+1] = wgt.shape", "                new_shape[ind] = wgt.size", "R06.8")
-add("C10", "weight indexes the shape vector with the sub-domain index", "nifty/cl/field.py",
-    "                new_shape[self._domain.axes[ind][0]:\n                          self._domain.axes[ind][-1]+1] = wgt.shape", "                new_shape[ind] = wgt.size", "R10.6")
-add("C11", "inverse gamma stores alpha instead of alpha+1", OPS + "energy_operators.py", "        self._alphap1 = alpha+1\n", "        self._alphap1 = alpha\n", "R11.6")
-add("C11", "Bernoulli non-event term in the integer dtype", OPS + "energy_operators.py", ".vdot(self._d-1.)", ".vdot(self._d-1)", "R11.7")
-add("C11", "Poisson energy without the sum of the rates", OPS + "energy_operators.py", "        res = x.sum() - x.log().vdot(self._d)", "        res = -x.log().vdot(self._d)", "R11.6")
-add("C19", "JAX KL sums instead of averaging", "nifty/re/optimize_kl.py", "_reduce = partial(tree_map, partial(jnp.mean, axis=0))", "_reduce = partial(tree_map, partial(jnp.sum, axis=0))", "R19.3")
-add("C19", "JAX Hamiltonian prior without the factor 1/2", "nifty/re/optimize_kl.py", "+ 0.5 * vdot(primals, primals)", "+ vdot(primals, primals)", "R19.3")
-add("C19", "JAX KL metric maps the tangents too", "nifty/re/optimize_kl.py", "vmet = map(ham.metric, in_axes=(0, None))", "vmet = map(ham.metric, in_axes=(0, 0))", "R19.3")
-add("C19", "JAX KL evaluated at the bare residuals", "nifty/re/optimize_kl.py", "    s = vvg(primals_samples.at(primals).samples)", "    s = vvg(primals_samples._samples)", "R19.3")
-add("C19", "constant keys: value stripped instead of gradient", "nifty/re/optimize_kl.py", "                remove_axes=(False, insert_axes),", "                remove_axes=(insert_axes, False),", "R19.4")
-add("C19", "constant keys: tangent slot filled with the frozen primals", "nifty/re/optimize_kl.py", "flat_fill=(primals_frozen, zeros_like(primals_frozen)),", "flat_fill=(primals_frozen, primals_frozen),", "R19.4")
-add("C19", "constant keys: minimiser starts from the full position", "nifty/re/optimize_kl.py", "            x0=pl,", "            x0=samples.pos,", "R19.4")
-add("C18", "both white draws use the same sub-key", "nifty/re/evi.py", "    prr_inv_metric_smpl = random_like(key=subkey_prr, primals=p_liquid)", "    prr_inv_metric_smpl = random_like(key=subkey_nll, primals=p_liquid)", "R18.3")
-add("C18", "metric sample without the prior draw", "nifty/re/evi.py", "    smpl = nll_smpl + prr_smpl\n", "    smpl = nll_smpl\n", "R18.3")
-add("C18", "CG metric without the prior identity", "nifty/re/evi.py", "    return lh.metric(p_liquid, tangents, **primals_kw) + tangents\n\n\ndef draw_linear_residual", "    return lh.metric(p_liquid, tangents, **primals_kw)\n\n\ndef draw_linear_residual", "R18.3")
-add("C18", "classic right-hand side drawn from the prior metric twice", "nifty/cl/operators/sampling_enabler.py", "                nj = self._likelihood.draw_sample(device_id=device_id)", "                nj = self._prior.draw_sample(device_id=device_id)", "R18.3")
-add("C18", "classic initial gradient with the wrong sign", "nifty/cl/operators/sampling_enabler.py", "_grad=self._likelihood(s) - nj)", "_grad=self._likelihood(s) + nj)", "R18.3")
-add("C18", "classic prior draw not from the inverse", "nifty/cl/operators/sampling_enabler.py", "s = self._prior.draw_sample(from_inverse=True, device_id=device_id)", "s = self._prior.draw_sample(from_inverse=False, device_id=device_id)", "R18.3")
-add("C26", "biased variance", "nifty/cl/probing.py", "        return self._M2 * (1./(self._count-1))", "        return self._M2 * (1./self._count)", "R26.7")
-add("C26", "spread accumulated with the old deviation twice", "nifty/cl/probing.py", "            self._M2 = self._M2 + delta*delta2", "            self._M2 = self._M2 + delta*delta", "R26.7")
-add("C26", "running mean divided by the old count", "nifty/cl/probing.py", "            self._mean = self.mean + delta*(1./self._count)", "            self._mean = self.mean + delta*(1./(self._count-1))", "R26.7")
-add("C26", "offset from the standard share of the total", "nifty/cl/minimization/sample_list.py", "    start = sum(n_locals[:comm.Get_rank()])", "    start = shareRange(sum(n_locals), comm.Get_size(), comm.Get_rank())[0]", "R26.4")
-add("C08", "isotropy shortcut tests two axes only", "nifty/cl/domains/rg_space.py", "        if np.all(self.distances == self.distances[0]):  # shortcut", "        if self.distances[0] == self.distances[-1]:  # shortcut", "R08.10")
-OTO = "nifty/cl/operator_tree_optimiser.py"
-add("C05", "rewrite runs on the caller's operator", OTO, "    op_optimised = deepcopy(op)\n", "    op_optimised = op\n", "R05.1")
-add("C05", "placeholder created on the domain of the cut operator", OTO, "FieldAdapter(res_op.target, next(prepend_id) + str(id(res_op)))", "FieldAdapter(res_op.domain, next(prepend_id) + str(id(res_op)))", "R05.2")
-add("C05", "operator.adjoint(placeholder) instead of placeholder.adjoint(operator)", OTO, "        op = op.partial_insert(same_op[key][1].adjoint(same_op[key][0]))", "        op = op.partial_insert(same_op[key][0].adjoint(same_op[key][1]))", "R05.2")
-add("C05", "self-check compares the rewritten operator with itself", OTO, "        myassert(allclose(op(test_field).asnumpy(), op_optimised(test_field).asnumpy(), 1e-10))", "        myassert(allclose(op_optimised(test_field).asnumpy(), op_optimised(test_field).asnumpy(), 1e-10))", "R05.1")
-add("C05", "subtree placeholders are never bound back", OTO, "    for key in key_list_subtrees:\n        op = op.partial_insert(same_subtrees[key][1].adjoint(same_subtrees[key][0]))\n", "", "R05.2")
-EOP = OPS + "energy_operators.py"
-add("C04", "specialised variable-covariance energy halves the log-determinant for complex sampling too", EOP, "            if not self._cplx:\n                trlog /= 2\n", "            trlog /= 2\n", "R04.2")
-add("C04", "specialised variable-covariance energy with the wrong sign of the log-determinant", EOP, "            res = res + ConstantLikelihoodEnergyOperator(-trlog)", "            res = res + ConstantLikelihoodEnergyOperator(trlog)", "R04.2")
-add("C04", "product gives both factors the constants of the first factor's domain", OPS + "operator.py",
-    "        f2, o2 = self._op2.simplify_for_constant_input(\n            c_inp.extract_part(self._op2.domain))\n        if not isinstance(self._target, MultiDomain):\n            return None, _OpProd(o1, o2)",
-    "        f2, o2 = self._op2.simplify_for_constant_input(\n            c_inp.extract_part(self._op1.domain))\n        if not isinstance(self._target, MultiDomain):\n            return None, _OpProd(o1, o2)", "R04.3")
-add("C04", "chain is specialised from the output side", OPS + "chain_operator.py", "        for op in reversed(self._ops):\n            c_inp, t_op = op.simplify_for_constant_input(c_inp)", "        for op in self._ops:\n            c_inp, t_op = op.simplify_for_constant_input(c_inp)", "R04.3")
-add("C04", "sum rebuilt as a product", OPS + "operator.py", "            return None, _OpSum(o1, o2)", "            return None, _OpProd(o1, o2)", "R04.3")
-add("C06", "mean divides by the volume of the whole domain", "nifty/cl/field.py", "        return tmp.sum(spaces)*(1./tmp.total_volume(spaces))", "        return tmp.sum(spaces)*(1./tmp.total_volume())", None)
-add("C06", "mean of non-uniform volumes without weights", "nifty/cl/field.py", "        tmp = self.weight(1, spaces)\n        return tmp.sum(spaces)*(1./tmp.total_volume(spaces))", "        tmp = self\n        return tmp.sum(spaces)*(1./tmp.total_volume(spaces))", "R06.9")
-add("C06", "uniform-volume integral forgets the weight", "nifty/cl/field.py", "            res = res*swgt\n            return res", "            return res", "R06.9")
-add("C06", "s_integrate weights twice", "nifty/cl/field.py", "        tmp = self.weight(1)\n        return tmp.s_sum()", "        tmp = self.weight(2)\n        return tmp.s_sum()", "R06.9")
-VARIANTS = V
-
 GMP = "nifty/re/gauss_markov.py"
 add("C29", "wiener amplitude linear in dt", GMP, "    amp = jnp.sqrt(dt) * sigma", "    amp = dt * sigma", "R29.1")
 add("C29", "OU amplitude uses drift not drift squared", GMP, "amp = sigma * jnp.sqrt(1.0 - drift**2)", "amp = sigma * jnp.sqrt(1.0 - drift)", "R29.2")
@@ -450,53 +206,6 @@ add("C29", "IWP cross term", GMP, "res = res.at[:, 0].add(0.5 * dt * res[:, 1])"
 add("C29", "IWP drift uses current slope", GMP, "res = res.at[1:, 0].add(dt * res[:-1, 1])", "res = res.at[1:, 0].add(dt * res[1:, 1])", "R29.3")
 add("C29", "generic loop multiplies the wrong row", GMP, "return a.at[i + 1].add(jnp.matmul(d, a[i]))", "return a.at[i + 1].add(jnp.matmul(d, a[i + 1]))", "R29.4")
 add("C29", "generic noise uses drift", GMP, "res = vmap(jnp.matmul, in_ax, 0)(diffamp, xi)", "res = vmap(jnp.matmul, in_ax, 0)(drift, xi)", "R29.4")
-add("C06", "multi-field norm ignores ord", "nifty/cl/multi_field.py", "        return (nrm ** ord).sum() ** (1./ord)", "        return np.sqrt((nrm ** 2).sum())", "R06.6")
-add("C06", "Field.norm drops ord", "nifty/cl/field.py", "        return self._val.norm(ord=ord)", "        return self._val.norm()", "R06.6")
-add("C06", "weight indexes the shape vector with the sub-domain index", "nifty/cl/field.py",
-    "                new_shape[self._domain.axes[ind][0]:\n                          self._domain.axes[ind][-1]+1] = wgt.shape", "                new_shape[ind] = wgt.size", "R06.8")
-add("C10", "weight indexes the shape vector with the sub-domain index", "nifty/cl/field.py",
-    "                new_shape[self._domain.axes[ind][0]:\n                          self._domain.axes[ind][-1]+1] = wgt.shape", "                new_shape[ind] = wgt.size", "R10.6")
-add("C11", "inverse gamma stores alpha instead of alpha+1", OPS + "energy_operators.py", "        self._alphap1 = alpha+1\n", "        self._alphap1 = alpha\n", "R11.6")
-add("C11", "Bernoulli non-event term in the integer dtype", OPS + "energy_operators.py", ".vdot(self._d-1.)", ".vdot(self._d-1)", "R11.7")
-add("C11", "Poisson energy without the sum of the rates", OPS + "energy_operators.py", "        res = x.sum() - x.log().vdot(self._d)", "        res = -x.log().vdot(self._d)", "R11.6")
-add("C19", "JAX KL sums instead of averaging", "nifty/re/optimize_kl.py", "_reduce = partial(tree_map, partial(jnp.mean, axis=0))", "_reduce = partial(tree_map, partial(jnp.sum, axis=0))", "R19.3")
-add("C19", "JAX Hamiltonian prior without the factor 1/2", "nifty/re/optimize_kl.py", "+ 0.5 * vdot(primals, primals)", "+ vdot(primals, primals)", "R19.3")
-add("C19", "JAX KL metric maps the tangents too", "nifty/re/optimize_kl.py", "vmet = map(ham.metric, in_axes=(0, None))", "vmet = map(ham.metric, in_axes=(0, 0))", "R19.3")
-add("C19", "JAX KL evaluated at the bare residuals", "nifty/re/optimize_kl.py", "    s = vvg(primals_samples.at(primals).samples)", "    s = vvg(primals_samples._samples)", "R19.3")
-add("C19", "constant keys: value stripped instead of gradient", "nifty/re/optimize_kl.py", "                remove_axes=(False, insert_axes),", "                remove_axes=(insert_axes, False),", "R19.4")
-add("C19", "constant keys: tangent slot filled with the frozen primals", "nifty/re/optimize_kl.py", "flat_fill=(primals_frozen, zeros_like(primals_frozen)),", "flat_fill=(primals_frozen, primals_frozen),", "R19.4")
-add("C19", "constant keys: minimiser starts from the full position", "nifty/re/optimize_kl.py", "            x0=pl,", "            x0=samples.pos,", "R19.4")
-add("C18", "both white draws use the same sub-key", "nifty/re/evi.py", "    prr_inv_metric_smpl = random_like(key=subkey_prr, primals=p_liquid)", "    prr_inv_metric_smpl = random_like(key=subkey_nll, primals=p_liquid)", "R18.3")
-add("C18", "metric sample without the prior draw", "nifty/re/evi.py", "    smpl = nll_smpl + prr_smpl\n", "    smpl = nll_smpl\n", "R18.3")
-add("C18", "CG metric without the prior identity", "nifty/re/evi.py", "    return lh.metric(p_liquid, tangents, **primals_kw) + tangents\n\n\ndef draw_linear_residual", "    return lh.metric(p_liquid, tangents, **primals_kw)\n\n\ndef draw_linear_residual", "R18.3")
-add("C18", "classic right-hand side drawn from the prior metric twice", "nifty/cl/operators/sampling_enabler.py", "                nj = self._likelihood.draw_sample(device_id=device_id)", "                nj = self._prior.draw_sample(device_id=device_id)", "R18.3")
-add("C18", "classic initial gradient with the wrong sign", "nifty/cl/operators/sampling_enabler.py", "_grad=self._likelihood(s) - nj)", "_grad=self._likelihood(s) + nj)", "R18.3")
-add("C18", "classic prior draw not from the inverse", "nifty/cl/operators/sampling_enabler.py", "s = self._prior.draw_sample(from_inverse=True, device_id=device_id)", "s = self._prior.draw_sample(from_inverse=False, device_id=device_id)", "R18.3")
-add("C26", "biased variance", "nifty/cl/probing.py", "        return self._M2 * (1./(self._count-1))", "        return self._M2 * (1./self._count)", "R26.7")
-add("C26", "spread accumulated with the old deviation twice", "nifty/cl/probing.py", "            self._M2 = self._M2 + delta*delta2", "            self._M2 = self._M2 + delta*delta", "R26.7")
-add("C26", "running mean divided by the old count", "nifty/cl/probing.py", "            self._mean = self.mean + delta*(1./self._count)", "            self._mean = self.mean + delta*(1./(self._count-1))", "R26.7")
-add("C26", "offset from the standard share of the total", "nifty/cl/minimization/sample_list.py", "    start = sum(n_locals[:comm.Get_rank()])", "    start = shareRange(sum(n_locals), comm.Get_size(), comm.Get_rank())[0]", "R26.4")
-add("C08", "isotropy shortcut tests two axes only", "nifty/cl/domains/rg_space.py", "        if np.all(self.distances == self.distances[0]):  # shortcut", "        if self.distances[0] == self.distances[-1]:  # shortcut", "R08.10")
-OTO = "nifty/cl/operator_tree_optimiser.py"
-add("C05", "rewrite runs on the caller's operator", OTO, "    op_optimised = deepcopy(op)\n", "    op_optimised = op\n", "R05.1")
-add("C05", "placeholder created on the domain of the cut operator", OTO, "FieldAdapter(res_op.target, next(prepend_id) + str(id(res_op)))", "FieldAdapter(res_op.domain, next(prepend_id) + str(id(res_op)))", "R05.2")
-add("C05", "operator.adjoint(placeholder) instead of placeholder.adjoint(operator)", OTO, "        op = op.partial_insert(same_op[key][1].adjoint(same_op[key][0]))", "        op = op.partial_insert(same_op[key][0].adjoint(same_op[key][1]))", "R05.2")
-add("C05", "self-check compares the rewritten operator with itself", OTO, "        myassert(allclose(op(test_field).asnumpy(), op_optimised(test_field).asnumpy(), 1e-10))", "        myassert(allclose(op_optimised(test_field).asnumpy(), op_optimised(test_field).asnumpy(), 1e-10))", "R05.1")
-add("C05", "subtree placeholders are never bound back", OTO, "    for key in key_list_subtrees:\n        op = op.partial_insert(same_subtrees[key][1].adjoint(same_subtrees[key][0]))\n", "", "R05.2")
-EOP = OPS + "energy_operators.py"
-add("C04", "specialised variable-covariance energy halves the log-determinant for complex sampling too", EOP, "            if not self._cplx:\n                trlog /= 2\n", "            trlog /= 2\n", "R04.2")
-add("C04", "specialised variable-covariance energy with the wrong sign of the log-determinant", EOP, "            res = res + ConstantLikelihoodEnergyOperator(-trlog)", "            res = res + ConstantLikelihoodEnergyOperator(trlog)", "R04.2")
-add("C04", "product gives both factors the constants of the first factor's domain", OPS + "operator.py",
-    "        f2, o2 = self._op2.simplify_for_constant_input(\n            c_inp.extract_part(self._op2.domain))\n        if not isinstance(self._target, MultiDomain):\n            return None, _OpProd(o1, o2)",
-    "        f2, o2 = self._op2.simplify_for_constant_input(\n            c_inp.extract_part(self._op1.domain))\n        if not isinstance(self._target, MultiDomain):\n            return None, _OpProd(o1, o2)", "R04.3")
-add("C04", "chain is specialised from the output side", OPS + "chain_operator.py", "        for op in reversed(self._ops):\n            c_inp, t_op = op.simplify_for_constant_input(c_inp)", "        for op in self._ops:\n            c_inp, t_op = op.simplify_for_constant_input(c_inp)", "R04.3")
-add("C04", "sum rebuilt as a product", OPS + "operator.py", "            return None, _OpSum(o1, o2)", "            return None, _OpProd(o1, o2)", "R04.3")
-add("C06", "mean divides by the volume of the whole domain", "nifty/cl/field.py", "        return tmp.sum(spaces)*(1./tmp.total_volume(spaces))", "        return tmp.sum(spaces)*(1./tmp.total_volume())", None)
-add("C06", "mean of non-uniform volumes without weights", "nifty/cl/field.py", "        tmp = self.weight(1, spaces)\n        return tmp.sum(spaces)*(1./tmp.total_volume(spaces))", "        tmp = self\n        return tmp.sum(spaces)*(1./tmp.total_volume(spaces))", "R06.9")
-add("C06", "uniform-volume integral forgets the weight", "nifty/cl/field.py", "            res = res*swgt\n            return res", "            return res", "R06.9")
-add("C06", "s_integrate weights twice", "nifty/cl/field.py", "        tmp = self.weight(1)\n        return tmp.s_sum()", "        tmp = self.weight(2)\n        return tmp.s_sum()", "R06.9")
-VARIANTS = V
-
 add("C35", "mask stores the flags themselves", OPS + "mask_operator.py", "self._flags = np.logical_not(flags.val)", "self._flags = flags.val.astype(bool)", "R35.1")
 add("C35", "mask adjoint leaves the rest uninitialised", OPS + "mask_operator.py", "        res[~self._flags] = 0\n", "", "R35.1")
 add("C35", "mask adjoint scatters into the complement", OPS + "mask_operator.py", "        res[self._flags] = x\n        res[~self._flags] = 0", "        res[~self._flags] = x\n        res[self._flags] = 0", "R35.1")
@@ -508,257 +217,22 @@ add("C35", "regridding index not clamped", OPS + "regridding_operator.py", "self
 add("C35", "interpolator truncates instead of floor", OPS + "linear_interpolation.py", "pos = np.floor(pos).astype(np.int64)", "pos = pos.astype(np.int64)", "R35.4")
 add("C35", "interpolator weight without abs complement", OPS + "linear_interpolation.py", "np.abs(1 - mg[:, i].reshape(-1, 1) - excess)", "np.abs(mg[:, i].reshape(-1, 1) - excess)", "R35.4")
 add("C35", "interpolator adjoint uses matvec", OPS + "linear_interpolation.py", "res = self._sop.rmatvec(x).reshape(self.domain.shape)", "res = self._sop.matvec(x).reshape(self.domain.shape)", "R35.4")
-add("C06", "multi-field norm ignores ord", "nifty/cl/multi_field.py", "        return (nrm ** ord).sum() ** (1./ord)", "        return np.sqrt((nrm ** 2).sum())", "R06.6")
-add("C06", "Field.norm drops ord", "nifty/cl/field.py", "        return self._val.norm(ord=ord)", "        return self._val.norm()", "R06.6")
-add("C06", "weight indexes the shape vector with the sub-domain index", "nifty/cl/field.py",
-    "                new_shape[self._domain.axes[ind][0]:\n                          self._domain.axes[ind][-1]+1] = wgt.shape", "                new_shape[ind] = wgt.size", "R06.8")
-add("C10", "weight indexes the shape vector with the sub-domain index", "nifty/cl/field.py",
-    "                new_shape[self._domain.axes[ind][0]:\n                          self._domain.axes[ind][-1]+1] = wgt.shape", "                new_shape[ind] = wgt.size", "R10.6")
-add("C11", "inverse gamma stores alpha instead of alpha+1", OPS + "energy_operators.py", "        self._alphap1 = alpha+1\n", "        self._alphap1 = alpha\n", "R11.6")
-add("C11", "Bernoulli non-event term in the integer dtype", OPS + "energy_operators.py", ".vdot(self._d-1.)", ".vdot(self._d-1)", "R11.7")
-add("C11", "Poisson energy without the sum of the rates", OPS + "energy_operators.py", "        res = x.sum() - x.log().vdot(self._d)", "        res = -x.log().vdot(self._d)", "R11.6")
-add("C19", "JAX KL sums instead of averaging", "nifty/re/optimize_kl.py", "_reduce = partial(tree_map, partial(jnp.mean, axis=0))", "_reduce = partial(tree_map, partial(jnp.sum, axis=0))", "R19.3")
-add("C19", "JAX Hamiltonian prior without the factor 1/2", "nifty/re/optimize_kl.py", "+ 0.5 * vdot(primals, primals)", "+ vdot(primals, primals)", "R19.3")
-add("C19", "JAX KL metric maps the tangents too", "nifty/re/optimize_kl.py", "vmet = map(ham.metric, in_axes=(0, None))", "vmet = map(ham.metric, in_axes=(0, 0))", "R19.3")
-add("C19", "JAX KL evaluated at the bare residuals", "nifty/re/optimize_kl.py", "    s = vvg(primals_samples.at(primals).samples)", "    s = vvg(primals_samples._samples)", "R19.3")
-add("C19", "constant keys: value stripped instead of gradient", "nifty/re/optimize_kl.py", "                remove_axes=(False, insert_axes),", "                remove_axes=(insert_axes, False),", "R19.4")
-add("C19", "constant keys: tangent slot filled with the frozen primals", "nifty/re/optimize_kl.py", "flat_fill=(primals_frozen, zeros_like(primals_frozen)),", "flat_fill=(primals_frozen, primals_frozen),", "R19.4")
-add("C19", "constant keys: minimiser starts from the full position", "nifty/re/optimize_kl.py", "            x0=pl,", "            x0=samples.pos,", "R19.4")
-add("C18", "both white draws use the same sub-key", "nifty/re/evi.py", "    prr_inv_metric_smpl = random_like(key=subkey_prr, primals=p_liquid)", "    prr_inv_metric_smpl = random_like(key=subkey_nll, primals=p_liquid)", "R18.3")
-add("C18", "metric sample without the prior draw", "nifty/re/evi.py", "    smpl = nll_smpl + prr_smpl\n", "    smpl = nll_smpl\n", "R18.3")
-add("C18", "CG metric without the prior identity", "nifty/re/evi.py", "    return lh.metric(p_liquid, tangents, **primals_kw) + tangents\n\n\ndef draw_linear_residual", "    return lh.metric(p_liquid, tangents, **primals_kw)\n\n\ndef draw_linear_residual", "R18.3")
-add("C18", "classic right-hand side drawn from the prior metric twice", "nifty/cl/operators/sampling_enabler.py", "                nj = self._likelihood.draw_sample(device_id=device_id)", "                nj = self._prior.draw_sample(device_id=device_id)", "R18.3")
-add("C18", "classic initial gradient with the wrong sign", "nifty/cl/operators/sampling_enabler.py", "_grad=self._likelihood(s) - nj)", "_grad=self._likelihood(s) + nj)", "R18.3")
-add("C18", "classic prior draw not from the inverse", "nifty/cl/operators/sampling_enabler.py", "s = self._prior.draw_sample(from_inverse=True, device_id=device_id)", "s = self._prior.draw_sample(from_inverse=False, device_id=device_id)", "R18.3")
-add("C26", "biased variance", "nifty/cl/probing.py", "        return self._M2 * (1./(self._count-1))", "        return self._M2 * (1./self._count)", "R26.7")
-add("C26", "spread accumulated with the old deviation twice", "nifty/cl/probing.py", "            self._M2 = self._M2 + delta*delta2", "            self._M2 = self._M2 + delta*delta", "R26.7")
-add("C26", "running mean divided by the old count", "nifty/cl/probing.py", "            self._mean = self.mean + delta*(1./self._count)", "            self._mean = self.mean + delta*(1./(self._count-1))", "R26.7")
-add("C26", "offset from the standard share of the total", "nifty/cl/minimization/sample_list.py", "    start = sum(n_locals[:comm.Get_rank()])", "    start = shareRange(sum(n_locals), comm.Get_size(), comm.Get_rank())[0]", "R26.4")
-add("C08", "isotropy shortcut tests two axes only", "nifty/cl/domains/rg_space.py", "        if np.all(self.distances == self.distances[0]):  # shortcut", "        if self.distances[0] == self.distances[-1]:  # shortcut", "R08.10")
-OTO = "nifty/cl/operator_tree_optimiser.py"
-add("C05", "rewrite runs on the caller's operator", OTO, "    op_optimised = deepcopy(op)\n", "    op_optimised = op\n", "R05.1")
-add("C05", "placeholder created on the domain of the cut operator", OTO, "FieldAdapter(res_op.target, next(prepend_id) + str(id(res_op)))", "FieldAdapter(res_op.domain, next(prepend_id) + str(id(res_op)))", "R05.2")
-add("C05", "operator.adjoint(placeholder) instead of placeholder.adjoint(operator)", OTO, "        op = op.partial_insert(same_op[key][1].adjoint(same_op[key][0]))", "        op = op.partial_insert(same_op[key][0].adjoint(same_op[key][1]))", "R05.2")
-add("C05", "self-check compares the rewritten operator with itself", OTO, "        myassert(allclose(op(test_field).asnumpy(), op_optimised(test_field).asnumpy(), 1e-10))", "        myassert(allclose(op_optimised(test_field).asnumpy(), op_optimised(test_field).asnumpy(), 1e-10))", "R05.1")
-add("C05", "subtree placeholders are never bound back", OTO, "    for key in key_list_subtrees:\n        op = op.partial_insert(same_subtrees[key][1].adjoint(same_subtrees[key][0]))\n", "", "R05.2")
-EOP = OPS + "energy_operators.py"
-add("C04", "specialised variable-covariance energy halves the log-determinant for complex sampling too", EOP, "            if not self._cplx:\n                trlog /= 2\n", "            trlog /= 2\n", "R04.2")
-add("C04", "specialised variable-covariance energy with the wrong sign of the log-determinant", EOP, "            res = res + ConstantLikelihoodEnergyOperator(-trlog)", "            res = res + ConstantLikelihoodEnergyOperator(trlog)", "R04.2")
-add("C04", "product gives both factors the constants of the first factor's domain", OPS + "operator.py",
-    "        f2, o2 = self._op2.simplify_for_constant_input(\n            c_inp.extract_part(self._op2.domain))\n        if not isinstance(self._target, MultiDomain):\n            return None, _OpProd(o1, o2)",
-    "        f2, o2 = self._op2.simplify_for_constant_input(\n            c_inp.extract_part(self._op1.domain))\n        if not isinstance(self._target, MultiDomain):\n            return None, _OpProd(o1, o2)", "R04.3")
-add("C04", "chain is specialised from the output side", OPS + "chain_operator.py", "        for op in reversed(self._ops):\n            c_inp, t_op = op.simplify_for_constant_input(c_inp)", "        for op in self._ops:\n            c_inp, t_op = op.simplify_for_constant_input(c_inp)", "R04.3")
-add("C04", "sum rebuilt as a product", OPS + "operator.py", "            return None, _OpSum(o1, o2)", "            return None, _OpProd(o1, o2)", "R04.3")
-add("C06", "mean divides by the volume of the whole domain", "nifty/cl/field.py", "        return tmp.sum(spaces)*(1./tmp.total_volume(spaces))", "        return tmp.sum(spaces)*(1./tmp.total_volume())", None)
-add("C06", "mean of non-uniform volumes without weights", "nifty/cl/field.py", "        tmp = self.weight(1, spaces)\n        return tmp.sum(spaces)*(1./tmp.total_volume(spaces))", "        tmp = self\n        return tmp.sum(spaces)*(1./tmp.total_volume(spaces))", "R06.9")
-add("C06", "uniform-volume integral forgets the weight", "nifty/cl/field.py", "            res = res*swgt\n            return res", "            return res", "R06.9")
-add("C06", "s_integrate weights twice", "nifty/cl/field.py", "        tmp = self.weight(1)\n        return tmp.s_sum()", "        tmp = self.weight(2)\n        return tmp.s_sum()", "R06.9")
-VARIANTS = V
-
 add("C24", "temporary state file opened exclusively", "nifty/re/optimize_kl.py", '            with open(tmp_fn, "wb") as f:', '            with open(tmp_fn, "xb") as f:', "R24.1")
 add("C24", "sampler cached on the instance", "nifty/re/optimize_kl.py", "        sampler = Partial(self.draw_linear_residual, **kwargs)\n",
     "        sampler = Partial(self.draw_linear_residual, **kwargs)\n        self._last_sampler = sampler\n", "R24.4")
 add("C01", "sandwich scaling shortcut squares a complex factor", OPS + "sandwich_operator.py", "fct = abs(bun._factor)**2", "fct = bun._factor**2", "R01.4")
-add("C06", "multi-field norm ignores ord", "nifty/cl/multi_field.py", "        return (nrm ** ord).sum() ** (1./ord)", "        return np.sqrt((nrm ** 2).sum())", "R06.6")
-add("C06", "Field.norm drops ord", "nifty/cl/field.py", "        return self._val.norm(ord=ord)", "        return self._val.norm()", "R06.6")
-add("C06", "weight indexes the shape vector with the sub-domain index", "nifty/cl/field.py",
-    "                new_shape[self._domain.axes[ind][0]:\n                          self._domain.axes[ind][-1]+1] = wgt.shape", "                new_shape[ind] = wgt.size", "R06.8")
-add("C10", "weight indexes the shape vector with the sub-domain index", "nifty/cl/field.py",
-    "                new_shape[self._domain.axes[ind][0]:\n                          self._domain.axes[ind][-1]+1] = wgt.shape", "                new_shape[ind] = wgt.size", "R10.6")
-add("C11", "inverse gamma stores alpha instead of alpha+1", OPS + "energy_operators.py", "        self._alphap1 = alpha+1\n", "        self._alphap1 = alpha\n", "R11.6")
-add("C11", "Bernoulli non-event term in the integer dtype", OPS + "energy_operators.py", ".vdot(self._d-1.)", ".vdot(self._d-1)", "R11.7")
-add("C11", "Poisson energy without the sum of the rates", OPS + "energy_operators.py", "        res = x.sum() - x.log().vdot(self._d)", "        res = -x.log().vdot(self._d)", "R11.6")
-add("C19", "JAX KL sums instead of averaging", "nifty/re/optimize_kl.py", "_reduce = partial(tree_map, partial(jnp.mean, axis=0))", "_reduce = partial(tree_map, partial(jnp.sum, axis=0))", "R19.3")
-add("C19", "JAX Hamiltonian prior without the factor 1/2", "nifty/re/optimize_kl.py", "+ 0.5 * vdot(primals, primals)", "+ vdot(primals, primals)", "R19.3")
-add("C19", "JAX KL metric maps the tangents too", "nifty/re/optimize_kl.py", "vmet = map(ham.metric, in_axes=(0, None))", "vmet = map(ham.metric, in_axes=(0, 0))", "R19.3")
-add("C19", "JAX KL evaluated at the bare residuals", "nifty/re/optimize_kl.py", "    s = vvg(primals_samples.at(primals).samples)", "    s = vvg(primals_samples._samples)", "R19.3")
-add("C19", "constant keys: value stripped instead of gradient", "nifty/re/optimize_kl.py", "                remove_axes=(False, insert_axes),", "                remove_axes=(insert_axes, False),", "R19.4")
-add("C19", "constant keys: tangent slot filled with the frozen primals", "nifty/re/optimize_kl.py", "flat_fill=(primals_frozen, zeros_like(primals_frozen)),", "flat_fill=(primals_frozen, primals_frozen),", "R19.4")
-add("C19", "constant keys: minimiser starts from the full position", "nifty/re/optimize_kl.py", "            x0=pl,", "            x0=samples.pos,", "R19.4")
-add("C18", "both white draws use the same sub-key", "nifty/re/evi.py", "    prr_inv_metric_smpl = random_like(key=subkey_prr, primals=p_liquid)", "    prr_inv_metric_smpl = random_like(key=subkey_nll, primals=p_liquid)", "R18.3")
-add("C18", "metric sample without the prior draw", "nifty/re/evi.py", "    smpl = nll_smpl + prr_smpl\n", "    smpl = nll_smpl\n", "R18.3")
-add("C18", "CG metric without the prior identity", "nifty/re/evi.py", "    return lh.metric(p_liquid, tangents, **primals_kw) + tangents\n\n\ndef draw_linear_residual", "    return lh.metric(p_liquid, tangents, **primals_kw)\n\n\ndef draw_linear_residual", "R18.3")
-add("C18", "classic right-hand side drawn from the prior metric twice", "nifty/cl/operators/sampling_enabler.py", "                nj = self._likelihood.draw_sample(device_id=device_id)", "                nj = self._prior.draw_sample(device_id=device_id)", "R18.3")
-add("C18", "classic initial gradient with the wrong sign", "nifty/cl/operators/sampling_enabler.py", "_grad=self._likelihood(s) - nj)", "_grad=self._likelihood(s) + nj)", "R18.3")
-add("C18", "classic prior draw not from the inverse", "nifty/cl/operators/sampling_enabler.py", "s = self._prior.draw_sample(from_inverse=True, device_id=device_id)", "s = self._prior.draw_sample(from_inverse=False, device_id=device_id)", "R18.3")
-add("C26", "biased variance", "nifty/cl/probing.py", "        return self._M2 * (1./(self._count-1))", "        return self._M2 * (1./self._count)", "R26.7")
-add("C26", "spread accumulated with the old deviation twice", "nifty/cl/probing.py", "            self._M2 = self._M2 + delta*delta2", "            self._M2 = self._M2 + delta*delta", "R26.7")
-add("C26", "running mean divided by the old count", "nifty/cl/probing.py", "            self._mean = self.mean + delta*(1./self._count)", "            self._mean = self.mean + delta*(1./(self._count-1))", "R26.7")
-add("C26", "offset from the standard share of the total", "nifty/cl/minimization/sample_list.py", "    start = sum(n_locals[:comm.Get_rank()])", "    start = shareRange(sum(n_locals), comm.Get_size(), comm.Get_rank())[0]", "R26.4")
-add("C08", "isotropy shortcut tests two axes only", "nifty/cl/domains/rg_space.py", "        if np.all(self.distances == self.distances[0]):  # shortcut", "        if self.distances[0] == self.distances[-1]:  # shortcut", "R08.10")
-OTO = "nifty/cl/operator_tree_optimiser.py"
-add("C05", "rewrite runs on the caller's operator", OTO, "    op_optimised = deepcopy(op)\n", "    op_optimised = op\n", "R05.1")
-add("C05", "placeholder created on the domain of the cut operator", OTO, "FieldAdapter(res_op.target, next(prepend_id) + str(id(res_op)))", "FieldAdapter(res_op.domain, next(prepend_id) + str(id(res_op)))", "R05.2")
-add("C05", "operator.adjoint(placeholder) instead of placeholder.adjoint(operator)", OTO, "        op = op.partial_insert(same_op[key][1].adjoint(same_op[key][0]))", "        op = op.partial_insert(same_op[key][0].adjoint(same_op[key][1]))", "R05.2")
-add("C05", "self-check compares the rewritten operator with itself", OTO, "        myassert(allclose(op(test_field).asnumpy(), op_optimised(test_field).asnumpy(), 1e-10))", "        myassert(allclose(op_optimised(test_field).asnumpy(), op_optimised(test_field).asnumpy(), 1e-10))", "R05.1")
-add("C05", "subtree placeholders are never bound back", OTO, "    for key in key_list_subtrees:\n        op = op.partial_insert(same_subtrees[key][1].adjoint(same_subtrees[key][0]))\n", "", "R05.2")
-EOP = OPS + "energy_operators.py"
-add("C04", "specialised variable-covariance energy halves the log-determinant for complex sampling too", EOP, "            if not self._cplx:\n                trlog /= 2\n", "            trlog /= 2\n", "R04.2")
-add("C04", "specialised variable-covariance energy with the wrong sign of the log-determinant", EOP, "            res = res + ConstantLikelihoodEnergyOperator(-trlog)", "            res = res + ConstantLikelihoodEnergyOperator(trlog)", "R04.2")
-add("C04", "product gives both factors the constants of the first factor's domain", OPS + "operator.py",
-    "        f2, o2 = self._op2.simplify_for_constant_input(\n            c_inp.extract_part(self._op2.domain))\n        if not isinstance(self._target, MultiDomain):\n            return None, _OpProd(o1, o2)",
-    "        f2, o2 = self._op2.simplify_for_constant_input(\n            c_inp.extract_part(self._op1.domain))\n        if not isinstance(self._target, MultiDomain):\n            return None, _OpProd(o1, o2)", "R04.3")
-add("C04", "chain is specialised from the output side", OPS + "chain_operator.py", "        for op in reversed(self._ops):\n            c_inp, t_op = op.simplify_for_constant_input(c_inp)", "        for op in self._ops:\n            c_inp, t_op = op.simplify_for_constant_input(c_inp)", "R04.3")
-add("C04", "sum rebuilt as a product", OPS + "operator.py", "            return None, _OpSum(o1, o2)", "            return None, _OpProd(o1, o2)", "R04.3")
-add("C06", "mean divides by the volume of the whole domain", "nifty/cl/field.py", "        return tmp.sum(spaces)*(1./tmp.total_volume(spaces))", "        return tmp.sum(spaces)*(1./tmp.total_volume())", None)
-add("C06", "mean of non-uniform volumes without weights", "nifty/cl/field.py", "        tmp = self.weight(1, spaces)\n        return tmp.sum(spaces)*(1./tmp.total_volume(spaces))", "        tmp = self\n        return tmp.sum(spaces)*(1./tmp.total_volume(spaces))", "R06.9")
-add("C06", "uniform-volume integral forgets the weight", "nifty/cl/field.py", "            res = res*swgt\n            return res", "            return res", "R06.9")
-add("C06", "s_integrate weights twice", "nifty/cl/field.py", "        tmp = self.weight(1)\n        return tmp.s_sum()", "        tmp = self.weight(2)\n        return tmp.s_sum()", "R06.9")
-VARIANTS = V
-
 add("C23", "bcast master is rank zero", "nifty/cl/utilities.py", "    master = comm.Get_rank() == root", "    master = comm.Get_rank() == 0", "R23.6")
 add("C23", "send skips the contiguity copy for Fortran order", "nifty/cl/utilities.py", "        shp_orig = obj.shape\n        obj = np.ascontiguousarray(obj).reshape(shp_orig)\n",
     "        if not obj.flags.forc:\n            shp_orig = obj.shape\n            obj = np.ascontiguousarray(obj).reshape(shp_orig)\n", "R23.5")
 add("C23", "send asserts before coercing", "nifty/cl/utilities.py", "    if dtype is np.ndarray:\n        # Partial sums of 0-d arrays are numpy scalars\n        obj = np.asarray(obj)\n    assert isinstance(obj, dtype)",
     "    assert isinstance(obj, dtype)", "R23.5")
-add("C06", "multi-field norm ignores ord", "nifty/cl/multi_field.py", "        return (nrm ** ord).sum() ** (1./ord)", "        return np.sqrt((nrm ** 2).sum())", "R06.6")
-add("C06", "Field.norm drops ord", "nifty/cl/field.py", "        return self._val.norm(ord=ord)", "        return self._val.norm()", "R06.6")
-add("C06", "weight indexes the shape vector with the sub-domain index", "nifty/cl/field.py",
-    "                new_shape[self._domain.axes[ind][0]:\n                          self._domain.axes[ind][-1]+1] = wgt.shape", "                new_shape[ind] = wgt.size", "R06.8")
-add("C10", "weight indexes the shape vector with the sub-domain index", "nifty/cl/field.py",
-    "                new_shape[self._domain.axes[ind][0]:\n                          self._domain.axes[ind][-1]+1] = wgt.shape", "                new_shape[ind] = wgt.size", "R10.6")
-add("C11", "inverse gamma stores alpha instead of alpha+1", OPS + "energy_operators.py", "        self._alphap1 = alpha+1\n", "        self._alphap1 = alpha\n", "R11.6")
-add("C11", "Bernoulli non-event term in the integer dtype", OPS + "energy_operators.py", ".vdot(self._d-1.)", ".vdot(self._d-1)", "R11.7")
-add("C11", "Poisson energy without the sum of the rates", OPS + "energy_operators.py", "        res = x.sum() - x.log().vdot(self._d)", "        res = -x.log().vdot(self._d)", "R11.6")
-add("C19", "JAX KL sums instead of averaging", "nifty/re/optimize_kl.py", "_reduce = partial(tree_map, partial(jnp.mean, axis=0))", "_reduce = partial(tree_map, partial(jnp.sum, axis=0))", "R19.3")
-add("C19", "JAX Hamiltonian prior without the factor 1/2", "nifty/re/optimize_kl.py", "+ 0.5 * vdot(primals, primals)", "+ vdot(primals, primals)", "R19.3")
-add("C19", "JAX KL metric maps the tangents too", "nifty/re/optimize_kl.py", "vmet = map(ham.metric, in_axes=(0, None))", "vmet = map(ham.metric, in_axes=(0, 0))", "R19.3")
-add("C19", "JAX KL evaluated at the bare residuals", "nifty/re/optimize_kl.py", "    s = vvg(primals_samples.at(primals).samples)", "    s = vvg(primals_samples._samples)", "R19.3")
-add("C19", "constant keys: value stripped instead of gradient", "nifty/re/optimize_kl.py", "                remove_axes=(False, insert_axes),", "                remove_axes=(insert_axes, False),", "R19.4")
-add("C19", "constant keys: tangent slot filled with the frozen primals", "nifty/re/optimize_kl.py", "flat_fill=(primals_frozen, zeros_like(primals_frozen)),", "flat_fill=(primals_frozen, primals_frozen),", "R19.4")
-add("C19", "constant keys: minimiser starts from the full position", "nifty/re/optimize_kl.py", "            x0=pl,", "            x0=samples.pos,", "R19.4")
-add("C18", "both white draws use the same sub-key", "nifty/re/evi.py", "    prr_inv_metric_smpl = random_like(key=subkey_prr, primals=p_liquid)", "    prr_inv_metric_smpl = random_like(key=subkey_nll, primals=p_liquid)", "R18.3")
-add("C18", "metric sample without the prior draw", "nifty/re/evi.py", "    smpl = nll_smpl + prr_smpl\n", "    smpl = nll_smpl\n", "R18.3")
-add("C18", "CG metric without the prior identity", "nifty/re/evi.py", "    return lh.metric(p_liquid, tangents, **primals_kw) + tangents\n\n\ndef draw_linear_residual", "    return lh.metric(p_liquid, tangents, **primals_kw)\n\n\ndef draw_linear_residual", "R18.3")
-add("C18", "classic right-hand side drawn from the prior metric twice", "nifty/cl/operators/sampling_enabler.py", "                nj = self._likelihood.draw_sample(device_id=device_id)", "                nj = self._prior.draw_sample(device_id=device_id)", "R18.3")
-add("C18", "classic initial gradient with the wrong sign", "nifty/cl/operators/sampling_enabler.py", "_grad=self._likelihood(s) - nj)", "_grad=self._likelihood(s) + nj)", "R18.3")
-add("C18", "classic prior draw not from the inverse", "nifty/cl/operators/sampling_enabler.py", "s = self._prior.draw_sample(from_inverse=True, device_id=device_id)", "s = self._prior.draw_sample(from_inverse=False, device_id=device_id)", "R18.3")
-add("C26", "biased variance", "nifty/cl/probing.py", "        return self._M2 * (1./(self._count-1))", "        return self._M2 * (1./self._count)", "R26.7")
-add("C26", "spread accumulated with the old deviation twice", "nifty/cl/probing.py", "            self._M2 = self._M2 + delta*delta2", "            self._M2 = self._M2 + delta*delta", "R26.7")
-add("C26", "running mean divided by the old count", "nifty/cl/probing.py", "            self._mean = self.mean + delta*(1./self._count)", "            self._mean = self.mean + delta*(1./(self._count-1))", "R26.7")
-add("C26", "offset from the standard share of the total", "nifty/cl/minimization/sample_list.py", "    start = sum(n_locals[:comm.Get_rank()])", "    start = shareRange(sum(n_locals), comm.Get_size(), comm.Get_rank())[0]", "R26.4")
-add("C08", "isotropy shortcut tests two axes only", "nifty/cl/domains/rg_space.py", "        if np.all(self.distances == self.distances[0]):  # shortcut", "        if self.distances[0] == self.distances[-1]:  # shortcut", "R08.10")
-OTO = "nifty/cl/operator_tree_optimiser.py"
-add("C05", "rewrite runs on the caller's operator", OTO, "    op_optimised = deepcopy(op)\n", "    op_optimised = op\n", "R05.1")
-add("C05", "placeholder created on the domain of the cut operator", OTO, "FieldAdapter(res_op.target, next(prepend_id) + str(id(res_op)))", "FieldAdapter(res_op.domain, next(prepend_id) + str(id(res_op)))", "R05.2")
-add("C05", "operator.adjoint(placeholder) instead of placeholder.adjoint(operator)", OTO, "        op = op.partial_insert(same_op[key][1].adjoint(same_op[key][0]))", "        op = op.partial_insert(same_op[key][0].adjoint(same_op[key][1]))", "R05.2")
-add("C05", "self-check compares the rewritten operator with itself", OTO, "        myassert(allclose(op(test_field).asnumpy(), op_optimised(test_field).asnumpy(), 1e-10))", "        myassert(allclose(op_optimised(test_field).asnumpy(), op_optimised(test_field).asnumpy(), 1e-10))", "R05.1")
-add("C05", "subtree placeholders are never bound back", OTO, "    for key in key_list_subtrees:\n        op = op.partial_insert(same_subtrees[key][1].adjoint(same_subtrees[key][0]))\n", "", "R05.2")
-EOP = OPS + "energy_operators.py"
-add("C04", "specialised variable-covariance energy halves the log-determinant for complex sampling too", EOP, "            if not self._cplx:\n                trlog /= 2\n", "            trlog /= 2\n", "R04.2")
-add("C04", "specialised variable-covariance energy with the wrong sign of the log-determinant", EOP, "            res = res + ConstantLikelihoodEnergyOperator(-trlog)", "            res = res + ConstantLikelihoodEnergyOperator(trlog)", "R04.2")
-add("C04", "product gives both factors the constants of the first factor's domain", OPS + "operator.py",
-    "        f2, o2 = self._op2.simplify_for_constant_input(\n            c_inp.extract_part(self._op2.domain))\n        if not isinstance(self._target, MultiDomain):\n            return None, _OpProd(o1, o2)",
-    "        f2, o2 = self._op2.simplify_for_constant_input(\n            c_inp.extract_part(self._op1.domain))\n        if not isinstance(self._target, MultiDomain):\n            return None, _OpProd(o1, o2)", "R04.3")
-add("C04", "chain is specialised from the output side", OPS + "chain_operator.py", "        for op in reversed(self._ops):\n            c_inp, t_op = op.simplify_for_constant_input(c_inp)", "        for op in self._ops:\n            c_inp, t_op = op.simplify_for_constant_input(c_inp)", "R04.3")
-add("C04", "sum rebuilt as a product", OPS + "operator.py", "            return None, _OpSum(o1, o2)", "            return None, _OpProd(o1, o2)", "R04.3")
-add("C06", "mean divides by the volume of the whole domain", "nifty/cl/field.py", "        return tmp.sum(spaces)*(1./tmp.total_volume(spaces))", "        return tmp.sum(spaces)*(1./tmp.total_volume())", None)
-add("C06", "mean of non-uniform volumes without weights", "nifty/cl/field.py", "        tmp = self.weight(1, spaces)\n        return tmp.sum(spaces)*(1./tmp.total_volume(spaces))", "        tmp = self\n        return tmp.sum(spaces)*(1./tmp.total_volume(spaces))", "R06.9")
-add("C06", "uniform-volume integral forgets the weight", "nifty/cl/field.py", "            res = res*swgt\n            return res", "            return res", "R06.9")
-add("C06", "s_integrate weights twice", "nifty/cl/field.py", "        tmp = self.weight(1)\n        return tmp.s_sum()", "        tmp = self.weight(2)\n        return tmp.s_sum()", "R06.9")
-VARIANTS = V
-
 add("C07", "distributor reuses its output buffer", OPS + "distributors.py", "        oarr = np.empty_like(arr, shape=self._pshape, dtype=x.dtype)\n        oarr[()] = arr[(slice(None), self._dofdex, slice(None))]",
     "        if getattr(self, '_obuf', None) is None:\n            self._obuf = np.empty_like(arr, shape=self._pshape, dtype=x.dtype)\n        oarr = self._obuf\n        oarr[()] = arr[(slice(None), self._dofdex, slice(None))]", "R07.7")
 add("C07", "AnyArray strips subclasses with asarray", "nifty/cl/any_array.py", "        if np.isscalar(arr):\n            arr = np.array(arr)\n",
     "        if np.isscalar(arr):\n            arr = np.array(arr)\n        elif isinstance(arr, np.ndarray) and type(arr) is not np.ndarray:\n            arr = np.asarray(arr)\n", "R07.6")
-add("C06", "multi-field norm ignores ord", "nifty/cl/multi_field.py", "        return (nrm ** ord).sum() ** (1./ord)", "        return np.sqrt((nrm ** 2).sum())", "R06.6")
-add("C06", "Field.norm drops ord", "nifty/cl/field.py", "        return self._val.norm(ord=ord)", "        return self._val.norm()", "R06.6")
-add("C06", "weight indexes the shape vector with the sub-domain index", "nifty/cl/field.py",
-    "                new_shape[self._domain.axes[ind][0]:\n                          self._domain.axes[ind][-1]+1] = wgt.shape", "                new_shape[ind] = wgt.size", "R06.8")
-add("C10", "weight indexes the shape vector with the sub-domain index", "nifty/cl/field.py",
-    "                new_shape[self._domain.axes[ind][0]:\n                          self._domain.axes[ind][-1]+1] = wgt.shape", "                new_shape[ind] = wgt.size", "R10.6")
-add("C11", "inverse gamma stores alpha instead of alpha+1", OPS + "energy_operators.py", "        self._alphap1 = alpha+1\n", "        self._alphap1 = alpha\n", "R11.6")
-add("C11", "Bernoulli non-event term in the integer dtype", OPS + "energy_operators.py", ".vdot(self._d-1.)", ".vdot(self._d-1)", "R11.7")
-add("C11", "Poisson energy without the sum of the rates", OPS + "energy_operators.py", "        res = x.sum() - x.log().vdot(self._d)", "        res = -x.log().vdot(self._d)", "R11.6")
-add("C19", "JAX KL sums instead of averaging", "nifty/re/optimize_kl.py", "_reduce = partial(tree_map, partial(jnp.mean, axis=0))", "_reduce = partial(tree_map, partial(jnp.sum, axis=0))", "R19.3")
-add("C19", "JAX Hamiltonian prior without the factor 1/2", "nifty/re/optimize_kl.py", "+ 0.5 * vdot(primals, primals)", "+ vdot(primals, primals)", "R19.3")
-add("C19", "JAX KL metric maps the tangents too", "nifty/re/optimize_kl.py", "vmet = map(ham.metric, in_axes=(0, None))", "vmet = map(ham.metric, in_axes=(0, 0))", "R19.3")
-add("C19", "JAX KL evaluated at the bare residuals", "nifty/re/optimize_kl.py", "    s = vvg(primals_samples.at(primals).samples)", "    s = vvg(primals_samples._samples)", "R19.3")
-add("C19", "constant keys: value stripped instead of gradient", "nifty/re/optimize_kl.py", "                remove_axes=(False, insert_axes),", "                remove_axes=(insert_axes, False),", "R19.4")
-add("C19", "constant keys: tangent slot filled with the frozen primals", "nifty/re/optimize_kl.py", "flat_fill=(primals_frozen, zeros_like(primals_frozen)),", "flat_fill=(primals_frozen, primals_frozen),", "R19.4")
-add("C19", "constant keys: minimiser starts from the full position", "nifty/re/optimize_kl.py", "            x0=pl,", "            x0=samples.pos,", "R19.4")
-add("C18", "both white draws use the same sub-key", "nifty/re/evi.py", "    prr_inv_metric_smpl = random_like(key=subkey_prr, primals=p_liquid)", "    prr_inv_metric_smpl = random_like(key=subkey_nll, primals=p_liquid)", "R18.3")
-add("C18", "metric sample without the prior draw", "nifty/re/evi.py", "    smpl = nll_smpl + prr_smpl\n", "    smpl = nll_smpl\n", "R18.3")
-add("C18", "CG metric without the prior identity", "nifty/re/evi.py", "    return lh.metric(p_liquid, tangents, **primals_kw) + tangents\n\n\ndef draw_linear_residual", "    return lh.metric(p_liquid, tangents, **primals_kw)\n\n\ndef draw_linear_residual", "R18.3")
-add("C18", "classic right-hand side drawn from the prior metric twice", "nifty/cl/operators/sampling_enabler.py", "                nj = self._likelihood.draw_sample(device_id=device_id)", "                nj = self._prior.draw_sample(device_id=device_id)", "R18.3")
-add("C18", "classic initial gradient with the wrong sign", "nifty/cl/operators/sampling_enabler.py", "_grad=self._likelihood(s) - nj)", "_grad=self._likelihood(s) + nj)", "R18.3")
-add("C18", "classic prior draw not from the inverse", "nifty/cl/operators/sampling_enabler.py", "s = self._prior.draw_sample(from_inverse=True, device_id=device_id)", "s = self._prior.draw_sample(from_inverse=False, device_id=device_id)", "R18.3")
-add("C26", "biased variance", "nifty/cl/probing.py", "        return self._M2 * (1./(self._count-1))", "        return self._M2 * (1./self._count)", "R26.7")
-add("C26", "spread accumulated with the old deviation twice", "nifty/cl/probing.py", "            self._M2 = self._M2 + delta*delta2", "            self._M2 = self._M2 + delta*delta", "R26.7")
-add("C26", "running mean divided by the old count", "nifty/cl/probing.py", "            self._mean = self.mean + delta*(1./self._count)", "            self._mean = self.mean + delta*(1./(self._count-1))", "R26.7")
-add("C26", "offset from the standard share of the total", "nifty/cl/minimization/sample_list.py", "    start = sum(n_locals[:comm.Get_rank()])", "    start = shareRange(sum(n_locals), comm.Get_size(), comm.Get_rank())[0]", "R26.4")
-add("C08", "isotropy shortcut tests two axes only", "nifty/cl/domains/rg_space.py", "        if np.all(self.distances == self.distances[0]):  # shortcut", "        if self.distances[0] == self.distances[-1]:  # shortcut", "R08.10")
-OTO = "nifty/cl/operator_tree_optimiser.py"
-add("C05", "rewrite runs on the caller's operator", OTO, "    op_optimised = deepcopy(op)\n", "    op_optimised = op\n", "R05.1")
-add("C05", "placeholder created on the domain of the cut operator", OTO, "FieldAdapter(res_op.target, next(prepend_id) + str(id(res_op)))", "FieldAdapter(res_op.domain, next(prepend_id) + str(id(res_op)))", "R05.2")
-add("C05", "operator.adjoint(placeholder) instead of placeholder.adjoint(operator)", OTO, "        op = op.partial_insert(same_op[key][1].adjoint(same_op[key][0]))", "        op = op.partial_insert(same_op[key][0].adjoint(same_op[key][1]))", "R05.2")
-add("C05", "self-check compares the rewritten operator with itself", OTO, "        myassert(allclose(op(test_field).asnumpy(), op_optimised(test_field).asnumpy(), 1e-10))", "        myassert(allclose(op_optimised(test_field).asnumpy(), op_optimised(test_field).asnumpy(), 1e-10))", "R05.1")
-add("C05", "subtree placeholders are never bound back", OTO, "    for key in key_list_subtrees:\n        op = op.partial_insert(same_subtrees[key][1].adjoint(same_subtrees[key][0]))\n", "", "R05.2")
-EOP = OPS + "energy_operators.py"
-add("C04", "specialised variable-covariance energy halves the log-determinant for complex sampling too", EOP, "            if not self._cplx:\n                trlog /= 2\n", "            trlog /= 2\n", "R04.2")
-add("C04", "specialised variable-covariance energy with the wrong sign of the log-determinant", EOP, "            res = res + ConstantLikelihoodEnergyOperator(-trlog)", "            res = res + ConstantLikelihoodEnergyOperator(trlog)", "R04.2")
-add("C04", "product gives both factors the constants of the first factor's domain", OPS + "operator.py",
-    "        f2, o2 = self._op2.simplify_for_constant_input(\n            c_inp.extract_part(self._op2.domain))\n        if not isinstance(self._target, MultiDomain):\n            return None, _OpProd(o1, o2)",
-    "        f2, o2 = self._op2.simplify_for_constant_input(\n            c_inp.extract_part(self._op1.domain))\n        if not isinstance(self._target, MultiDomain):\n            return None, _OpProd(o1, o2)", "R04.3")
-add("C04", "chain is specialised from the output side", OPS + "chain_operator.py", "        for op in reversed(self._ops):\n            c_inp, t_op = op.simplify_for_constant_input(c_inp)", "        for op in self._ops:\n            c_inp, t_op = op.simplify_for_constant_input(c_inp)", "R04.3")
-add("C04", "sum rebuilt as a product", OPS + "operator.py", "            return None, _OpSum(o1, o2)", "            return None, _OpProd(o1, o2)", "R04.3")
-add("C06", "mean divides by the volume of the whole domain", "nifty/cl/field.py", "        return tmp.sum(spaces)*(1./tmp.total_volume(spaces))", "        return tmp.sum(spaces)*(1./tmp.total_volume())", None)
-add("C06", "mean of non-uniform volumes without weights", "nifty/cl/field.py", "        tmp = self.weight(1, spaces)\n        return tmp.sum(spaces)*(1./tmp.total_volume(spaces))", "        tmp = self\n        return tmp.sum(spaces)*(1./tmp.total_volume(spaces))", "R06.9")
-add("C06", "uniform-volume integral forgets the weight", "nifty/cl/field.py", "            res = res*swgt\n            return res", "            return res", "R06.9")
-add("C06", "s_integrate weights twice", "nifty/cl/field.py", "        tmp = self.weight(1)\n        return tmp.s_sum()", "        tmp = self.weight(2)\n        return tmp.s_sum()", "R06.9")
-VARIANTS = V
-
 add("C21", "repeated iteration aliases the previous seed sequence", "nifty/cl/minimization/optimize_kl.py", "            sseqs[iglobal] = sseq_dup", "            sseqs[iglobal] = sseqs[iglobal-1]", "R21.7")
 add("C21", "resume rebuilds the state without the key", "nifty/re/optimize_kl.py", "        opt_vi_st = opt_vi_st._replace(config=opt_vi_st_init.config)",
     "        opt_vi_st = opt_vi_st_init._replace(nit=opt_vi_st.nit, sample_state=opt_vi_st.sample_state, minimization_state=opt_vi_st.minimization_state)", "R21.8")
-add("C06", "multi-field norm ignores ord", "nifty/cl/multi_field.py", "        return (nrm ** ord).sum() ** (1./ord)", "        return np.sqrt((nrm ** 2).sum())", "R06.6")
-add("C06", "Field.norm drops ord", "nifty/cl/field.py", "        return self._val.norm(ord=ord)", "        return self._val.norm()", "R06.6")
-add("C06", "weight indexes the shape vector with the sub-domain index", "nifty/cl/field.py",
-    "                new_shape[self._domain.axes[ind][0]:\n                          self._domain.axes[ind][-1]+1] = wgt.shape", "                new_shape[ind] = wgt.size", "R06.8")
-add("C10", "weight indexes the shape vector with the sub-domain index", "nifty/cl/field.py",
-    "                new_shape[self._domain.axes[ind][0]:\n                          self._domain.axes[ind][-1]+1] = wgt.shape", "                new_shape[ind] = wgt.size", "R10.6")
-add("C11", "inverse gamma stores alpha instead of alpha+1", OPS + "energy_operators.py", "        self._alphap1 = alpha+1\n", "        self._alphap1 = alpha\n", "R11.6")
-add("C11", "Bernoulli non-event term in the integer dtype", OPS + "energy_operators.py", ".vdot(self._d-1.)", ".vdot(self._d-1)", "R11.7")
-add("C11", "Poisson energy without the sum of the rates", OPS + "energy_operators.py", "        res = x.sum() - x.log().vdot(self._d)", "        res = -x.log().vdot(self._d)", "R11.6")
-add("C19", "JAX KL sums instead of averaging", "nifty/re/optimize_kl.py", "_reduce = partial(tree_map, partial(jnp.mean, axis=0))", "_reduce = partial(tree_map, partial(jnp.sum, axis=0))", "R19.3")
-add("C19", "JAX Hamiltonian prior without the factor 1/2", "nifty/re/optimize_kl.py", "+ 0.5 * vdot(primals, primals)", "+ vdot(primals, primals)", "R19.3")
-add("C19", "JAX KL metric maps the tangents too", "nifty/re/optimize_kl.py", "vmet = map(ham.metric, in_axes=(0, None))", "vmet = map(ham.metric, in_axes=(0, 0))", "R19.3")
-add("C19", "JAX KL evaluated at the bare residuals", "nifty/re/optimize_kl.py", "    s = vvg(primals_samples.at(primals).samples)", "    s = vvg(primals_samples._samples)", "R19.3")
-add("C19", "constant keys: value stripped instead of gradient", "nifty/re/optimize_kl.py", "                remove_axes=(False, insert_axes),", "                remove_axes=(insert_axes, False),", "R19.4")
-add("C19", "constant keys: tangent slot filled with the frozen primals", "nifty/re/optimize_kl.py", "flat_fill=(primals_frozen, zeros_like(primals_frozen)),", "flat_fill=(primals_frozen, primals_frozen),", "R19.4")
-add("C19", "constant keys: minimiser starts from the full position", "nifty/re/optimize_kl.py", "            x0=pl,", "            x0=samples.pos,", "R19.4")
-add("C18", "both white draws use the same sub-key", "nifty/re/evi.py", "    prr_inv_metric_smpl = random_like(key=subkey_prr, primals=p_liquid)", "    prr_inv_metric_smpl = random_like(key=subkey_nll, primals=p_liquid)", "R18.3")
-add("C18", "metric sample without the prior draw", "nifty/re/evi.py", "    smpl = nll_smpl + prr_smpl\n", "    smpl = nll_smpl\n", "R18.3")
-add("C18", "CG metric without the prior identity", "nifty/re/evi.py", "    return lh.metric(p_liquid, tangents, **primals_kw) + tangents\n\n\ndef draw_linear_residual", "    return lh.metric(p_liquid, tangents, **primals_kw)\n\n\ndef draw_linear_residual", "R18.3")
-add("C18", "classic right-hand side drawn from the prior metric twice", "nifty/cl/operators/sampling_enabler.py", "                nj = self._likelihood.draw_sample(device_id=device_id)", "                nj = self._prior.draw_sample(device_id=device_id)", "R18.3")
-add("C18", "classic initial gradient with the wrong sign", "nifty/cl/operators/sampling_enabler.py", "_grad=self._likelihood(s) - nj)", "_grad=self._likelihood(s) + nj)", "R18.3")
-add("C18", "classic prior draw not from the inverse", "nifty/cl/operators/sampling_enabler.py", "s = self._prior.draw_sample(from_inverse=True, device_id=device_id)", "s = self._prior.draw_sample(from_inverse=False, device_id=device_id)", "R18.3")
-add("C26", "biased variance", "nifty/cl/probing.py", "        return self._M2 * (1./(self._count-1))", "        return self._M2 * (1./self._count)", "R26.7")
-add("C26", "spread accumulated with the old deviation twice", "nifty/cl/probing.py", "            self._M2 = self._M2 + delta*delta2", "            self._M2 = self._M2 + delta*delta", "R26.7")
-add("C26", "running mean divided by the old count", "nifty/cl/probing.py", "            self._mean = self.mean + delta*(1./self._count)", "            self._mean = self.mean + delta*(1./(self._count-1))", "R26.7")
-add("C26", "offset from the standard share of the total", "nifty/cl/minimization/sample_list.py", "    start = sum(n_locals[:comm.Get_rank()])", "    start = shareRange(sum(n_locals), comm.Get_size(), comm.Get_rank())[0]", "R26.4")
-add("C08", "isotropy shortcut tests two axes only", "nifty/cl/domains/rg_space.py", "        if np.all(self.distances == self.distances[0]):  # shortcut", "        if self.distances[0] == self.distances[-1]:  # shortcut", "R08.10")
-OTO = "nifty/cl/operator_tree_optimiser.py"
-add("C05", "rewrite runs on the caller's operator", OTO, "    op_optimised = deepcopy(op)\n", "    op_optimised = op\n", "R05.1")
-add("C05", "placeholder created on the domain of the cut operator", OTO, "FieldAdapter(res_op.target, next(prepend_id) + str(id(res_op)))", "FieldAdapter(res_op.domain, next(prepend_id) + str(id(res_op)))", "R05.2")
-add("C05", "operator.adjoint(placeholder) instead of placeholder.adjoint(operator)", OTO, "        op = op.partial_insert(same_op[key][1].adjoint(same_op[key][0]))", "        op = op.partial_insert(same_op[key][0].adjoint(same_op[key][1]))", "R05.2")
-add("C05", "self-check compares the rewritten operator with itself", OTO, "        myassert(allclose(op(test_field).asnumpy(), op_optimised(test_field).asnumpy(), 1e-10))", "        myassert(allclose(op_optimised(test_field).asnumpy(), op_optimised(test_field).asnumpy(), 1e-10))", "R05.1")
-add("C05", "subtree placeholders are never bound back", OTO, "    for key in key_list_subtrees:\n        op = op.partial_insert(same_subtrees[key][1].adjoint(same_subtrees[key][0]))\n", "", "R05.2")
-EOP = OPS + "energy_operators.py"
-add("C04", "specialised variable-covariance energy halves the log-determinant for complex sampling too", EOP, "            if not self._cplx:\n                trlog /= 2\n", "            trlog /= 2\n", "R04.2")
-add("C04", "specialised variable-covariance energy with the wrong sign of the log-determinant", EOP, "            res = res + ConstantLikelihoodEnergyOperator(-trlog)", "            res = res + ConstantLikelihoodEnergyOperator(trlog)", "R04.2")
-add("C04", "product gives both factors the constants of the first factor's domain", OPS + "operator.py",
-    "        f2, o2 = self._op2.simplify_for_constant_input(\n            c_inp.extract_part(self._op2.domain))\n        if not isinstance(self._target, MultiDomain):\n            return None, _OpProd(o1, o2)",
-    "        f2, o2 = self._op2.simplify_for_constant_input(\n            c_inp.extract_part(self._op1.domain))\n        if not isinstance(self._target, MultiDomain):\n            return None, _OpProd(o1, o2)", "R04.3")
-add("C04", "chain is specialised from the output side", OPS + "chain_operator.py", "        for op in reversed(self._ops):\n            c_inp, t_op = op.simplify_for_constant_input(c_inp)", "        for op in self._ops:\n            c_inp, t_op = op.simplify_for_constant_input(c_inp)", "R04.3")
-add("C04", "sum rebuilt as a product", OPS + "operator.py", "            return None, _OpSum(o1, o2)", "            return None, _OpProd(o1, o2)", "R04.3")
-add("C06", "mean divides by the volume of the whole domain", "nifty/cl/field.py", "        return tmp.sum(spaces)*(1./tmp.total_volume(spaces))", "        return tmp.sum(spaces)*(1./tmp.total_volume())", None)
-add("C06", "mean of non-uniform volumes without weights", "nifty/cl/field.py", "        tmp = self.weight(1, spaces)\n        return tmp.sum(spaces)*(1./tmp.total_volume(spaces))", "        tmp = self\n        return tmp.sum(spaces)*(1./tmp.total_volume(spaces))", "R06.9")
-add("C06", "uniform-volume integral forgets the weight", "nifty/cl/field.py", "            res = res*swgt\n            return res", "            return res", "R06.9")
-add("C06", "s_integrate weights twice", "nifty/cl/field.py", "        tmp = self.weight(1)\n        return tmp.s_sum()", "        tmp = self.weight(2)\n        return tmp.s_sum()", "R06.9")
-VARIANTS = V
-
 GRP = "nifty/re/multi_grid/grid.py"
 add("C31", "periodic parent divides by own split", GRP, "        return index // self.parent_splits[bc]\n", "        return index // self.splits[bc]\n", "R31.1")
 add("C31", "periodic coordinate without half-cell offset", GRP, "        return (index + 0.5) / self.shape[slc]", "        return index / self.shape[slc]", "R31.1")
@@ -769,53 +243,6 @@ add("C31", "open coord2index adds the shift", GRP, "index = coord * shp[slc] - s
 add("C31", "open children clip off by one", GRP, "return super().children(index.clip(lo, hi - 1) - lo)", "return super().children(index.clip(lo, hi) - lo)", "R31.2")
 add("C31", "flat children converted at the wrong level", GRP, "        return self.index2flatindex(children, +1)", "        return self.index2flatindex(children)", "R31.3")
 add("C31", "flat parent level shift sign", GRP, "        return self.index2flatindex(window, -1)", "        return self.index2flatindex(window, +1)", "R31.3")
-add("C06", "multi-field norm ignores ord", "nifty/cl/multi_field.py", "        return (nrm ** ord).sum() ** (1./ord)", "        return np.sqrt((nrm ** 2).sum())", "R06.6")
-add("C06", "Field.norm drops ord", "nifty/cl/field.py", "        return self._val.norm(ord=ord)", "        return self._val.norm()", "R06.6")
-add("C06", "weight indexes the shape vector with the sub-domain index", "nifty/cl/field.py",
-    "                new_shape[self._domain.axes[ind][0]:\n                          self._domain.axes[ind][-1]+1] = wgt.shape", "                new_shape[ind] = wgt.size", "R06.8")
-add("C10", "weight indexes the shape vector with the sub-domain index", "nifty/cl/field.py",
-    "                new_shape[self._domain.axes[ind][0]:\n                          self._domain.axes[ind][-1]+1] = wgt.shape", "                new_shape[ind] = wgt.size", "R10.6")
-add("C11", "inverse gamma stores alpha instead of alpha+1", OPS + "energy_operators.py", "        self._alphap1 = alpha+1\n", "        self._alphap1 = alpha\n", "R11.6")
-add("C11", "Bernoulli non-event term in the integer dtype", OPS + "energy_operators.py", ".vdot(self._d-1.)", ".vdot(self._d-1)", "R11.7")
-add("C11", "Poisson energy without the sum of the rates", OPS + "energy_operators.py", "        res = x.sum() - x.log().vdot(self._d)", "        res = -x.log().vdot(self._d)", "R11.6")
-add("C19", "JAX KL sums instead of averaging", "nifty/re/optimize_kl.py", "_reduce = partial(tree_map, partial(jnp.mean, axis=0))", "_reduce = partial(tree_map, partial(jnp.sum, axis=0))", "R19.3")
-add("C19", "JAX Hamiltonian prior without the factor 1/2", "nifty/re/optimize_kl.py", "+ 0.5 * vdot(primals, primals)", "+ vdot(primals, primals)", "R19.3")
-add("C19", "JAX KL metric maps the tangents too", "nifty/re/optimize_kl.py", "vmet = map(ham.metric, in_axes=(0, None))", "vmet = map(ham.metric, in_axes=(0, 0))", "R19.3")
-add("C19", "JAX KL evaluated at the bare residuals", "nifty/re/optimize_kl.py", "    s = vvg(primals_samples.at(primals).samples)", "    s = vvg(primals_samples._samples)", "R19.3")
-add("C19", "constant keys: value stripped instead of gradient", "nifty/re/optimize_kl.py", "                remove_axes=(False, insert_axes),", "                remove_axes=(insert_axes, False),", "R19.4")
-add("C19", "constant keys: tangent slot filled with the frozen primals", "nifty/re/optimize_kl.py", "flat_fill=(primals_frozen, zeros_like(primals_frozen)),", "flat_fill=(primals_frozen, primals_frozen),", "R19.4")
-add("C19", "constant keys: minimiser starts from the full position", "nifty/re/optimize_kl.py", "            x0=pl,", "            x0=samples.pos,", "R19.4")
-add("C18", "both white draws use the same sub-key", "nifty/re/evi.py", "    prr_inv_metric_smpl = random_like(key=subkey_prr, primals=p_liquid)", "    prr_inv_metric_smpl = random_like(key=subkey_nll, primals=p_liquid)", "R18.3")
-add("C18", "metric sample without the prior draw", "nifty/re/evi.py", "    smpl = nll_smpl + prr_smpl\n", "    smpl = nll_smpl\n", "R18.3")
-add("C18", "CG metric without the prior identity", "nifty/re/evi.py", "    return lh.metric(p_liquid, tangents, **primals_kw) + tangents\n\n\ndef draw_linear_residual", "    return lh.metric(p_liquid, tangents, **primals_kw)\n\n\ndef draw_linear_residual", "R18.3")
-add("C18", "classic right-hand side drawn from the prior metric twice", "nifty/cl/operators/sampling_enabler.py", "                nj = self._likelihood.draw_sample(device_id=device_id)", "                nj = self._prior.draw_sample(device_id=device_id)", "R18.3")
-add("C18", "classic initial gradient with the wrong sign", "nifty/cl/operators/sampling_enabler.py", "_grad=self._likelihood(s) - nj)", "_grad=self._likelihood(s) + nj)", "R18.3")
-add("C18", "classic prior draw not from the inverse", "nifty/cl/operators/sampling_enabler.py", "s = self._prior.draw_sample(from_inverse=True, device_id=device_id)", "s = self._prior.draw_sample(from_inverse=False, device_id=device_id)", "R18.3")
-add("C26", "biased variance", "nifty/cl/probing.py", "        return self._M2 * (1./(self._count-1))", "        return self._M2 * (1./self._count)", "R26.7")
-add("C26", "spread accumulated with the old deviation twice", "nifty/cl/probing.py", "            self._M2 = self._M2 + delta*delta2", "            self._M2 = self._M2 + delta*delta", "R26.7")
-add("C26", "running mean divided by the old count", "nifty/cl/probing.py", "            self._mean = self.mean + delta*(1./self._count)", "            self._mean = self.mean + delta*(1./(self._count-1))", "R26.7")
-add("C26", "offset from the standard share of the total", "nifty/cl/minimization/sample_list.py", "    start = sum(n_locals[:comm.Get_rank()])", "    start = shareRange(sum(n_locals), comm.Get_size(), comm.Get_rank())[0]", "R26.4")
-add("C08", "isotropy shortcut tests two axes only", "nifty/cl/domains/rg_space.py", "        if np.all(self.distances == self.distances[0]):  # shortcut", "        if self.distances[0] == self.distances[-1]:  # shortcut", "R08.10")
-OTO = "nifty/cl/operator_tree_optimiser.py"
-add("C05", "rewrite runs on the caller's operator", OTO, "    op_optimised = deepcopy(op)\n", "    op_optimised = op\n", "R05.1")
-add("C05", "placeholder created on the domain of the cut operator", OTO, "FieldAdapter(res_op.target, next(prepend_id) + str(id(res_op)))", "FieldAdapter(res_op.domain, next(prepend_id) + str(id(res_op)))", "R05.2")
-add("C05", "operator.adjoint(placeholder) instead of placeholder.adjoint(operator)", OTO, "        op = op.partial_insert(same_op[key][1].adjoint(same_op[key][0]))", "        op = op.partial_insert(same_op[key][0].adjoint(same_op[key][1]))", "R05.2")
-add("C05", "self-check compares the rewritten operator with itself", OTO, "        myassert(allclose(op(test_field).asnumpy(), op_optimised(test_field).asnumpy(), 1e-10))", "        myassert(allclose(op_optimised(test_field).asnumpy(), op_optimised(test_field).asnumpy(), 1e-10))", "R05.1")
-add("C05", "subtree placeholders are never bound back", OTO, "    for key in key_list_subtrees:\n        op = op.partial_insert(same_subtrees[key][1].adjoint(same_subtrees[key][0]))\n", "", "R05.2")
-EOP = OPS + "energy_operators.py"
-add("C04", "specialised variable-covariance energy halves the log-determinant for complex sampling too", EOP, "            if not self._cplx:\n                trlog /= 2\n", "            trlog /= 2\n", "R04.2")
-add("C04", "specialised variable-covariance energy with the wrong sign of the log-determinant", EOP, "            res = res + ConstantLikelihoodEnergyOperator(-trlog)", "            res = res + ConstantLikelihoodEnergyOperator(trlog)", "R04.2")
-add("C04", "product gives both factors the constants of the first factor's domain", OPS + "operator.py",
-    "        f2, o2 = self._op2.simplify_for_constant_input(\n            c_inp.extract_part(self._op2.domain))\n        if not isinstance(self._target, MultiDomain):\n            return None, _OpProd(o1, o2)",
-    "        f2, o2 = self._op2.simplify_for_constant_input(\n            c_inp.extract_part(self._op1.domain))\n        if not isinstance(self._target, MultiDomain):\n            return None, _OpProd(o1, o2)", "R04.3")
-add("C04", "chain is specialised from the output side", OPS + "chain_operator.py", "        for op in reversed(self._ops):\n            c_inp, t_op = op.simplify_for_constant_input(c_inp)", "        for op in self._ops:\n            c_inp, t_op = op.simplify_for_constant_input(c_inp)", "R04.3")
-add("C04", "sum rebuilt as a product", OPS + "operator.py", "            return None, _OpSum(o1, o2)", "            return None, _OpProd(o1, o2)", "R04.3")
-add("C06", "mean divides by the volume of the whole domain", "nifty/cl/field.py", "        return tmp.sum(spaces)*(1./tmp.total_volume(spaces))", "        return tmp.sum(spaces)*(1./tmp.total_volume())", None)
-add("C06", "mean of non-uniform volumes without weights", "nifty/cl/field.py", "        tmp = self.weight(1, spaces)\n        return tmp.sum(spaces)*(1./tmp.total_volume(spaces))", "        tmp = self\n        return tmp.sum(spaces)*(1./tmp.total_volume(spaces))", "R06.9")
-add("C06", "uniform-volume integral forgets the weight", "nifty/cl/field.py", "            res = res*swgt\n            return res", "            return res", "R06.9")
-add("C06", "s_integrate weights twice", "nifty/cl/field.py", "        tmp = self.weight(1)\n        return tmp.s_sum()", "        tmp = self.weight(2)\n        return tmp.s_sum()", "R06.9")
-VARIANTS = V
-
 LZP = "nifty/re/num/lanczos.py"
 add("C34", "lanczos forgets the previous vector", LZP, "w = w - a * v_curr__ - jnp.where(i > 0, beta_full__[i - 1] * v_prev__, 0.0)", "w = w - a * v_curr__", "R34.1")
 add("C34", "lanczos uses beta of the current step", LZP, "jnp.where(i > 0, beta_full__[i - 1] * v_prev__, 0.0)", "jnp.where(i > 0, beta_full__[i] * v_prev__, 0.0)", "R34.1")
@@ -830,53 +257,6 @@ add("C34", "jax ELBO trace-log sign", "nifty/re/evidence_lower_bound.py", "     
 add("C34", "jax analytic prior keeps the full Hamiltonian", "nifty/re/evidence_lower_bound.py", "sample_energy = likelihood if analytic_prior_term else hamiltonian", "sample_energy = hamiltonian", "R34.3")
 add("C34", "classic prior term forgets the mean", "nifty/cl/evidence_lower_bound.py", "prior_term = Field.scalar(0.5 * (trace_inv_total + prior_mean_sq))", "prior_term = Field.scalar(0.5 * trace_inv_total)", "R34.3")
 add("C34", "classic lower bound adds the lower error", "nifty/cl/evidence_lower_bound.py", 'elbo_lw = elbo_mean - elbo_var.sqrt() - stats["lower_error"]', 'elbo_lw = elbo_mean - elbo_var.sqrt() + stats["lower_error"]', "R34.3")
-add("C06", "multi-field norm ignores ord", "nifty/cl/multi_field.py", "        return (nrm ** ord).sum() ** (1./ord)", "        return np.sqrt((nrm ** 2).sum())", "R06.6")
-add("C06", "Field.norm drops ord", "nifty/cl/field.py", "        return self._val.norm(ord=ord)", "        return self._val.norm()", "R06.6")
-add("C06", "weight indexes the shape vector with the sub-domain index", "nifty/cl/field.py",
-    "                new_shape[self._domain.axes[ind][0]:\n                          self._domain.axes[ind][-1]+1] = wgt.shape", "                new_shape[ind] = wgt.size", "R06.8")
-add("C10", "weight indexes the shape vector with the sub-domain index", "nifty/cl/field.py",
-    "                new_shape[self._domain.axes[ind][0]:\n                          self._domain.axes[ind][-1]+1] = wgt.shape", "                new_shape[ind] = wgt.size", "R10.6")
-add("C11", "inverse gamma stores alpha instead of alpha+1", OPS + "energy_operators.py", "        self._alphap1 = alpha+1\n", "        self._alphap1 = alpha\n", "R11.6")
-add("C11", "Bernoulli non-event term in the integer dtype", OPS + "energy_operators.py", ".vdot(self._d-1.)", ".vdot(self._d-1)", "R11.7")
-add("C11", "Poisson energy without the sum of the rates", OPS + "energy_operators.py", "        res = x.sum() - x.log().vdot(self._d)", "        res = -x.log().vdot(self._d)", "R11.6")
-add("C19", "JAX KL sums instead of averaging", "nifty/re/optimize_kl.py", "_reduce = partial(tree_map, partial(jnp.mean, axis=0))", "_reduce = partial(tree_map, partial(jnp.sum, axis=0))", "R19.3")
-add("C19", "JAX Hamiltonian prior without the factor 1/2", "nifty/re/optimize_kl.py", "+ 0.5 * vdot(primals, primals)", "+ vdot(primals, primals)", "R19.3")
-add("C19", "JAX KL metric maps the tangents too", "nifty/re/optimize_kl.py", "vmet = map(ham.metric, in_axes=(0, None))", "vmet = map(ham.metric, in_axes=(0, 0))", "R19.3")
-add("C19", "JAX KL evaluated at the bare residuals", "nifty/re/optimize_kl.py", "    s = vvg(primals_samples.at(primals).samples)", "    s = vvg(primals_samples._samples)", "R19.3")
-add("C19", "constant keys: value stripped instead of gradient", "nifty/re/optimize_kl.py", "                remove_axes=(False, insert_axes),", "                remove_axes=(insert_axes, False),", "R19.4")
-add("C19", "constant keys: tangent slot filled with the frozen primals", "nifty/re/optimize_kl.py", "flat_fill=(primals_frozen, zeros_like(primals_frozen)),", "flat_fill=(primals_frozen, primals_frozen),", "R19.4")
-add("C19", "constant keys: minimiser starts from the full position", "nifty/re/optimize_kl.py", "            x0=pl,", "            x0=samples.pos,", "R19.4")
-add("C18", "both white draws use the same sub-key", "nifty/re/evi.py", "    prr_inv_metric_smpl = random_like(key=subkey_prr, primals=p_liquid)", "    prr_inv_metric_smpl = random_like(key=subkey_nll, primals=p_liquid)", "R18.3")
-add("C18", "metric sample without the prior draw", "nifty/re/evi.py", "    smpl = nll_smpl + prr_smpl\n", "    smpl = nll_smpl\n", "R18.3")
-add("C18", "CG metric without the prior identity", "nifty/re/evi.py", "    return lh.metric(p_liquid, tangents, **primals_kw) + tangents\n\n\ndef draw_linear_residual", "    return lh.metric(p_liquid, tangents, **primals_kw)\n\n\ndef draw_linear_residual", "R18.3")
-add("C18", "classic right-hand side drawn from the prior metric twice", "nifty/cl/operators/sampling_enabler.py", "                nj = self._likelihood.draw_sample(device_id=device_id)", "                nj = self._prior.draw_sample(device_id=device_id)", "R18.3")
-add("C18", "classic initial gradient with the wrong sign", "nifty/cl/operators/sampling_enabler.py", "_grad=self._likelihood(s) - nj)", "_grad=self._likelihood(s) + nj)", "R18.3")
-add("C18", "classic prior draw not from the inverse", "nifty/cl/operators/sampling_enabler.py", "s = self._prior.draw_sample(from_inverse=True, device_id=device_id)", "s = self._prior.draw_sample(from_inverse=False, device_id=device_id)", "R18.3")
-add("C26", "biased variance", "nifty/cl/probing.py", "        return self._M2 * (1./(self._count-1))", "        return self._M2 * (1./self._count)", "R26.7")
-add("C26", "spread accumulated with the old deviation twice", "nifty/cl/probing.py", "            self._M2 = self._M2 + delta*delta2", "            self._M2 = self._M2 + delta*delta", "R26.7")
-add("C26", "running mean divided by the old count", "nifty/cl/probing.py", "            self._mean = self.mean + delta*(1./self._count)", "            self._mean = self.mean + delta*(1./(self._count-1))", "R26.7")
-add("C26", "offset from the standard share of the total", "nifty/cl/minimization/sample_list.py", "    start = sum(n_locals[:comm.Get_rank()])", "    start = shareRange(sum(n_locals), comm.Get_size(), comm.Get_rank())[0]", "R26.4")
-add("C08", "isotropy shortcut tests two axes only", "nifty/cl/domains/rg_space.py", "        if np.all(self.distances == self.distances[0]):  # shortcut", "        if self.distances[0] == self.distances[-1]:  # shortcut", "R08.10")
-OTO = "nifty/cl/operator_tree_optimiser.py"
-add("C05", "rewrite runs on the caller's operator", OTO, "    op_optimised = deepcopy(op)\n", "    op_optimised = op\n", "R05.1")
-add("C05", "placeholder created on the domain of the cut operator", OTO, "FieldAdapter(res_op.target, next(prepend_id) + str(id(res_op)))", "FieldAdapter(res_op.domain, next(prepend_id) + str(id(res_op)))", "R05.2")
-add("C05", "operator.adjoint(placeholder) instead of placeholder.adjoint(operator)", OTO, "        op = op.partial_insert(same_op[key][1].adjoint(same_op[key][0]))", "        op = op.partial_insert(same_op[key][0].adjoint(same_op[key][1]))", "R05.2")
-add("C05", "self-check compares the rewritten operator with itself", OTO, "        myassert(allclose(op(test_field).asnumpy(), op_optimised(test_field).asnumpy(), 1e-10))", "        myassert(allclose(op_optimised(test_field).asnumpy(), op_optimised(test_field).asnumpy(), 1e-10))", "R05.1")
-add("C05", "subtree placeholders are never bound back", OTO, "    for key in key_list_subtrees:\n        op = op.partial_insert(same_subtrees[key][1].adjoint(same_subtrees[key][0]))\n", "", "R05.2")
-EOP = OPS + "energy_operators.py"
-add("C04", "specialised variable-covariance energy halves the log-determinant for complex sampling too", EOP, "            if not self._cplx:\n                trlog /= 2\n", "            trlog /= 2\n", "R04.2")
-add("C04", "specialised variable-covariance energy with the wrong sign of the log-determinant", EOP, "            res = res + ConstantLikelihoodEnergyOperator(-trlog)", "            res = res + ConstantLikelihoodEnergyOperator(trlog)", "R04.2")
-add("C04", "product gives both factors the constants of the first factor's domain", OPS + "operator.py",
-    "        f2, o2 = self._op2.simplify_for_constant_input(\n            c_inp.extract_part(self._op2.domain))\n        if not isinstance(self._target, MultiDomain):\n            return None, _OpProd(o1, o2)",
-    "        f2, o2 = self._op2.simplify_for_constant_input(\n            c_inp.extract_part(self._op1.domain))\n        if not isinstance(self._target, MultiDomain):\n            return None, _OpProd(o1, o2)", "R04.3")
-add("C04", "chain is specialised from the output side", OPS + "chain_operator.py", "        for op in reversed(self._ops):\n            c_inp, t_op = op.simplify_for_constant_input(c_inp)", "        for op in self._ops:\n            c_inp, t_op = op.simplify_for_constant_input(c_inp)", "R04.3")
-add("C04", "sum rebuilt as a product", OPS + "operator.py", "            return None, _OpSum(o1, o2)", "            return None, _OpProd(o1, o2)", "R04.3")
-add("C06", "mean divides by the volume of the whole domain", "nifty/cl/field.py", "        return tmp.sum(spaces)*(1./tmp.total_volume(spaces))", "        return tmp.sum(spaces)*(1./tmp.total_volume())", None)
-add("C06", "mean of non-uniform volumes without weights", "nifty/cl/field.py", "        tmp = self.weight(1, spaces)\n        return tmp.sum(spaces)*(1./tmp.total_volume(spaces))", "        tmp = self\n        return tmp.sum(spaces)*(1./tmp.total_volume(spaces))", "R06.9")
-add("C06", "uniform-volume integral forgets the weight", "nifty/cl/field.py", "            res = res*swgt\n            return res", "            return res", "R06.9")
-add("C06", "s_integrate weights twice", "nifty/cl/field.py", "        tmp = self.weight(1)\n        return tmp.s_sum()", "        tmp = self.weight(2)\n        return tmp.s_sum()", "R06.9")
-VARIANTS = V
-
 add("C20", "wiener filter dereferences the None default", "nifty/re/evi.py", "    draw_linear_kwargs = {} if draw_linear_kwargs is None else draw_linear_kwargs\n", "", "R20.2")
 add("C20", "signal-space operator without the prior term", "nifty/re/evi.py", "            return forward_lin_T(n_inv(forward_lin(tangents)))[0] + tangents", "            return forward_lin_T(n_inv(forward_lin(tangents)))[0]", "R20.1")
 add("C20", "information source without noise weighting", "nifty/re/evi.py", "        (j,) = forward_lin_T(n_inv(data))", "        (j,) = forward_lin_T(data)", "R20.1")
@@ -884,200 +264,12 @@ add("C20", "data-space operator without the noise", "nifty/re/evi.py", "        
 add("C20", "transpose not conjugated", "nifty/re/evi.py", "    forward_lin_T = _functional_conj(forward_lin_T)\n\n    if signal_space:", "\n    if signal_space:", "R20.1")
 add("C20", "classic curvature uses S instead of its inverse", "nifty/cl/library/wiener_filter_curvature.py", "    Sinv = S.inverse", "    Sinv = S", "R20.3")
 add("C20", "classic curvature sandwiches N instead of its inverse", "nifty/cl/library/wiener_filter_curvature.py", "M = SandwichOperator.make(R, N.inverse)", "M = SandwichOperator.make(R, N)", "R20.3")
-add("C06", "multi-field norm ignores ord", "nifty/cl/multi_field.py", "        return (nrm ** ord).sum() ** (1./ord)", "        return np.sqrt((nrm ** 2).sum())", "R06.6")
-add("C06", "Field.norm drops ord", "nifty/cl/field.py", "        return self._val.norm(ord=ord)", "        return self._val.norm()", "R06.6")
-add("C06", "weight indexes the shape vector with the sub-domain index", "nifty/cl/field.py",
-    "                new_shape[self._domain.axes[ind][0]:\n                          self._domain.axes[ind][-1]+1] = wgt.shape", "                new_shape[ind] = wgt.size", "R06.8")
-add("C10", "weight indexes the shape vector with the sub-domain index", "nifty/cl/field.py",
-    "                new_shape[self._domain.axes[ind][0]:\n                          self._domain.axes[ind][-1]+1] = wgt.shape", "                new_shape[ind] = wgt.size", "R10.6")
-add("C11", "inverse gamma stores alpha instead of alpha+1", OPS + "energy_operators.py", "        self._alphap1 = alpha+1\n", "        self._alphap1 = alpha\n", "R11.6")
-add("C11", "Bernoulli non-event term in the integer dtype", OPS + "energy_operators.py", ".vdot(self._d-1.)", ".vdot(self._d-1)", "R11.7")
-add("C11", "Poisson energy without the sum of the rates", OPS + "energy_operators.py", "        res = x.sum() - x.log().vdot(self._d)", "        res = -x.log().vdot(self._d)", "R11.6")
-add("C19", "JAX KL sums instead of averaging", "nifty/re/optimize_kl.py", "_reduce = partial(tree_map, partial(jnp.mean, axis=0))", "_reduce = partial(tree_map, partial(jnp.sum, axis=0))", "R19.3")
-add("C19", "JAX Hamiltonian prior without the factor 1/2", "nifty/re/optimize_kl.py", "+ 0.5 * vdot(primals, primals)", "+ vdot(primals, primals)", "R19.3")
-add("C19", "JAX KL metric maps the tangents too", "nifty/re/optimize_kl.py", "vmet = map(ham.metric, in_axes=(0, None))", "vmet = map(ham.metric, in_axes=(0, 0))", "R19.3")
-add("C19", "JAX KL evaluated at the bare residuals", "nifty/re/optimize_kl.py", "    s = vvg(primals_samples.at(primals).samples)", "    s = vvg(primals_samples._samples)", "R19.3")
-add("C19", "constant keys: value stripped instead of gradient", "nifty/re/optimize_kl.py", "                remove_axes=(False, insert_axes),", "                remove_axes=(insert_axes, False),", "R19.4")
-add("C19", "constant keys: tangent slot filled with the frozen primals", "nifty/re/optimize_kl.py", "flat_fill=(primals_frozen, zeros_like(primals_frozen)),", "flat_fill=(primals_frozen, primals_frozen),", "R19.4")
-add("C19", "constant keys: minimiser starts from the full position", "nifty/re/optimize_kl.py", "            x0=pl,", "            x0=samples.pos,", "R19.4")
-add("C18", "both white draws use the same sub-key", "nifty/re/evi.py", "    prr_inv_metric_smpl = random_like(key=subkey_prr, primals=p_liquid)", "    prr_inv_metric_smpl = random_like(key=subkey_nll, primals=p_liquid)", "R18.3")
-add("C18", "metric sample without the prior draw", "nifty/re/evi.py", "    smpl = nll_smpl + prr_smpl\n", "    smpl = nll_smpl\n", "R18.3")
-add("C18", "CG metric without the prior identity", "nifty/re/evi.py", "    return lh.metric(p_liquid, tangents, **primals_kw) + tangents\n\n\ndef draw_linear_residual", "    return lh.metric(p_liquid, tangents, **primals_kw)\n\n\ndef draw_linear_residual", "R18.3")
-add("C18", "classic right-hand side drawn from the prior metric twice", "nifty/cl/operators/sampling_enabler.py", "                nj = self._likelihood.draw_sample(device_id=device_id)", "                nj = self._prior.draw_sample(device_id=device_id)", "R18.3")
-add("C18", "classic initial gradient with the wrong sign", "nifty/cl/operators/sampling_enabler.py", "_grad=self._likelihood(s) - nj)", "_grad=self._likelihood(s) + nj)", "R18.3")
-add("C18", "classic prior draw not from the inverse", "nifty/cl/operators/sampling_enabler.py", "s = self._prior.draw_sample(from_inverse=True, device_id=device_id)", "s = self._prior.draw_sample(from_inverse=False, device_id=device_id)", "R18.3")
-add("C26", "biased variance", "nifty/cl/probing.py", "        return self._M2 * (1./(self._count-1))", "        return self._M2 * (1./self._count)", "R26.7")
-add("C26", "spread accumulated with the old deviation twice", "nifty/cl/probing.py", "            self._M2 = self._M2 + delta*delta2", "            self._M2 = self._M2 + delta*delta", "R26.7")
-add("C26", "running mean divided by the old count", "nifty/cl/probing.py", "            self._mean = self.mean + delta*(1./self._count)", "            self._mean = self.mean + delta*(1./(self._count-1))", "R26.7")
-add("C26", "offset from the standard share of the total", "nifty/cl/minimization/sample_list.py", "    start = sum(n_locals[:comm.Get_rank()])", "    start = shareRange(sum(n_locals), comm.Get_size(), comm.Get_rank())[0]", "R26.4")
-add("C08", "isotropy shortcut tests two axes only", "nifty/cl/domains/rg_space.py", "        if np.all(self.distances == self.distances[0]):  # shortcut", "        if self.distances[0] == self.distances[-1]:  # shortcut", "R08.10")
-OTO = "nifty/cl/operator_tree_optimiser.py"
-add("C05", "rewrite runs on the caller's operator", OTO, "    op_optimised = deepcopy(op)\n", "    op_optimised = op\n", "R05.1")
-add("C05", "placeholder created on the domain of the cut operator", OTO, "FieldAdapter(res_op.target, next(prepend_id) + str(id(res_op)))", "FieldAdapter(res_op.domain, next(prepend_id) + str(id(res_op)))", "R05.2")
-add("C05", "operator.adjoint(placeholder) instead of placeholder.adjoint(operator)", OTO, "        op = op.partial_insert(same_op[key][1].adjoint(same_op[key][0]))", "        op = op.partial_insert(same_op[key][0].adjoint(same_op[key][1]))", "R05.2")
-add("C05", "self-check compares the rewritten operator with itself", OTO, "        myassert(allclose(op(test_field).asnumpy(), op_optimised(test_field).asnumpy(), 1e-10))", "        myassert(allclose(op_optimised(test_field).asnumpy(), op_optimised(test_field).asnumpy(), 1e-10))", "R05.1")
-add("C05", "subtree placeholders are never bound back", OTO, "    for key in key_list_subtrees:\n        op = op.partial_insert(same_subtrees[key][1].adjoint(same_subtrees[key][0]))\n", "", "R05.2")
-EOP = OPS + "energy_operators.py"
-add("C04", "specialised variable-covariance energy halves the log-determinant for complex sampling too", EOP, "            if not self._cplx:\n                trlog /= 2\n", "            trlog /= 2\n", "R04.2")
-add("C04", "specialised variable-covariance energy with the wrong sign of the log-determinant", EOP, "            res = res + ConstantLikelihoodEnergyOperator(-trlog)", "            res = res + ConstantLikelihoodEnergyOperator(trlog)", "R04.2")
-add("C04", "product gives both factors the constants of the first factor's domain", OPS + "operator.py",
-    "        f2, o2 = self._op2.simplify_for_constant_input(\n            c_inp.extract_part(self._op2.domain))\n        if not isinstance(self._target, MultiDomain):\n            return None, _OpProd(o1, o2)",
-    "        f2, o2 = self._op2.simplify_for_constant_input(\n            c_inp.extract_part(self._op1.domain))\n        if not isinstance(self._target, MultiDomain):\n            return None, _OpProd(o1, o2)", "R04.3")
-add("C04", "chain is specialised from the output side", OPS + "chain_operator.py", "        for op in reversed(self._ops):\n            c_inp, t_op = op.simplify_for_constant_input(c_inp)", "        for op in self._ops:\n            c_inp, t_op = op.simplify_for_constant_input(c_inp)", "R04.3")
-add("C04", "sum rebuilt as a product", OPS + "operator.py", "            return None, _OpSum(o1, o2)", "            return None, _OpProd(o1, o2)", "R04.3")
-add("C06", "mean divides by the volume of the whole domain", "nifty/cl/field.py", "        return tmp.sum(spaces)*(1./tmp.total_volume(spaces))", "        return tmp.sum(spaces)*(1./tmp.total_volume())", None)
-add("C06", "mean of non-uniform volumes without weights", "nifty/cl/field.py", "        tmp = self.weight(1, spaces)\n        return tmp.sum(spaces)*(1./tmp.total_volume(spaces))", "        tmp = self\n        return tmp.sum(spaces)*(1./tmp.total_volume(spaces))", "R06.9")
-add("C06", "uniform-volume integral forgets the weight", "nifty/cl/field.py", "            res = res*swgt\n            return res", "            return res", "R06.9")
-add("C06", "s_integrate weights twice", "nifty/cl/field.py", "        tmp = self.weight(1)\n        return tmp.s_sum()", "        tmp = self.weight(2)\n        return tmp.s_sum()", "R06.9")
-VARIANTS = V
-
 add("C27", "sample list save refuses to overwrite under save_strategy all", "nifty/cl/minimization/optimize_kl.py", "                    overwrite=True)\n\n            if _MPI_master(comm(iglobal)):", "                    overwrite=save_strategy == 'latest')\n\n            if _MPI_master(comm(iglobal)):", "R27.8")
 add("C27", "callback arity from the code object", "nifty/cl/minimization/optimize_kl.py", "    from inspect import signature\n    return len(signature(func).parameters)",
     "    code = getattr(func, '__code__', None)\n    if code is not None:\n        return code.co_argcount\n    from inspect import signature\n    return len(signature(func).parameters)", "R27.9")
-add("C06", "multi-field norm ignores ord", "nifty/cl/multi_field.py", "        return (nrm ** ord).sum() ** (1./ord)", "        return np.sqrt((nrm ** 2).sum())", "R06.6")
-add("C06", "Field.norm drops ord", "nifty/cl/field.py", "        return self._val.norm(ord=ord)", "        return self._val.norm()", "R06.6")
-add("C06", "weight indexes the shape vector with the sub-domain index", "nifty/cl/field.py",
-    "                new_shape[self._domain.axes[ind][0]:\n                          self._domain.axes[ind][-1]+1] = wgt.shape", "                new_shape[ind] = wgt.size", "R06.8")
-add("C10", "weight indexes the shape vector with the sub-domain index", "nifty/cl/field.py",
-    "                new_shape[self._domain.axes[ind][0]:\n                          self._domain.axes[ind][-1]+1] = wgt.shape", "                new_shape[ind] = wgt.size", "R10.6")
-add("C11", "inverse gamma stores alpha instead of alpha+1", OPS + "energy_operators.py", "        self._alphap1 = alpha+1\n", "        self._alphap1 = alpha\n", "R11.6")
-add("C11", "Bernoulli non-event term in the integer dtype", OPS + "energy_operators.py", ".vdot(self._d-1.)", ".vdot(self._d-1)", "R11.7")
-add("C11", "Poisson energy without the sum of the rates", OPS + "energy_operators.py", "        res = x.sum() - x.log().vdot(self._d)", "        res = -x.log().vdot(self._d)", "R11.6")
-add("C19", "JAX KL sums instead of averaging", "nifty/re/optimize_kl.py", "_reduce = partial(tree_map, partial(jnp.mean, axis=0))", "_reduce = partial(tree_map, partial(jnp.sum, axis=0))", "R19.3")
-add("C19", "JAX Hamiltonian prior without the factor 1/2", "nifty/re/optimize_kl.py", "+ 0.5 * vdot(primals, primals)", "+ vdot(primals, primals)", "R19.3")
-add("C19", "JAX KL metric maps the tangents too", "nifty/re/optimize_kl.py", "vmet = map(ham.metric, in_axes=(0, None))", "vmet = map(ham.metric, in_axes=(0, 0))", "R19.3")
-add("C19", "JAX KL evaluated at the bare residuals", "nifty/re/optimize_kl.py", "    s = vvg(primals_samples.at(primals).samples)", "    s = vvg(primals_samples._samples)", "R19.3")
-add("C19", "constant keys: value stripped instead of gradient", "nifty/re/optimize_kl.py", "                remove_axes=(False, insert_axes),", "                remove_axes=(insert_axes, False),", "R19.4")
-add("C19", "constant keys: tangent slot filled with the frozen primals", "nifty/re/optimize_kl.py", "flat_fill=(primals_frozen, zeros_like(primals_frozen)),", "flat_fill=(primals_frozen, primals_frozen),", "R19.4")
-add("C19", "constant keys: minimiser starts from the full position", "nifty/re/optimize_kl.py", "            x0=pl,", "            x0=samples.pos,", "R19.4")
-add("C18", "both white draws use the same sub-key", "nifty/re/evi.py", "    prr_inv_metric_smpl = random_like(key=subkey_prr, primals=p_liquid)", "    prr_inv_metric_smpl = random_like(key=subkey_nll, primals=p_liquid)", "R18.3")
-add("C18", "metric sample without the prior draw", "nifty/re/evi.py", "    smpl = nll_smpl + prr_smpl\n", "    smpl = nll_smpl\n", "R18.3")
-add("C18", "CG metric without the prior identity", "nifty/re/evi.py", "    return lh.metric(p_liquid, tangents, **primals_kw) + tangents\n\n\ndef draw_linear_residual", "    return lh.metric(p_liquid, tangents, **primals_kw)\n\n\ndef draw_linear_residual", "R18.3")
-add("C18", "classic right-hand side drawn from the prior metric twice", "nifty/cl/operators/sampling_enabler.py", "                nj = self._likelihood.draw_sample(device_id=device_id)", "                nj = self._prior.draw_sample(device_id=device_id)", "R18.3")
-add("C18", "classic initial gradient with the wrong sign", "nifty/cl/operators/sampling_enabler.py", "_grad=self._likelihood(s) - nj)", "_grad=self._likelihood(s) + nj)", "R18.3")
-add("C18", "classic prior draw not from the inverse", "nifty/cl/operators/sampling_enabler.py", "s = self._prior.draw_sample(from_inverse=True, device_id=device_id)", "s = self._prior.draw_sample(from_inverse=False, device_id=device_id)", "R18.3")
-add("C26", "biased variance", "nifty/cl/probing.py", "        return self._M2 * (1./(self._count-1))", "        return self._M2 * (1./self._count)", "R26.7")
-add("C26", "spread accumulated with the old deviation twice", "nifty/cl/probing.py", "            self._M2 = self._M2 + delta*delta2", "            self._M2 = self._M2 + delta*delta", "R26.7")
-add("C26", "running mean divided by the old count", "nifty/cl/probing.py", "            self._mean = self.mean + delta*(1./self._count)", "            self._mean = self.mean + delta*(1./(self._count-1))", "R26.7")
-add("C26", "offset from the standard share of the total", "nifty/cl/minimization/sample_list.py", "    start = sum(n_locals[:comm.Get_rank()])", "    start = shareRange(sum(n_locals), comm.Get_size(), comm.Get_rank())[0]", "R26.4")
-add("C08", "isotropy shortcut tests two axes only", "nifty/cl/domains/rg_space.py", "        if np.all(self.distances == self.distances[0]):  # shortcut", "        if self.distances[0] == self.distances[-1]:  # shortcut", "R08.10")
-OTO = "nifty/cl/operator_tree_optimiser.py"
-add("C05", "rewrite runs on the caller's operator", OTO, "    op_optimised = deepcopy(op)\n", "    op_optimised = op\n", "R05.1")
-add("C05", "placeholder created on the domain of the cut operator", OTO, "FieldAdapter(res_op.target, next(prepend_id) + str(id(res_op)))", "FieldAdapter(res_op.domain, next(prepend_id) + str(id(res_op)))", "R05.2")
-add("C05", "operator.adjoint(placeholder) instead of placeholder.adjoint(operator)", OTO, "        op = op.partial_insert(same_op[key][1].adjoint(same_op[key][0]))", "        op = op.partial_insert(same_op[key][0].adjoint(same_op[key][1]))", "R05.2")
-add("C05", "self-check compares the rewritten operator with itself", OTO, "        myassert(allclose(op(test_field).asnumpy(), op_optimised(test_field).asnumpy(), 1e-10))", "        myassert(allclose(op_optimised(test_field).asnumpy(), op_optimised(test_field).asnumpy(), 1e-10))", "R05.1")
-add("C05", "subtree placeholders are never bound back", OTO, "    for key in key_list_subtrees:\n        op = op.partial_insert(same_subtrees[key][1].adjoint(same_subtrees[key][0]))\n", "", "R05.2")
-EOP = OPS + "energy_operators.py"
-add("C04", "specialised variable-covariance energy halves the log-determinant for complex sampling too", EOP, "            if not self._cplx:\n                trlog /= 2\n", "            trlog /= 2\n", "R04.2")
-add("C04", "specialised variable-covariance energy with the wrong sign of the log-determinant", EOP, "            res = res + ConstantLikelihoodEnergyOperator(-trlog)", "            res = res + ConstantLikelihoodEnergyOperator(trlog)", "R04.2")
-add("C04", "product gives both factors the constants of the first factor's domain", OPS + "operator.py",
-    "        f2, o2 = self._op2.simplify_for_constant_input(\n            c_inp.extract_part(self._op2.domain))\n        if not isinstance(self._target, MultiDomain):\n            return None, _OpProd(o1, o2)",
-    "        f2, o2 = self._op2.simplify_for_constant_input(\n            c_inp.extract_part(self._op1.domain))\n        if not isinstance(self._target, MultiDomain):\n            return None, _OpProd(o1, o2)", "R04.3")
-add("C04", "chain is specialised from the output side", OPS + "chain_operator.py", "        for op in reversed(self._ops):\n            c_inp, t_op = op.simplify_for_constant_input(c_inp)", "        for op in self._ops:\n            c_inp, t_op = op.simplify_for_constant_input(c_inp)", "R04.3")
-add("C04", "sum rebuilt as a product", OPS + "operator.py", "            return None, _OpSum(o1, o2)", "            return None, _OpProd(o1, o2)", "R04.3")
-add("C06", "mean divides by the volume of the whole domain", "nifty/cl/field.py", "        return tmp.sum(spaces)*(1./tmp.total_volume(spaces))", "        return tmp.sum(spaces)*(1./tmp.total_volume())", None)
-add("C06", "mean of non-uniform volumes without weights", "nifty/cl/field.py", "        tmp = self.weight(1, spaces)\n        return tmp.sum(spaces)*(1./tmp.total_volume(spaces))", "        tmp = self\n        return tmp.sum(spaces)*(1./tmp.total_volume(spaces))", "R06.9")
-add("C06", "uniform-volume integral forgets the weight", "nifty/cl/field.py", "            res = res*swgt\n            return res", "            return res", "R06.9")
-add("C06", "s_integrate weights twice", "nifty/cl/field.py", "        tmp = self.weight(1)\n        return tmp.s_sum()", "        tmp = self.weight(2)\n        return tmp.s_sum()", "R06.9")
-VARIANTS = V
-
 add("C21", "seed preparation starts at the resume index", "nifty/cl/minimization/optimize_kl.py", "    for iglobal in range(total_iterations):\n        if not fresh_stochasticity(iglobal):", "    for iglobal in range(initial_index, total_iterations):\n        if not fresh_stochasticity(iglobal):", "R21.9")
 add("C25", "seed preparation starts at the resume index", "nifty/cl/minimization/optimize_kl.py", "    for iglobal in range(total_iterations):\n        if not fresh_stochasticity(iglobal):", "    for iglobal in range(initial_index, total_iterations):\n        if not fresh_stochasticity(iglobal):", "R25.5")
-add("C06", "multi-field norm ignores ord", "nifty/cl/multi_field.py", "        return (nrm ** ord).sum() ** (1./ord)", "        return np.sqrt((nrm ** 2).sum())", "R06.6")
-add("C06", "Field.norm drops ord", "nifty/cl/field.py", "        return self._val.norm(ord=ord)", "        return self._val.norm()", "R06.6")
-add("C06", "weight indexes the shape vector with the sub-domain index", "nifty/cl/field.py",
-    "                new_shape[self._domain.axes[ind][0]:\n                          self._domain.axes[ind][-1]+1] = wgt.shape", "                new_shape[ind] = wgt.size", "R06.8")
-add("C10", "weight indexes the shape vector with the sub-domain index", "nifty/cl/field.py",
-    "                new_shape[self._domain.axes[ind][0]:\n                          self._domain.axes[ind][-1]+1] = wgt.shape", "                new_shape[ind] = wgt.size", "R10.6")
-add("C11", "inverse gamma stores alpha instead of alpha+1", OPS + "energy_operators.py", "        self._alphap1 = alpha+1\n", "        self._alphap1 = alpha\n", "R11.6")
-add("C11", "Bernoulli non-event term in the integer dtype", OPS + "energy_operators.py", ".vdot(self._d-1.)", ".vdot(self._d-1)", "R11.7")
-add("C11", "Poisson energy without the sum of the rates", OPS + "energy_operators.py", "        res = x.sum() - x.log().vdot(self._d)", "        res = -x.log().vdot(self._d)", "R11.6")
-add("C19", "JAX KL sums instead of averaging", "nifty/re/optimize_kl.py", "_reduce = partial(tree_map, partial(jnp.mean, axis=0))", "_reduce = partial(tree_map, partial(jnp.sum, axis=0))", "R19.3")
-add("C19", "JAX Hamiltonian prior without the factor 1/2", "nifty/re/optimize_kl.py", "+ 0.5 * vdot(primals, primals)", "+ vdot(primals, primals)", "R19.3")
-add("C19", "JAX KL metric maps the tangents too", "nifty/re/optimize_kl.py", "vmet = map(ham.metric, in_axes=(0, None))", "vmet = map(ham.metric, in_axes=(0, 0))", "R19.3")
-add("C19", "JAX KL evaluated at the bare residuals", "nifty/re/optimize_kl.py", "    s = vvg(primals_samples.at(primals).samples)", "    s = vvg(primals_samples._samples)", "R19.3")
-add("C19", "constant keys: value stripped instead of gradient", "nifty/re/optimize_kl.py", "                remove_axes=(False, insert_axes),", "                remove_axes=(insert_axes, False),", "R19.4")
-add("C19", "constant keys: tangent slot filled with the frozen primals", "nifty/re/optimize_kl.py", "flat_fill=(primals_frozen, zeros_like(primals_frozen)),", "flat_fill=(primals_frozen, primals_frozen),", "R19.4")
-add("C19", "constant keys: minimiser starts from the full position", "nifty/re/optimize_kl.py", "            x0=pl,", "            x0=samples.pos,", "R19.4")
-add("C18", "both white draws use the same sub-key", "nifty/re/evi.py", "    prr_inv_metric_smpl = random_like(key=subkey_prr, primals=p_liquid)", "    prr_inv_metric_smpl = random_like(key=subkey_nll, primals=p_liquid)", "R18.3")
-add("C18", "metric sample without the prior draw", "nifty/re/evi.py", "    smpl = nll_smpl + prr_smpl\n", "    smpl = nll_smpl\n", "R18.3")
-add("C18", "CG metric without the prior identity", "nifty/re/evi.py", "    return lh.metric(p_liquid, tangents, **primals_kw) + tangents\n\n\ndef draw_linear_residual", "    return lh.metric(p_liquid, tangents, **primals_kw)\n\n\ndef draw_linear_residual", "R18.3")
-add("C18", "classic right-hand side drawn from the prior metric twice", "nifty/cl/operators/sampling_enabler.py", "                nj = self._likelihood.draw_sample(device_id=device_id)", "                nj = self._prior.draw_sample(device_id=device_id)", "R18.3")
-add("C18", "classic initial gradient with the wrong sign", "nifty/cl/operators/sampling_enabler.py", "_grad=self._likelihood(s) - nj)", "_grad=self._likelihood(s) + nj)", "R18.3")
-add("C18", "classic prior draw not from the inverse", "nifty/cl/operators/sampling_enabler.py", "s = self._prior.draw_sample(from_inverse=True, device_id=device_id)", "s = self._prior.draw_sample(from_inverse=False, device_id=device_id)", "R18.3")
-add("C26", "biased variance", "nifty/cl/probing.py", "        return self._M2 * (1./(self._count-1))", "        return self._M2 * (1./self._count)", "R26.7")
-add("C26", "spread accumulated with the old deviation twice", "nifty/cl/probing.py", "            self._M2 = self._M2 + delta*delta2", "            self._M2 = self._M2 + delta*delta", "R26.7")
-add("C26", "running mean divided by the old count", "nifty/cl/probing.py", "            self._mean = self.mean + delta*(1./self._count)", "            self._mean = self.mean + delta*(1./(self._count-1))", "R26.7")
-add("C26", "offset from the standard share of the total", "nifty/cl/minimization/sample_list.py", "    start = sum(n_locals[:comm.Get_rank()])", "    start = shareRange(sum(n_locals), comm.Get_size(), comm.Get_rank())[0]", "R26.4")
-add("C08", "isotropy shortcut tests two axes only", "nifty/cl/domains/rg_space.py", "        if np.all(self.distances == self.distances[0]):  # shortcut", "        if self.distances[0] == self.distances[-1]:  # shortcut", "R08.10")
-OTO = "nifty/cl/operator_tree_optimiser.py"
-add("C05", "rewrite runs on the caller's operator", OTO, "    op_optimised = deepcopy(op)\n", "    op_optimised = op\n", "R05.1")
-add("C05", "placeholder created on the domain of the cut operator", OTO, "FieldAdapter(res_op.target, next(prepend_id) + str(id(res_op)))", "FieldAdapter(res_op.domain, next(prepend_id) + str(id(res_op)))", "R05.2")
-add("C05", "operator.adjoint(placeholder) instead of placeholder.adjoint(operator)", OTO, "        op = op.partial_insert(same_op[key][1].adjoint(same_op[key][0]))", "        op = op.partial_insert(same_op[key][0].adjoint(same_op[key][1]))", "R05.2")
-add("C05", "self-check compares the rewritten operator with itself", OTO, "        myassert(allclose(op(test_field).asnumpy(), op_optimised(test_field).asnumpy(), 1e-10))", "        myassert(allclose(op_optimised(test_field).asnumpy(), op_optimised(test_field).asnumpy(), 1e-10))", "R05.1")
-add("C05", "subtree placeholders are never bound back", OTO, "    for key in key_list_subtrees:\n        op = op.partial_insert(same_subtrees[key][1].adjoint(same_subtrees[key][0]))\n", "", "R05.2")
-EOP = OPS + "energy_operators.py"
-add("C04", "specialised variable-covariance energy halves the log-determinant for complex sampling too", EOP, "            if not self._cplx:\n                trlog /= 2\n", "            trlog /= 2\n", "R04.2")
-add("C04", "specialised variable-covariance energy with the wrong sign of the log-determinant", EOP, "            res = res + ConstantLikelihoodEnergyOperator(-trlog)", "            res = res + ConstantLikelihoodEnergyOperator(trlog)", "R04.2")
-add("C04", "product gives both factors the constants of the first factor's domain", OPS + "operator.py",
-    "        f2, o2 = self._op2.simplify_for_constant_input(\n            c_inp.extract_part(self._op2.domain))\n        if not isinstance(self._target, MultiDomain):\n            return None, _OpProd(o1, o2)",
-    "        f2, o2 = self._op2.simplify_for_constant_input(\n            c_inp.extract_part(self._op1.domain))\n        if not isinstance(self._target, MultiDomain):\n            return None, _OpProd(o1, o2)", "R04.3")
-add("C04", "chain is specialised from the output side", OPS + "chain_operator.py", "        for op in reversed(self._ops):\n            c_inp, t_op = op.simplify_for_constant_input(c_inp)", "        for op in self._ops:\n            c_inp, t_op = op.simplify_for_constant_input(c_inp)", "R04.3")
-add("C04", "sum rebuilt as a product", OPS + "operator.py", "            return None, _OpSum(o1, o2)", "            return None, _OpProd(o1, o2)", "R04.3")
-add("C06", "mean divides by the volume of the whole domain", "nifty/cl/field.py", "        return tmp.sum(spaces)*(1./tmp.total_volume(spaces))", "        return tmp.sum(spaces)*(1./tmp.total_volume())", None)
-add("C06", "mean of non-uniform volumes without weights", "nifty/cl/field.py", "        tmp = self.weight(1, spaces)\n        return tmp.sum(spaces)*(1./tmp.total_volume(spaces))", "        tmp = self\n        return tmp.sum(spaces)*(1./tmp.total_volume(spaces))", "R06.9")
-add("C06", "uniform-volume integral forgets the weight", "nifty/cl/field.py", "            res = res*swgt\n            return res", "            return res", "R06.9")
-add("C06", "s_integrate weights twice", "nifty/cl/field.py", "        tmp = self.weight(1)\n        return tmp.s_sum()", "        tmp = self.weight(2)\n        return tmp.s_sum()", "R06.9")
-VARIANTS = V
-
 add("C23", "bcast sends the array as it is", "nifty/cl/utilities.py", "        data = (np.ascontiguousarray(obj).reshape(shape) if master\n                else np.empty(shape, dtype))", "        data = obj if master else np.empty(shape, dtype)", "R23.7")
-add("C06", "multi-field norm ignores ord", "nifty/cl/multi_field.py", "        return (nrm ** ord).sum() ** (1./ord)", "        return np.sqrt((nrm ** 2).sum())", "R06.6")
-add("C06", "Field.norm drops ord", "nifty/cl/field.py", "        return self._val.norm(ord=ord)", "        return self._val.norm()", "R06.6")
-add("C06", "weight indexes the shape vector with the sub-domain index", "nifty/cl/field.py",
-    "                new_shape[self._domain.axes[ind][0]:\n                          self._domain.axes[ind][-1]+1] = wgt.shape", "                new_shape[ind] = wgt.size", "R06.8")
-add("C10", "weight indexes the shape vector with the sub-domain index", "nifty/cl/field.py",
-    "                new_shape[self._domain.axes[ind][0]:\n                          self._domain.axes[ind][-1]+1] = wgt.shape", "                new_shape[ind] = wgt.size", "R10.6")
-add("C11", "inverse gamma stores alpha instead of alpha+1", OPS + "energy_operators.py", "        self._alphap1 = alpha+1\n", "        self._alphap1 = alpha\n", "R11.6")
-add("C11", "Bernoulli non-event term in the integer dtype", OPS + "energy_operators.py", ".vdot(self._d-1.)", ".vdot(self._d-1)", "R11.7")
-add("C11", "Poisson energy without the sum of the rates", OPS + "energy_operators.py", "        res = x.sum() - x.log().vdot(self._d)", "        res = -x.log().vdot(self._d)", "R11.6")
-add("C19", "JAX KL sums instead of averaging", "nifty/re/optimize_kl.py", "_reduce = partial(tree_map, partial(jnp.mean, axis=0))", "_reduce = partial(tree_map, partial(jnp.sum, axis=0))", "R19.3")
-add("C19", "JAX Hamiltonian prior without the factor 1/2", "nifty/re/optimize_kl.py", "+ 0.5 * vdot(primals, primals)", "+ vdot(primals, primals)", "R19.3")
-add("C19", "JAX KL metric maps the tangents too", "nifty/re/optimize_kl.py", "vmet = map(ham.metric, in_axes=(0, None))", "vmet = map(ham.metric, in_axes=(0, 0))", "R19.3")
-add("C19", "JAX KL evaluated at the bare residuals", "nifty/re/optimize_kl.py", "    s = vvg(primals_samples.at(primals).samples)", "    s = vvg(primals_samples._samples)", "R19.3")
-add("C19", "constant keys: value stripped instead of gradient", "nifty/re/optimize_kl.py", "                remove_axes=(False, insert_axes),", "                remove_axes=(insert_axes, False),", "R19.4")
-add("C19", "constant keys: tangent slot filled with the frozen primals", "nifty/re/optimize_kl.py", "flat_fill=(primals_frozen, zeros_like(primals_frozen)),", "flat_fill=(primals_frozen, primals_frozen),", "R19.4")
-add("C19", "constant keys: minimiser starts from the full position", "nifty/re/optimize_kl.py", "            x0=pl,", "            x0=samples.pos,", "R19.4")
-add("C18", "both white draws use the same sub-key", "nifty/re/evi.py", "    prr_inv_metric_smpl = random_like(key=subkey_prr, primals=p_liquid)", "    prr_inv_metric_smpl = random_like(key=subkey_nll, primals=p_liquid)", "R18.3")
-add("C18", "metric sample without the prior draw", "nifty/re/evi.py", "    smpl = nll_smpl + prr_smpl\n", "    smpl = nll_smpl\n", "R18.3")
-add("C18", "CG metric without the prior identity", "nifty/re/evi.py", "    return lh.metric(p_liquid, tangents, **primals_kw) + tangents\n\n\ndef draw_linear_residual", "    return lh.metric(p_liquid, tangents, **primals_kw)\n\n\ndef draw_linear_residual", "R18.3")
-add("C18", "classic right-hand side drawn from the prior metric twice", "nifty/cl/operators/sampling_enabler.py", "                nj = self._likelihood.draw_sample(device_id=device_id)", "                nj = self._prior.draw_sample(device_id=device_id)", "R18.3")
-add("C18", "classic initial gradient with the wrong sign", "nifty/cl/operators/sampling_enabler.py", "_grad=self._likelihood(s) - nj)", "_grad=self._likelihood(s) + nj)", "R18.3")
-add("C18", "classic prior draw not from the inverse", "nifty/cl/operators/sampling_enabler.py", "s = self._prior.draw_sample(from_inverse=True, device_id=device_id)", "s = self._prior.draw_sample(from_inverse=False, device_id=device_id)", "R18.3")
-add("C26", "biased variance", "nifty/cl/probing.py", "        return self._M2 * (1./(self._count-1))", "        return self._M2 * (1./self._count)", "R26.7")
-add("C26", "spread accumulated with the old deviation twice", "nifty/cl/probing.py", "            self._M2 = self._M2 + delta*delta2", "            self._M2 = self._M2 + delta*delta", "R26.7")
-add("C26", "running mean divided by the old count", "nifty/cl/probing.py", "            self._mean = self.mean + delta*(1./self._count)", "            self._mean = self.mean + delta*(1./(self._count-1))", "R26.7")
-add("C26", "offset from the standard share of the total", "nifty/cl/minimization/sample_list.py", "    start = sum(n_locals[:comm.Get_rank()])", "    start = shareRange(sum(n_locals), comm.Get_size(), comm.Get_rank())[0]", "R26.4")
-add("C08", "isotropy shortcut tests two axes only", "nifty/cl/domains/rg_space.py", "        if np.all(self.distances == self.distances[0]):  # shortcut", "        if self.distances[0] == self.distances[-1]:  # shortcut", "R08.10")
-OTO = "nifty/cl/operator_tree_optimiser.py"
-add("C05", "rewrite runs on the caller's operator", OTO, "    op_optimised = deepcopy(op)\n", "    op_optimised = op\n", "R05.1")
-add("C05", "placeholder created on the domain of the cut operator", OTO, "FieldAdapter(res_op.target, next(prepend_id) + str(id(res_op)))", "FieldAdapter(res_op.domain, next(prepend_id) + str(id(res_op)))", "R05.2")
-add("C05", "operator.adjoint(placeholder) instead of placeholder.adjoint(operator)", OTO, "        op = op.partial_insert(same_op[key][1].adjoint(same_op[key][0]))", "        op = op.partial_insert(same_op[key][0].adjoint(same_op[key][1]))", "R05.2")
-add("C05", "self-check compares the rewritten operator with itself", OTO, "        myassert(allclose(op(test_field).asnumpy(), op_optimised(test_field).asnumpy(), 1e-10))", "        myassert(allclose(op_optimised(test_field).asnumpy(), op_optimised(test_field).asnumpy(), 1e-10))", "R05.1")
-add("C05", "subtree placeholders are never bound back", OTO, "    for key in key_list_subtrees:\n        op = op.partial_insert(same_subtrees[key][1].adjoint(same_subtrees[key][0]))\n", "", "R05.2")
-EOP = OPS + "energy_operators.py"
-add("C04", "specialised variable-covariance energy halves the log-determinant for complex sampling too", EOP, "            if not self._cplx:\n                trlog /= 2\n", "            trlog /= 2\n", "R04.2")
-add("C04", "specialised variable-covariance energy with the wrong sign of the log-determinant", EOP, "            res = res + ConstantLikelihoodEnergyOperator(-trlog)", "            res = res + ConstantLikelihoodEnergyOperator(trlog)", "R04.2")
-add("C04", "product gives both factors the constants of the first factor's domain", OPS + "operator.py",
-    "        f2, o2 = self._op2.simplify_for_constant_input(\n            c_inp.extract_part(self._op2.domain))\n        if not isinstance(self._target, MultiDomain):\n            return None, _OpProd(o1, o2)",
-    "        f2, o2 = self._op2.simplify_for_constant_input(\n            c_inp.extract_part(self._op1.domain))\n        if not isinstance(self._target, MultiDomain):\n            return None, _OpProd(o1, o2)", "R04.3")
-add("C04", "chain is specialised from the output side", OPS + "chain_operator.py", "        for op in reversed(self._ops):\n            c_inp, t_op = op.simplify_for_constant_input(c_inp)", "        for op in self._ops:\n            c_inp, t_op = op.simplify_for_constant_input(c_inp)", "R04.3")
-add("C04", "sum rebuilt as a product", OPS + "operator.py", "            return None, _OpSum(o1, o2)", "            return None, _OpProd(o1, o2)", "R04.3")
-add("C06", "mean divides by the volume of the whole domain", "nifty/cl/field.py", "        return tmp.sum(spaces)*(1./tmp.total_volume(spaces))", "        return tmp.sum(spaces)*(1./tmp.total_volume())", None)
-add("C06", "mean of non-uniform volumes without weights", "nifty/cl/field.py", "        tmp = self.weight(1, spaces)\n        return tmp.sum(spaces)*(1./tmp.total_volume(spaces))", "        tmp = self\n        return tmp.sum(spaces)*(1./tmp.total_volume(spaces))", "R06.9")
-add("C06", "uniform-volume integral forgets the weight", "nifty/cl/field.py", "            res = res*swgt\n            return res", "            return res", "R06.9")
-add("C06", "s_integrate weights twice", "nifty/cl/field.py", "        tmp = self.weight(1)\n        return tmp.s_sum()", "        tmp = self.weight(2)\n        return tmp.s_sum()", "R06.9")
-VARIANTS = V
-
 add("C14", "controller keeps its convergence counter between runs", "nifty/cl/minimization/iteration_controllers.py",
     "    @append_history\n    def start(self, energy):\n        self._itcount = -1\n        self._ccount = 0\n        self._Eold = 0.\n        return self.check(energy)\n\n    @append_history\n    def check(self, energy):\n        self._itcount += 1\n\n        inclvl = False\n        Eval = energy.value\n        diff = abs(self._Eold-Eval)",
     "    @append_history\n    def start(self, energy):\n        self._itcount = -1\n        return self.check(energy)\n\n    @append_history\n    def check(self, energy):\n        self._itcount += 1\n\n        inclvl = False\n        Eval = energy.value\n        diff = abs(self._Eold-Eval)", "R14.5")
@@ -1090,53 +282,6 @@ add("C17", "compiled line search halves after the reset", "nifty/re/optimize.py"
     "        grad_scaling = jnp.where(status < -1, grad_scaling / 2, grad_scaling)\n\n        do_reset = (i == 5) & (status < -1)\n        reset = jnp.where(do_reset, True, reset)\n        grad_scaling = jnp.where(do_reset, 1.0, grad_scaling)\n",
     "\n        do_reset = (i == 5) & (status < -1)\n        reset = jnp.where(do_reset, True, reset)\n        grad_scaling = jnp.where(do_reset, 1.0, grad_scaling)\n        grad_scaling = jnp.where(status < -1, grad_scaling / 2, grad_scaling)\n", "R17.4")
 add("C17", "trust region takes the farther boundary point", "nifty/re/conjugate_gradient.py", "p_boundary = where(soa(pa) < soa(pb), pa, pb)", "p_boundary = where(vdot(z, d) > 0, pa, pb)", "R17.5")
-add("C06", "multi-field norm ignores ord", "nifty/cl/multi_field.py", "        return (nrm ** ord).sum() ** (1./ord)", "        return np.sqrt((nrm ** 2).sum())", "R06.6")
-add("C06", "Field.norm drops ord", "nifty/cl/field.py", "        return self._val.norm(ord=ord)", "        return self._val.norm()", "R06.6")
-add("C06", "weight indexes the shape vector with the sub-domain index", "nifty/cl/field.py",
-    "                new_shape[self._domain.axes[ind][0]:\n                          self._domain.axes[ind][-1]+1] = wgt.shape", "                new_shape[ind] = wgt.size", "R06.8")
-add("C10", "weight indexes the shape vector with the sub-domain index", "nifty/cl/field.py",
-    "                new_shape[self._domain.axes[ind][0]:\n                          self._domain.axes[ind][-1]+1] = wgt.shape", "                new_shape[ind] = wgt.size", "R10.6")
-add("C11", "inverse gamma stores alpha instead of alpha+1", OPS + "energy_operators.py", "        self._alphap1 = alpha+1\n", "        self._alphap1 = alpha\n", "R11.6")
-add("C11", "Bernoulli non-event term in the integer dtype", OPS + "energy_operators.py", ".vdot(self._d-1.)", ".vdot(self._d-1)", "R11.7")
-add("C11", "Poisson energy without the sum of the rates", OPS + "energy_operators.py", "        res = x.sum() - x.log().vdot(self._d)", "        res = -x.log().vdot(self._d)", "R11.6")
-add("C19", "JAX KL sums instead of averaging", "nifty/re/optimize_kl.py", "_reduce = partial(tree_map, partial(jnp.mean, axis=0))", "_reduce = partial(tree_map, partial(jnp.sum, axis=0))", "R19.3")
-add("C19", "JAX Hamiltonian prior without the factor 1/2", "nifty/re/optimize_kl.py", "+ 0.5 * vdot(primals, primals)", "+ vdot(primals, primals)", "R19.3")
-add("C19", "JAX KL metric maps the tangents too", "nifty/re/optimize_kl.py", "vmet = map(ham.metric, in_axes=(0, None))", "vmet = map(ham.metric, in_axes=(0, 0))", "R19.3")
-add("C19", "JAX KL evaluated at the bare residuals", "nifty/re/optimize_kl.py", "    s = vvg(primals_samples.at(primals).samples)", "    s = vvg(primals_samples._samples)", "R19.3")
-add("C19", "constant keys: value stripped instead of gradient", "nifty/re/optimize_kl.py", "                remove_axes=(False, insert_axes),", "                remove_axes=(insert_axes, False),", "R19.4")
-add("C19", "constant keys: tangent slot filled with the frozen primals", "nifty/re/optimize_kl.py", "flat_fill=(primals_frozen, zeros_like(primals_frozen)),", "flat_fill=(primals_frozen, primals_frozen),", "R19.4")
-add("C19", "constant keys: minimiser starts from the full position", "nifty/re/optimize_kl.py", "            x0=pl,", "            x0=samples.pos,", "R19.4")
-add("C18", "both white draws use the same sub-key", "nifty/re/evi.py", "    prr_inv_metric_smpl = random_like(key=subkey_prr, primals=p_liquid)", "    prr_inv_metric_smpl = random_like(key=subkey_nll, primals=p_liquid)", "R18.3")
-add("C18", "metric sample without the prior draw", "nifty/re/evi.py", "    smpl = nll_smpl + prr_smpl\n", "    smpl = nll_smpl\n", "R18.3")
-add("C18", "CG metric without the prior identity", "nifty/re/evi.py", "    return lh.metric(p_liquid, tangents, **primals_kw) + tangents\n\n\ndef draw_linear_residual", "    return lh.metric(p_liquid, tangents, **primals_kw)\n\n\ndef draw_linear_residual", "R18.3")
-add("C18", "classic right-hand side drawn from the prior metric twice", "nifty/cl/operators/sampling_enabler.py", "                nj = self._likelihood.draw_sample(device_id=device_id)", "                nj = self._prior.draw_sample(device_id=device_id)", "R18.3")
-add("C18", "classic initial gradient with the wrong sign", "nifty/cl/operators/sampling_enabler.py", "_grad=self._likelihood(s) - nj)", "_grad=self._likelihood(s) + nj)", "R18.3")
-add("C18", "classic prior draw not from the inverse", "nifty/cl/operators/sampling_enabler.py", "s = self._prior.draw_sample(from_inverse=True, device_id=device_id)", "s = self._prior.draw_sample(from_inverse=False, device_id=device_id)", "R18.3")
-add("C26", "biased variance", "nifty/cl/probing.py", "        return self._M2 * (1./(self._count-1))", "        return self._M2 * (1./self._count)", "R26.7")
-add("C26", "spread accumulated with the old deviation twice", "nifty/cl/probing.py", "            self._M2 = self._M2 + delta*delta2", "            self._M2 = self._M2 + delta*delta", "R26.7")
-add("C26", "running mean divided by the old count", "nifty/cl/probing.py", "            self._mean = self.mean + delta*(1./self._count)", "            self._mean = self.mean + delta*(1./(self._count-1))", "R26.7")
-add("C26", "offset from the standard share of the total", "nifty/cl/minimization/sample_list.py", "    start = sum(n_locals[:comm.Get_rank()])", "    start = shareRange(sum(n_locals), comm.Get_size(), comm.Get_rank())[0]", "R26.4")
-add("C08", "isotropy shortcut tests two axes only", "nifty/cl/domains/rg_space.py", "        if np.all(self.distances == self.distances[0]):  # shortcut", "        if self.distances[0] == self.distances[-1]:  # shortcut", "R08.10")
-OTO = "nifty/cl/operator_tree_optimiser.py"
-add("C05", "rewrite runs on the caller's operator", OTO, "    op_optimised = deepcopy(op)\n", "    op_optimised = op\n", "R05.1")
-add("C05", "placeholder created on the domain of the cut operator", OTO, "FieldAdapter(res_op.target, next(prepend_id) + str(id(res_op)))", "FieldAdapter(res_op.domain, next(prepend_id) + str(id(res_op)))", "R05.2")
-add("C05", "operator.adjoint(placeholder) instead of placeholder.adjoint(operator)", OTO, "        op = op.partial_insert(same_op[key][1].adjoint(same_op[key][0]))", "        op = op.partial_insert(same_op[key][0].adjoint(same_op[key][1]))", "R05.2")
-add("C05", "self-check compares the rewritten operator with itself", OTO, "        myassert(allclose(op(test_field).asnumpy(), op_optimised(test_field).asnumpy(), 1e-10))", "        myassert(allclose(op_optimised(test_field).asnumpy(), op_optimised(test_field).asnumpy(), 1e-10))", "R05.1")
-add("C05", "subtree placeholders are never bound back", OTO, "    for key in key_list_subtrees:\n        op = op.partial_insert(same_subtrees[key][1].adjoint(same_subtrees[key][0]))\n", "", "R05.2")
-EOP = OPS + "energy_operators.py"
-add("C04", "specialised variable-covariance energy halves the log-determinant for complex sampling too", EOP, "            if not self._cplx:\n                trlog /= 2\n", "            trlog /= 2\n", "R04.2")
-add("C04", "specialised variable-covariance energy with the wrong sign of the log-determinant", EOP, "            res = res + ConstantLikelihoodEnergyOperator(-trlog)", "            res = res + ConstantLikelihoodEnergyOperator(trlog)", "R04.2")
-add("C04", "product gives both factors the constants of the first factor's domain", OPS + "operator.py",
-    "        f2, o2 = self._op2.simplify_for_constant_input(\n            c_inp.extract_part(self._op2.domain))\n        if not isinstance(self._target, MultiDomain):\n            return None, _OpProd(o1, o2)",
-    "        f2, o2 = self._op2.simplify_for_constant_input(\n            c_inp.extract_part(self._op1.domain))\n        if not isinstance(self._target, MultiDomain):\n            return None, _OpProd(o1, o2)", "R04.3")
-add("C04", "chain is specialised from the output side", OPS + "chain_operator.py", "        for op in reversed(self._ops):\n            c_inp, t_op = op.simplify_for_constant_input(c_inp)", "        for op in self._ops:\n            c_inp, t_op = op.simplify_for_constant_input(c_inp)", "R04.3")
-add("C04", "sum rebuilt as a product", OPS + "operator.py", "            return None, _OpSum(o1, o2)", "            return None, _OpProd(o1, o2)", "R04.3")
-add("C06", "mean divides by the volume of the whole domain", "nifty/cl/field.py", "        return tmp.sum(spaces)*(1./tmp.total_volume(spaces))", "        return tmp.sum(spaces)*(1./tmp.total_volume())", None)
-add("C06", "mean of non-uniform volumes without weights", "nifty/cl/field.py", "        tmp = self.weight(1, spaces)\n        return tmp.sum(spaces)*(1./tmp.total_volume(spaces))", "        tmp = self\n        return tmp.sum(spaces)*(1./tmp.total_volume(spaces))", "R06.9")
-add("C06", "uniform-volume integral forgets the weight", "nifty/cl/field.py", "            res = res*swgt\n            return res", "            return res", "R06.9")
-add("C06", "s_integrate weights twice", "nifty/cl/field.py", "        tmp = self.weight(1)\n        return tmp.s_sum()", "        tmp = self.weight(2)\n        return tmp.s_sum()", "R06.9")
-VARIANTS = V
-
 add("C02", "nested sum signs combined with or", OPS + "sum_operator.py", "                if ng:\n                    negnew += [not n for n in op._neg]\n                else:\n                    negnew += list(op._neg)",
     "                negnew += [n or ng for n in op._neg]", "R02.8")
 add("C01", "nested sum signs combined with or", OPS + "sum_operator.py", "                if ng:\n                    negnew += [not n for n in op._neg]\n                else:\n                    negnew += list(op._neg)",
@@ -1150,309 +295,27 @@ add("C28", "zero mode not set to the volume", "nifty/re/correlated_field.py", " 
 add("C28", "jax matern exponent", "nifty/re/correlated_field.py", "            0.25 * slp * jnp.log1p((self.grid.harmonic_grid.mode_lengths / ctf) ** 2)", "            0.5 * slp * jnp.log1p((self.grid.harmonic_grid.mode_lengths / ctf) ** 2)", "R28.2")
 add("C28", "classic matern volume factor", "nifty/cl/library/correlated_fields.py", "        vol1[1:] = totvol**0.5", "        vol1[1:] = totvol", "R28.2")
 add("C28", "classic matern cutoff power", "nifty/cl/library/correlated_fields.py", "cutoff = VdotOperator(k_squared).adjoint @ cutoff.power(-2.)", "cutoff = VdotOperator(k_squared).adjoint @ cutoff.power(-1.)", "R28.2")
-add("C06", "multi-field norm ignores ord", "nifty/cl/multi_field.py", "        return (nrm ** ord).sum() ** (1./ord)", "        return np.sqrt((nrm ** 2).sum())", "R06.6")
-add("C06", "Field.norm drops ord", "nifty/cl/field.py", "        return self._val.norm(ord=ord)", "        return self._val.norm()", "R06.6")
-add("C06", "weight indexes the shape vector with the sub-domain index", "nifty/cl/field.py",
-    "                new_shape[self._domain.axes[ind][0]:\n                          self._domain.axes[ind][-1]+1] = wgt.shape", "                new_shape[ind] = wgt.size", "R06.8")
-add("C10", "weight indexes the shape vector with the sub-domain index", "nifty/cl/field.py",
-    "                new_shape[self._domain.axes[ind][0]:\n                          self._domain.axes[ind][-1]+1] = wgt.shape", "                new_shape[ind] = wgt.size", "R10.6")
-add("C11", "inverse gamma stores alpha instead of alpha+1", OPS + "energy_operators.py", "        self._alphap1 = alpha+1\n", "        self._alphap1 = alpha\n", "R11.6")
-add("C11", "Bernoulli non-event term in the integer dtype", OPS + "energy_operators.py", ".vdot(self._d-1.)", ".vdot(self._d-1)", "R11.7")
-add("C11", "Poisson energy without the sum of the rates", OPS + "energy_operators.py", "        res = x.sum() - x.log().vdot(self._d)", "        res = -x.log().vdot(self._d)", "R11.6")
-add("C19", "JAX KL sums instead of averaging", "nifty/re/optimize_kl.py", "_reduce = partial(tree_map, partial(jnp.mean, axis=0))", "_reduce = partial(tree_map, partial(jnp.sum, axis=0))", "R19.3")
-add("C19", "JAX Hamiltonian prior without the factor 1/2", "nifty/re/optimize_kl.py", "+ 0.5 * vdot(primals, primals)", "+ vdot(primals, primals)", "R19.3")
-add("C19", "JAX KL metric maps the tangents too", "nifty/re/optimize_kl.py", "vmet = map(ham.metric, in_axes=(0, None))", "vmet = map(ham.metric, in_axes=(0, 0))", "R19.3")
-add("C19", "JAX KL evaluated at the bare residuals", "nifty/re/optimize_kl.py", "    s = vvg(primals_samples.at(primals).samples)", "    s = vvg(primals_samples._samples)", "R19.3")
-add("C19", "constant keys: value stripped instead of gradient", "nifty/re/optimize_kl.py", "                remove_axes=(False, insert_axes),", "                remove_axes=(insert_axes, False),", "R19.4")
-add("C19", "constant keys: tangent slot filled with the frozen primals", "nifty/re/optimize_kl.py", "flat_fill=(primals_frozen, zeros_like(primals_frozen)),", "flat_fill=(primals_frozen, primals_frozen),", "R19.4")
-add("C19", "constant keys: minimiser starts from the full position", "nifty/re/optimize_kl.py", "            x0=pl,", "            x0=samples.pos,", "R19.4")
-add("C18", "both white draws use the same sub-key", "nifty/re/evi.py", "    prr_inv_metric_smpl = random_like(key=subkey_prr, primals=p_liquid)", "    prr_inv_metric_smpl = random_like(key=subkey_nll, primals=p_liquid)", "R18.3")
-add("C18", "metric sample without the prior draw", "nifty/re/evi.py", "    smpl = nll_smpl + prr_smpl\n", "    smpl = nll_smpl\n", "R18.3")
-add("C18", "CG metric without the prior identity", "nifty/re/evi.py", "    return lh.metric(p_liquid, tangents, **primals_kw) + tangents\n\n\ndef draw_linear_residual", "    return lh.metric(p_liquid, tangents, **primals_kw)\n\n\ndef draw_linear_residual", "R18.3")
-add("C18", "classic right-hand side drawn from the prior metric twice", "nifty/cl/operators/sampling_enabler.py", "                nj = self._likelihood.draw_sample(device_id=device_id)", "                nj = self._prior.draw_sample(device_id=device_id)", "R18.3")
-add("C18", "classic initial gradient with the wrong sign", "nifty/cl/operators/sampling_enabler.py", "_grad=self._likelihood(s) - nj)", "_grad=self._likelihood(s) + nj)", "R18.3")
-add("C18", "classic prior draw not from the inverse", "nifty/cl/operators/sampling_enabler.py", "s = self._prior.draw_sample(from_inverse=True, device_id=device_id)", "s = self._prior.draw_sample(from_inverse=False, device_id=device_id)", "R18.3")
-add("C26", "biased variance", "nifty/cl/probing.py", "        return self._M2 * (1./(self._count-1))", "        return self._M2 * (1./self._count)", "R26.7")
-add("C26", "spread accumulated with the old deviation twice", "nifty/cl/probing.py", "            self._M2 = self._M2 + delta*delta2", "            self._M2 = self._M2 + delta*delta", "R26.7")
-add("C26", "running mean divided by the old count", "nifty/cl/probing.py", "            self._mean = self.mean + delta*(1./self._count)", "            self._mean = self.mean + delta*(1./(self._count-1))", "R26.7")
-add("C26", "offset from the standard share of the total", "nifty/cl/minimization/sample_list.py", "    start = sum(n_locals[:comm.Get_rank()])", "    start = shareRange(sum(n_locals), comm.Get_size(), comm.Get_rank())[0]", "R26.4")
-add("C08", "isotropy shortcut tests two axes only", "nifty/cl/domains/rg_space.py", "        if np.all(self.distances == self.distances[0]):  # shortcut", "        if self.distances[0] == self.distances[-1]:  # shortcut", "R08.10")
-OTO = "nifty/cl/operator_tree_optimiser.py"
-add("C05", "rewrite runs on the caller's operator", OTO, "    op_optimised = deepcopy(op)\n", "    op_optimised = op\n", "R05.1")
-add("C05", "placeholder created on the domain of the cut operator", OTO, "FieldAdapter(res_op.target, next(prepend_id) + str(id(res_op)))", "FieldAdapter(res_op.domain, next(prepend_id) + str(id(res_op)))", "R05.2")
-add("C05", "operator.adjoint(placeholder) instead of placeholder.adjoint(operator)", OTO, "        op = op.partial_insert(same_op[key][1].adjoint(same_op[key][0]))", "        op = op.partial_insert(same_op[key][0].adjoint(same_op[key][1]))", "R05.2")
-add("C05", "self-check compares the rewritten operator with itself", OTO, "        myassert(allclose(op(test_field).asnumpy(), op_optimised(test_field).asnumpy(), 1e-10))", "        myassert(allclose(op_optimised(test_field).asnumpy(), op_optimised(test_field).asnumpy(), 1e-10))", "R05.1")
-add("C05", "subtree placeholders are never bound back", OTO, "    for key in key_list_subtrees:\n        op = op.partial_insert(same_subtrees[key][1].adjoint(same_subtrees[key][0]))\n", "", "R05.2")
-EOP = OPS + "energy_operators.py"
-add("C04", "specialised variable-covariance energy halves the log-determinant for complex sampling too", EOP, "            if not self._cplx:\n                trlog /= 2\n", "            trlog /= 2\n", "R04.2")
-add("C04", "specialised variable-covariance energy with the wrong sign of the log-determinant", EOP, "            res = res + ConstantLikelihoodEnergyOperator(-trlog)", "            res = res + ConstantLikelihoodEnergyOperator(trlog)", "R04.2")
-add("C04", "product gives both factors the constants of the first factor's domain", OPS + "operator.py",
-    "        f2, o2 = self._op2.simplify_for_constant_input(\n            c_inp.extract_part(self._op2.domain))\n        if not isinstance(self._target, MultiDomain):\n            return None, _OpProd(o1, o2)",
-    "        f2, o2 = self._op2.simplify_for_constant_input(\n            c_inp.extract_part(self._op1.domain))\n        if not isinstance(self._target, MultiDomain):\n            return None, _OpProd(o1, o2)", "R04.3")
-add("C04", "chain is specialised from the output side", OPS + "chain_operator.py", "        for op in reversed(self._ops):\n            c_inp, t_op = op.simplify_for_constant_input(c_inp)", "        for op in self._ops:\n            c_inp, t_op = op.simplify_for_constant_input(c_inp)", "R04.3")
-add("C04", "sum rebuilt as a product", OPS + "operator.py", "            return None, _OpSum(o1, o2)", "            return None, _OpProd(o1, o2)", "R04.3")
-add("C06", "mean divides by the volume of the whole domain", "nifty/cl/field.py", "        return tmp.sum(spaces)*(1./tmp.total_volume(spaces))", "        return tmp.sum(spaces)*(1./tmp.total_volume())", None)
-add("C06", "mean of non-uniform volumes without weights", "nifty/cl/field.py", "        tmp = self.weight(1, spaces)\n        return tmp.sum(spaces)*(1./tmp.total_volume(spaces))", "        tmp = self\n        return tmp.sum(spaces)*(1./tmp.total_volume(spaces))", "R06.9")
-add("C06", "uniform-volume integral forgets the weight", "nifty/cl/field.py", "            res = res*swgt\n            return res", "            return res", "R06.9")
-add("C06", "s_integrate weights twice", "nifty/cl/field.py", "        tmp = self.weight(1)\n        return tmp.s_sum()", "        tmp = self.weight(2)\n        return tmp.s_sum()", "R06.9")
-VARIANTS = V
-
 LIP = "nifty/re/likelihood_impl.py"
 add("C12", "poisson transformation factor", LIP, "        return 2.0 * primals**0.5", "        return primals**0.5", "R12.5")
 add("C12", "poisson metric not inverse", LIP, "    def metric(self, primals, tangents):\n        return tangents / primals\n", "    def metric(self, primals, tangents):\n        return tangents * primals\n", "R12.5")
 add("C12", "student-t metric constant", LIP, "        return self.noise_cov_inv((self.dof + 1) / (self.dof + 3) * tangents)", "        return self.noise_cov_inv((self.dof + 1) / (self.dof + 2) * tangents)", None)
 add("C12", "gaussian residual not whitened", LIP, "    def normalized_residual(self, primals):\n        return self.noise_std_inv(self.data - primals)", "    def normalized_residual(self, primals):\n        return self.noise_cov_inv(self.data - primals)", "R12.5")
 add("C12", "poisson energy sign", LIP, "        return sum(primals) - vdot(tree_map(jnp.log, primals), self.data)", "        return sum(primals) + vdot(tree_map(jnp.log, primals), self.data)", "R12.5")
-add("C06", "multi-field norm ignores ord", "nifty/cl/multi_field.py", "        return (nrm ** ord).sum() ** (1./ord)", "        return np.sqrt((nrm ** 2).sum())", "R06.6")
-add("C06", "Field.norm drops ord", "nifty/cl/field.py", "        return self._val.norm(ord=ord)", "        return self._val.norm()", "R06.6")
-add("C06", "weight indexes the shape vector with the sub-domain index", "nifty/cl/field.py",
-    "                new_shape[self._domain.axes[ind][0]:\n                          self._domain.axes[ind][-1]+1] = wgt.shape", "                new_shape[ind] = wgt.size", "R06.8")
-add("C10", "weight indexes the shape vector with the sub-domain index", "nifty/cl/field.py",
-    "                new_shape[self._domain.axes[ind][0]:\n                          self._domain.axes[ind][-1]+1] = wgt.shape", "                new_shape[ind] = wgt.size", "R10.6")
-add("C11", "inverse gamma stores alpha instead of alpha+1", OPS + "energy_operators.py", "        self._alphap1 = alpha+1\n", "        self._alphap1 = alpha\n", "R11.6")
-add("C11", "Bernoulli non-event term in the integer dtype", OPS + "energy_operators.py", ".vdot(self._d-1.)", ".vdot(self._d-1)", "R11.7")
-add("C11", "Poisson energy without the sum of the rates", OPS + "energy_operators.py", "        res = x.sum() - x.log().vdot(self._d)", "        res = -x.log().vdot(self._d)", "R11.6")
-add("C19", "JAX KL sums instead of averaging", "nifty/re/optimize_kl.py", "_reduce = partial(tree_map, partial(jnp.mean, axis=0))", "_reduce = partial(tree_map, partial(jnp.sum, axis=0))", "R19.3")
-add("C19", "JAX Hamiltonian prior without the factor 1/2", "nifty/re/optimize_kl.py", "+ 0.5 * vdot(primals, primals)", "+ vdot(primals, primals)", "R19.3")
-add("C19", "JAX KL metric maps the tangents too", "nifty/re/optimize_kl.py", "vmet = map(ham.metric, in_axes=(0, None))", "vmet = map(ham.metric, in_axes=(0, 0))", "R19.3")
-add("C19", "JAX KL evaluated at the bare residuals", "nifty/re/optimize_kl.py", "    s = vvg(primals_samples.at(primals).samples)", "    s = vvg(primals_samples._samples)", "R19.3")
-add("C19", "constant keys: value stripped instead of gradient", "nifty/re/optimize_kl.py", "                remove_axes=(False, insert_axes),", "                remove_axes=(insert_axes, False),", "R19.4")
-add("C19", "constant keys: tangent slot filled with the frozen primals", "nifty/re/optimize_kl.py", "flat_fill=(primals_frozen, zeros_like(primals_frozen)),", "flat_fill=(primals_frozen, primals_frozen),", "R19.4")
-add("C19", "constant keys: minimiser starts from the full position", "nifty/re/optimize_kl.py", "            x0=pl,", "            x0=samples.pos,", "R19.4")
-add("C18", "both white draws use the same sub-key", "nifty/re/evi.py", "    prr_inv_metric_smpl = random_like(key=subkey_prr, primals=p_liquid)", "    prr_inv_metric_smpl = random_like(key=subkey_nll, primals=p_liquid)", "R18.3")
-add("C18", "metric sample without the prior draw", "nifty/re/evi.py", "    smpl = nll_smpl + prr_smpl\n", "    smpl = nll_smpl\n", "R18.3")
-add("C18", "CG metric without the prior identity", "nifty/re/evi.py", "    return lh.metric(p_liquid, tangents, **primals_kw) + tangents\n\n\ndef draw_linear_residual", "    return lh.metric(p_liquid, tangents, **primals_kw)\n\n\ndef draw_linear_residual", "R18.3")
-add("C18", "classic right-hand side drawn from the prior metric twice", "nifty/cl/operators/sampling_enabler.py", "                nj = self._likelihood.draw_sample(device_id=device_id)", "                nj = self._prior.draw_sample(device_id=device_id)", "R18.3")
-add("C18", "classic initial gradient with the wrong sign", "nifty/cl/operators/sampling_enabler.py", "_grad=self._likelihood(s) - nj)", "_grad=self._likelihood(s) + nj)", "R18.3")
-add("C18", "classic prior draw not from the inverse", "nifty/cl/operators/sampling_enabler.py", "s = self._prior.draw_sample(from_inverse=True, device_id=device_id)", "s = self._prior.draw_sample(from_inverse=False, device_id=device_id)", "R18.3")
-add("C26", "biased variance", "nifty/cl/probing.py", "        return self._M2 * (1./(self._count-1))", "        return self._M2 * (1./self._count)", "R26.7")
-add("C26", "spread accumulated with the old deviation twice", "nifty/cl/probing.py", "            self._M2 = self._M2 + delta*delta2", "            self._M2 = self._M2 + delta*delta", "R26.7")
-add("C26", "running mean divided by the old count", "nifty/cl/probing.py", "            self._mean = self.mean + delta*(1./self._count)", "            self._mean = self.mean + delta*(1./(self._count-1))", "R26.7")
-add("C26", "offset from the standard share of the total", "nifty/cl/minimization/sample_list.py", "    start = sum(n_locals[:comm.Get_rank()])", "    start = shareRange(sum(n_locals), comm.Get_size(), comm.Get_rank())[0]", "R26.4")
-add("C08", "isotropy shortcut tests two axes only", "nifty/cl/domains/rg_space.py", "        if np.all(self.distances == self.distances[0]):  # shortcut", "        if self.distances[0] == self.distances[-1]:  # shortcut", "R08.10")
-OTO = "nifty/cl/operator_tree_optimiser.py"
-add("C05", "rewrite runs on the caller's operator", OTO, "    op_optimised = deepcopy(op)\n", "    op_optimised = op\n", "R05.1")
-add("C05", "placeholder created on the domain of the cut operator", OTO, "FieldAdapter(res_op.target, next(prepend_id) + str(id(res_op)))", "FieldAdapter(res_op.domain, next(prepend_id) + str(id(res_op)))", "R05.2")
-add("C05", "operator.adjoint(placeholder) instead of placeholder.adjoint(operator)", OTO, "        op = op.partial_insert(same_op[key][1].adjoint(same_op[key][0]))", "        op = op.partial_insert(same_op[key][0].adjoint(same_op[key][1]))", "R05.2")
-add("C05", "self-check compares the rewritten operator with itself", OTO, "        myassert(allclose(op(test_field).asnumpy(), op_optimised(test_field).asnumpy(), 1e-10))", "        myassert(allclose(op_optimised(test_field).asnumpy(), op_optimised(test_field).asnumpy(), 1e-10))", "R05.1")
-add("C05", "subtree placeholders are never bound back", OTO, "    for key in key_list_subtrees:\n        op = op.partial_insert(same_subtrees[key][1].adjoint(same_subtrees[key][0]))\n", "", "R05.2")
-EOP = OPS + "energy_operators.py"
-add("C04", "specialised variable-covariance energy halves the log-determinant for complex sampling too", EOP, "            if not self._cplx:\n                trlog /= 2\n", "            trlog /= 2\n", "R04.2")
-add("C04", "specialised variable-covariance energy with the wrong sign of the log-determinant", EOP, "            res = res + ConstantLikelihoodEnergyOperator(-trlog)", "            res = res + ConstantLikelihoodEnergyOperator(trlog)", "R04.2")
-add("C04", "product gives both factors the constants of the first factor's domain", OPS + "operator.py",
-    "        f2, o2 = self._op2.simplify_for_constant_input(\n            c_inp.extract_part(self._op2.domain))\n        if not isinstance(self._target, MultiDomain):\n            return None, _OpProd(o1, o2)",
-    "        f2, o2 = self._op2.simplify_for_constant_input(\n            c_inp.extract_part(self._op1.domain))\n        if not isinstance(self._target, MultiDomain):\n            return None, _OpProd(o1, o2)", "R04.3")
-add("C04", "chain is specialised from the output side", OPS + "chain_operator.py", "        for op in reversed(self._ops):\n            c_inp, t_op = op.simplify_for_constant_input(c_inp)", "        for op in self._ops:\n            c_inp, t_op = op.simplify_for_constant_input(c_inp)", "R04.3")
-add("C04", "sum rebuilt as a product", OPS + "operator.py", "            return None, _OpSum(o1, o2)", "            return None, _OpProd(o1, o2)", "R04.3")
-add("C06", "mean divides by the volume of the whole domain", "nifty/cl/field.py", "        return tmp.sum(spaces)*(1./tmp.total_volume(spaces))", "        return tmp.sum(spaces)*(1./tmp.total_volume())", None)
-add("C06", "mean of non-uniform volumes without weights", "nifty/cl/field.py", "        tmp = self.weight(1, spaces)\n        return tmp.sum(spaces)*(1./tmp.total_volume(spaces))", "        tmp = self\n        return tmp.sum(spaces)*(1./tmp.total_volume(spaces))", "R06.9")
-add("C06", "uniform-volume integral forgets the weight", "nifty/cl/field.py", "            res = res*swgt\n            return res", "            return res", "R06.9")
-add("C06", "s_integrate weights twice", "nifty/cl/field.py", "        tmp = self.weight(1)\n        return tmp.s_sum()", "        tmp = self.weight(2)\n        return tmp.s_sum()", "R06.9")
-VARIANTS = V
-
 add("C16", "sy cache written symmetrically", "nifty/cl/minimization/descent_minimizers.py", "            self.sy[kmi, k1] = self.s[kmi].s_vdot(self.y[k1])", "            self.sy[kmi, k1] = self.sy[k1, kmi] = self.s[kmi].s_vdot(self.y[k1])", "R16.3")
-add("C06", "multi-field norm ignores ord", "nifty/cl/multi_field.py", "        return (nrm ** ord).sum() ** (1./ord)", "        return np.sqrt((nrm ** 2).sum())", "R06.6")
-add("C06", "Field.norm drops ord", "nifty/cl/field.py", "        return self._val.norm(ord=ord)", "        return self._val.norm()", "R06.6")
-add("C06", "weight indexes the shape vector with the sub-domain index", "nifty/cl/field.py",
-    "                new_shape[self._domain.axes[ind][0]:\n                          self._domain.axes[ind][-1]+1] = wgt.shape", "                new_shape[ind] = wgt.size", "R06.8")
-add("C10", "weight indexes the shape vector with the sub-domain index", "nifty/cl/field.py",
-    "                new_shape[self._domain.axes[ind][0]:\n                          self._domain.axes[ind][-1]+1] = wgt.shape", "                new_shape[ind] = wgt.size", "R10.6")
-add("C11", "inverse gamma stores alpha instead of alpha+1", OPS + "energy_operators.py", "        self._alphap1 = alpha+1\n", "        self._alphap1 = alpha\n", "R11.6")
-add("C11", "Bernoulli non-event term in the integer dtype", OPS + "energy_operators.py", ".vdot(self._d-1.)", ".vdot(self._d-1)", "R11.7")
-add("C11", "Poisson energy without the sum of the rates", OPS + "energy_operators.py", "        res = x.sum() - x.log().vdot(self._d)", "        res = -x.log().vdot(self._d)", "R11.6")
-add("C19", "JAX KL sums instead of averaging", "nifty/re/optimize_kl.py", "_reduce = partial(tree_map, partial(jnp.mean, axis=0))", "_reduce = partial(tree_map, partial(jnp.sum, axis=0))", "R19.3")
-add("C19", "JAX Hamiltonian prior without the factor 1/2", "nifty/re/optimize_kl.py", "+ 0.5 * vdot(primals, primals)", "+ vdot(primals, primals)", "R19.3")
-add("C19", "JAX KL metric maps the tangents too", "nifty/re/optimize_kl.py", "vmet = map(ham.metric, in_axes=(0, None))", "vmet = map(ham.metric, in_axes=(0, 0))", "R19.3")
-add("C19", "JAX KL evaluated at the bare residuals", "nifty/re/optimize_kl.py", "    s = vvg(primals_samples.at(primals).samples)", "    s = vvg(primals_samples._samples)", "R19.3")
-add("C19", "constant keys: value stripped instead of gradient", "nifty/re/optimize_kl.py", "                remove_axes=(False, insert_axes),", "                remove_axes=(insert_axes, False),", "R19.4")
-add("C19", "constant keys: tangent slot filled with the frozen primals", "nifty/re/optimize_kl.py", "flat_fill=(primals_frozen, zeros_like(primals_frozen)),", "flat_fill=(primals_frozen, primals_frozen),", "R19.4")
-add("C19", "constant keys: minimiser starts from the full position", "nifty/re/optimize_kl.py", "            x0=pl,", "            x0=samples.pos,", "R19.4")
-add("C18", "both white draws use the same sub-key", "nifty/re/evi.py", "    prr_inv_metric_smpl = random_like(key=subkey_prr, primals=p_liquid)", "    prr_inv_metric_smpl = random_like(key=subkey_nll, primals=p_liquid)", "R18.3")
-add("C18", "metric sample without the prior draw", "nifty/re/evi.py", "    smpl = nll_smpl + prr_smpl\n", "    smpl = nll_smpl\n", "R18.3")
-add("C18", "CG metric without the prior identity", "nifty/re/evi.py", "    return lh.metric(p_liquid, tangents, **primals_kw) + tangents\n\n\ndef draw_linear_residual", "    return lh.metric(p_liquid, tangents, **primals_kw)\n\n\ndef draw_linear_residual", "R18.3")
-add("C18", "classic right-hand side drawn from the prior metric twice", "nifty/cl/operators/sampling_enabler.py", "                nj = self._likelihood.draw_sample(device_id=device_id)", "                nj = self._prior.draw_sample(device_id=device_id)", "R18.3")
-add("C18", "classic initial gradient with the wrong sign", "nifty/cl/operators/sampling_enabler.py", "_grad=self._likelihood(s) - nj)", "_grad=self._likelihood(s) + nj)", "R18.3")
-add("C18", "classic prior draw not from the inverse", "nifty/cl/operators/sampling_enabler.py", "s = self._prior.draw_sample(from_inverse=True, device_id=device_id)", "s = self._prior.draw_sample(from_inverse=False, device_id=device_id)", "R18.3")
-add("C26", "biased variance", "nifty/cl/probing.py", "        return self._M2 * (1./(self._count-1))", "        return self._M2 * (1./self._count)", "R26.7")
-add("C26", "spread accumulated with the old deviation twice", "nifty/cl/probing.py", "            self._M2 = self._M2 + delta*delta2", "            self._M2 = self._M2 + delta*delta", "R26.7")
-add("C26", "running mean divided by the old count", "nifty/cl/probing.py", "            self._mean = self.mean + delta*(1./self._count)", "            self._mean = self.mean + delta*(1./(self._count-1))", "R26.7")
-add("C26", "offset from the standard share of the total", "nifty/cl/minimization/sample_list.py", "    start = sum(n_locals[:comm.Get_rank()])", "    start = shareRange(sum(n_locals), comm.Get_size(), comm.Get_rank())[0]", "R26.4")
-add("C08", "isotropy shortcut tests two axes only", "nifty/cl/domains/rg_space.py", "        if np.all(self.distances == self.distances[0]):  # shortcut", "        if self.distances[0] == self.distances[-1]:  # shortcut", "R08.10")
-OTO = "nifty/cl/operator_tree_optimiser.py"
-add("C05", "rewrite runs on the caller's operator", OTO, "    op_optimised = deepcopy(op)\n", "    op_optimised = op\n", "R05.1")
-add("C05", "placeholder created on the domain of the cut operator", OTO, "FieldAdapter(res_op.target, next(prepend_id) + str(id(res_op)))", "FieldAdapter(res_op.domain, next(prepend_id) + str(id(res_op)))", "R05.2")
-add("C05", "operator.adjoint(placeholder) instead of placeholder.adjoint(operator)", OTO, "        op = op.partial_insert(same_op[key][1].adjoint(same_op[key][0]))", "        op = op.partial_insert(same_op[key][0].adjoint(same_op[key][1]))", "R05.2")
-add("C05", "self-check compares the rewritten operator with itself", OTO, "        myassert(allclose(op(test_field).asnumpy(), op_optimised(test_field).asnumpy(), 1e-10))", "        myassert(allclose(op_optimised(test_field).asnumpy(), op_optimised(test_field).asnumpy(), 1e-10))", "R05.1")
-add("C05", "subtree placeholders are never bound back", OTO, "    for key in key_list_subtrees:\n        op = op.partial_insert(same_subtrees[key][1].adjoint(same_subtrees[key][0]))\n", "", "R05.2")
-EOP = OPS + "energy_operators.py"
-add("C04", "specialised variable-covariance energy halves the log-determinant for complex sampling too", EOP, "            if not self._cplx:\n                trlog /= 2\n", "            trlog /= 2\n", "R04.2")
-add("C04", "specialised variable-covariance energy with the wrong sign of the log-determinant", EOP, "            res = res + ConstantLikelihoodEnergyOperator(-trlog)", "            res = res + ConstantLikelihoodEnergyOperator(trlog)", "R04.2")
-add("C04", "product gives both factors the constants of the first factor's domain", OPS + "operator.py",
-    "        f2, o2 = self._op2.simplify_for_constant_input(\n            c_inp.extract_part(self._op2.domain))\n        if not isinstance(self._target, MultiDomain):\n            return None, _OpProd(o1, o2)",
-    "        f2, o2 = self._op2.simplify_for_constant_input(\n            c_inp.extract_part(self._op1.domain))\n        if not isinstance(self._target, MultiDomain):\n            return None, _OpProd(o1, o2)", "R04.3")
-add("C04", "chain is specialised from the output side", OPS + "chain_operator.py", "        for op in reversed(self._ops):\n            c_inp, t_op = op.simplify_for_constant_input(c_inp)", "        for op in self._ops:\n            c_inp, t_op = op.simplify_for_constant_input(c_inp)", "R04.3")
-add("C04", "sum rebuilt as a product", OPS + "operator.py", "            return None, _OpSum(o1, o2)", "            return None, _OpProd(o1, o2)", "R04.3")
-add("C06", "mean divides by the volume of the whole domain", "nifty/cl/field.py", "        return tmp.sum(spaces)*(1./tmp.total_volume(spaces))", "        return tmp.sum(spaces)*(1./tmp.total_volume())", None)
-add("C06", "mean of non-uniform volumes without weights", "nifty/cl/field.py", "        tmp = self.weight(1, spaces)\n        return tmp.sum(spaces)*(1./tmp.total_volume(spaces))", "        tmp = self\n        return tmp.sum(spaces)*(1./tmp.total_volume(spaces))", "R06.9")
-add("C06", "uniform-volume integral forgets the weight", "nifty/cl/field.py", "            res = res*swgt\n            return res", "            return res", "R06.9")
-add("C06", "s_integrate weights twice", "nifty/cl/field.py", "        tmp = self.weight(1)\n        return tmp.s_sum()", "        tmp = self.weight(2)\n        return tmp.s_sum()", "R06.9")
-VARIANTS = V
-
 add("C29", "generic generator applies the transposed amplitude", GMP, "    in_ax = (None if len(diffamp.shape) == 2 else 0, 0)\n    res = vmap(jnp.matmul, in_ax, 0)(diffamp, xi)\n",
     "    if len(diffamp.shape) == 2:\n        res = jnp.matmul(xi, diffamp)\n    else:\n        res = vmap(jnp.matmul, (0, 0), 0)(diffamp, xi)\n", "R29.4")
 add("C29", "wiener sigma pulled out of the running sum", GMP, "    amp = jnp.sqrt(dt) * sigma\n    return jnp.cumsum(jnp.concatenate((jnp.atleast_1d(x0).flatten(), amp * xi)))",
     "    x0 = jnp.atleast_1d(x0).flatten()\n    walk = sigma * jnp.cumsum(jnp.sqrt(dt) * xi)\n    return jnp.concatenate((x0, x0 + walk))", "R29.1")
 add("C29", "OU small-step branch with half the variance", GMP, "    amp = sigma * jnp.sqrt(1.0 - drift**2)", "    amp = sigma * jnp.sqrt(jnp.where(gamma * dt < 1e-3, gamma * dt, 1.0 - drift**2))", "R29.2")
-add("C06", "multi-field norm ignores ord", "nifty/cl/multi_field.py", "        return (nrm ** ord).sum() ** (1./ord)", "        return np.sqrt((nrm ** 2).sum())", "R06.6")
-add("C06", "Field.norm drops ord", "nifty/cl/field.py", "        return self._val.norm(ord=ord)", "        return self._val.norm()", "R06.6")
-add("C06", "weight indexes the shape vector with the sub-domain index", "nifty/cl/field.py",
-    "                new_shape[self._domain.axes[ind][0]:\n                          self._domain.axes[ind][-1]+1] = wgt.shape", "                new_shape[ind] = wgt.size", "R06.8")
-add("C10", "weight indexes the shape vector with the sub-domain index", "nifty/cl/field.py",
-    "                new_shape[self._domain.axes[ind][0]:\n                          self._domain.axes[ind][-1]+1] = wgt.shape", "                new_shape[ind] = wgt.size", "R10.6")
-add("C11", "inverse gamma stores alpha instead of alpha+1", OPS + "energy_operators.py", "        self._alphap1 = alpha+1\n", "        self._alphap1 = alpha\n", "R11.6")
-add("C11", "Bernoulli non-event term in the integer dtype", OPS + "energy_operators.py", ".vdot(self._d-1.)", ".vdot(self._d-1)", "R11.7")
-add("C11", "Poisson energy without the sum of the rates", OPS + "energy_operators.py", "        res = x.sum() - x.log().vdot(self._d)", "        res = -x.log().vdot(self._d)", "R11.6")
-add("C19", "JAX KL sums instead of averaging", "nifty/re/optimize_kl.py", "_reduce = partial(tree_map, partial(jnp.mean, axis=0))", "_reduce = partial(tree_map, partial(jnp.sum, axis=0))", "R19.3")
-add("C19", "JAX Hamiltonian prior without the factor 1/2", "nifty/re/optimize_kl.py", "+ 0.5 * vdot(primals, primals)", "+ vdot(primals, primals)", "R19.3")
-add("C19", "JAX KL metric maps the tangents too", "nifty/re/optimize_kl.py", "vmet = map(ham.metric, in_axes=(0, None))", "vmet = map(ham.metric, in_axes=(0, 0))", "R19.3")
-add("C19", "JAX KL evaluated at the bare residuals", "nifty/re/optimize_kl.py", "    s = vvg(primals_samples.at(primals).samples)", "    s = vvg(primals_samples._samples)", "R19.3")
-add("C19", "constant keys: value stripped instead of gradient", "nifty/re/optimize_kl.py", "                remove_axes=(False, insert_axes),", "                remove_axes=(insert_axes, False),", "R19.4")
-add("C19", "constant keys: tangent slot filled with the frozen primals", "nifty/re/optimize_kl.py", "flat_fill=(primals_frozen, zeros_like(primals_frozen)),", "flat_fill=(primals_frozen, primals_frozen),", "R19.4")
-add("C19", "constant keys: minimiser starts from the full position", "nifty/re/optimize_kl.py", "            x0=pl,", "            x0=samples.pos,", "R19.4")
-add("C18", "both white draws use the same sub-key", "nifty/re/evi.py", "    prr_inv_metric_smpl = random_like(key=subkey_prr, primals=p_liquid)", "    prr_inv_metric_smpl = random_like(key=subkey_nll, primals=p_liquid)", "R18.3")
-add("C18", "metric sample without the prior draw", "nifty/re/evi.py", "    smpl = nll_smpl + prr_smpl\n", "    smpl = nll_smpl\n", "R18.3")
-add("C18", "CG metric without the prior identity", "nifty/re/evi.py", "    return lh.metric(p_liquid, tangents, **primals_kw) + tangents\n\n\ndef draw_linear_residual", "    return lh.metric(p_liquid, tangents, **primals_kw)\n\n\ndef draw_linear_residual", "R18.3")
-add("C18", "classic right-hand side drawn from the prior metric twice", "nifty/cl/operators/sampling_enabler.py", "                nj = self._likelihood.draw_sample(device_id=device_id)", "                nj = self._prior.draw_sample(device_id=device_id)", "R18.3")
-add("C18", "classic initial gradient with the wrong sign", "nifty/cl/operators/sampling_enabler.py", "_grad=self._likelihood(s) - nj)", "_grad=self._likelihood(s) + nj)", "R18.3")
-add("C18", "classic prior draw not from the inverse", "nifty/cl/operators/sampling_enabler.py", "s = self._prior.draw_sample(from_inverse=True, device_id=device_id)", "s = self._prior.draw_sample(from_inverse=False, device_id=device_id)", "R18.3")
-add("C26", "biased variance", "nifty/cl/probing.py", "        return self._M2 * (1./(self._count-1))", "        return self._M2 * (1./self._count)", "R26.7")
-add("C26", "spread accumulated with the old deviation twice", "nifty/cl/probing.py", "            self._M2 = self._M2 + delta*delta2", "            self._M2 = self._M2 + delta*delta", "R26.7")
-add("C26", "running mean divided by the old count", "nifty/cl/probing.py", "            self._mean = self.mean + delta*(1./self._count)", "            self._mean = self.mean + delta*(1./(self._count-1))", "R26.7")
-add("C26", "offset from the standard share of the total", "nifty/cl/minimization/sample_list.py", "    start = sum(n_locals[:comm.Get_rank()])", "    start = shareRange(sum(n_locals), comm.Get_size(), comm.Get_rank())[0]", "R26.4")
-add("C08", "isotropy shortcut tests two axes only", "nifty/cl/domains/rg_space.py", "        if np.all(self.distances == self.distances[0]):  # shortcut", "        if self.distances[0] == self.distances[-1]:  # shortcut", "R08.10")
-OTO = "nifty/cl/operator_tree_optimiser.py"
-add("C05", "rewrite runs on the caller's operator", OTO, "    op_optimised = deepcopy(op)\n", "    op_optimised = op\n", "R05.1")
-add("C05", "placeholder created on the domain of the cut operator", OTO, "FieldAdapter(res_op.target, next(prepend_id) + str(id(res_op)))", "FieldAdapter(res_op.domain, next(prepend_id) + str(id(res_op)))", "R05.2")
-add("C05", "operator.adjoint(placeholder) instead of placeholder.adjoint(operator)", OTO, "        op = op.partial_insert(same_op[key][1].adjoint(same_op[key][0]))", "        op = op.partial_insert(same_op[key][0].adjoint(same_op[key][1]))", "R05.2")
-add("C05", "self-check compares the rewritten operator with itself", OTO, "        myassert(allclose(op(test_field).asnumpy(), op_optimised(test_field).asnumpy(), 1e-10))", "        myassert(allclose(op_optimised(test_field).asnumpy(), op_optimised(test_field).asnumpy(), 1e-10))", "R05.1")
-add("C05", "subtree placeholders are never bound back", OTO, "    for key in key_list_subtrees:\n        op = op.partial_insert(same_subtrees[key][1].adjoint(same_subtrees[key][0]))\n", "", "R05.2")
-EOP = OPS + "energy_operators.py"
-add("C04", "specialised variable-covariance energy halves the log-determinant for complex sampling too", EOP, "            if not self._cplx:\n                trlog /= 2\n", "            trlog /= 2\n", "R04.2")
-add("C04", "specialised variable-covariance energy with the wrong sign of the log-determinant", EOP, "            res = res + ConstantLikelihoodEnergyOperator(-trlog)", "            res = res + ConstantLikelihoodEnergyOperator(trlog)", "R04.2")
-add("C04", "product gives both factors the constants of the first factor's domain", OPS + "operator.py",
-    "        f2, o2 = self._op2.simplify_for_constant_input(\n            c_inp.extract_part(self._op2.domain))\n        if not isinstance(self._target, MultiDomain):\n            return None, _OpProd(o1, o2)",
-    "        f2, o2 = self._op2.simplify_for_constant_input(\n            c_inp.extract_part(self._op1.domain))\n        if not isinstance(self._target, MultiDomain):\n            return None, _OpProd(o1, o2)", "R04.3")
-add("C04", "chain is specialised from the output side", OPS + "chain_operator.py", "        for op in reversed(self._ops):\n            c_inp, t_op = op.simplify_for_constant_input(c_inp)", "        for op in self._ops:\n            c_inp, t_op = op.simplify_for_constant_input(c_inp)", "R04.3")
-add("C04", "sum rebuilt as a product", OPS + "operator.py", "            return None, _OpSum(o1, o2)", "            return None, _OpProd(o1, o2)", "R04.3")
-add("C06", "mean divides by the volume of the whole domain", "nifty/cl/field.py", "        return tmp.sum(spaces)*(1./tmp.total_volume(spaces))", "        return tmp.sum(spaces)*(1./tmp.total_volume())", None)
-add("C06", "mean of non-uniform volumes without weights", "nifty/cl/field.py", "        tmp = self.weight(1, spaces)\n        return tmp.sum(spaces)*(1./tmp.total_volume(spaces))", "        tmp = self\n        return tmp.sum(spaces)*(1./tmp.total_volume(spaces))", "R06.9")
-add("C06", "uniform-volume integral forgets the weight", "nifty/cl/field.py", "            res = res*swgt\n            return res", "            return res", "R06.9")
-add("C06", "s_integrate weights twice", "nifty/cl/field.py", "        tmp = self.weight(1)\n        return tmp.s_sum()", "        tmp = self.weight(2)\n        return tmp.s_sum()", "R06.9")
-VARIANTS = V
-
 add("C35", "LOS stride uses the wrong extent", "nifty/cl/library/los_response.py", "        inc[i] = inc[i+1]*shp[i+1]", "        inc[i] = inc[i+1]*shp[i]", "R35.5")
 add("C30", "uniform shortcut for every unit-width interval", SDP, "        and a_min == 0.0\n        and a_max == 1.0\n", "        and a_max - a_min == 1.0\n", "R30.1")
 add("C30", "inverse gamma prior class drops loc", "nifty/re/prior.py", "call = invgamma_prior(self.a, self.scale, self.loc, self.step)", "call = invgamma_prior(self.a, self.scale, step=self.step)", "R30.1")
-add("C06", "multi-field norm ignores ord", "nifty/cl/multi_field.py", "        return (nrm ** ord).sum() ** (1./ord)", "        return np.sqrt((nrm ** 2).sum())", "R06.6")
-add("C06", "Field.norm drops ord", "nifty/cl/field.py", "        return self._val.norm(ord=ord)", "        return self._val.norm()", "R06.6")
-add("C06", "weight indexes the shape vector with the sub-domain index", "nifty/cl/field.py",
-    "                new_shape[self._domain.axes[ind][0]:\n                          self._domain.axes[ind][-1]+1] = wgt.shape", "                new_shape[ind] = wgt.size", "R06.8")
-add("C10", "weight indexes the shape vector with the sub-domain index", "nifty/cl/field.py",
-    "                new_shape[self._domain.axes[ind][0]:\n                          self._domain.axes[ind][-1]+1] = wgt.shape", "                new_shape[ind] = wgt.size", "R10.6")
-add("C11", "inverse gamma stores alpha instead of alpha+1", OPS + "energy_operators.py", "        self._alphap1 = alpha+1\n", "        self._alphap1 = alpha\n", "R11.6")
-add("C11", "Bernoulli non-event term in the integer dtype", OPS + "energy_operators.py", ".vdot(self._d-1.)", ".vdot(self._d-1)", "R11.7")
-add("C11", "Poisson energy without the sum of the rates", OPS + "energy_operators.py", "        res = x.sum() - x.log().vdot(self._d)", "        res = -x.log().vdot(self._d)", "R11.6")
-add("C19", "JAX KL sums instead of averaging", "nifty/re/optimize_kl.py", "_reduce = partial(tree_map, partial(jnp.mean, axis=0))", "_reduce = partial(tree_map, partial(jnp.sum, axis=0))", "R19.3")
-add("C19", "JAX Hamiltonian prior without the factor 1/2", "nifty/re/optimize_kl.py", "+ 0.5 * vdot(primals, primals)", "+ vdot(primals, primals)", "R19.3")
-add("C19", "JAX KL metric maps the tangents too", "nifty/re/optimize_kl.py", "vmet = map(ham.metric, in_axes=(0, None))", "vmet = map(ham.metric, in_axes=(0, 0))", "R19.3")
-add("C19", "JAX KL evaluated at the bare residuals", "nifty/re/optimize_kl.py", "    s = vvg(primals_samples.at(primals).samples)", "    s = vvg(primals_samples._samples)", "R19.3")
-add("C19", "constant keys: value stripped instead of gradient", "nifty/re/optimize_kl.py", "                remove_axes=(False, insert_axes),", "                remove_axes=(insert_axes, False),", "R19.4")
-add("C19", "constant keys: tangent slot filled with the frozen primals", "nifty/re/optimize_kl.py", "flat_fill=(primals_frozen, zeros_like(primals_frozen)),", "flat_fill=(primals_frozen, primals_frozen),", "R19.4")
-add("C19", "constant keys: minimiser starts from the full position", "nifty/re/optimize_kl.py", "            x0=pl,", "            x0=samples.pos,", "R19.4")
-add("C18", "both white draws use the same sub-key", "nifty/re/evi.py", "    prr_inv_metric_smpl = random_like(key=subkey_prr, primals=p_liquid)", "    prr_inv_metric_smpl = random_like(key=subkey_nll, primals=p_liquid)", "R18.3")
-add("C18", "metric sample without the prior draw", "nifty/re/evi.py", "    smpl = nll_smpl + prr_smpl\n", "    smpl = nll_smpl\n", "R18.3")
-add("C18", "CG metric without the prior identity", "nifty/re/evi.py", "    return lh.metric(p_liquid, tangents, **primals_kw) + tangents\n\n\ndef draw_linear_residual", "    return lh.metric(p_liquid, tangents, **primals_kw)\n\n\ndef draw_linear_residual", "R18.3")
-add("C18", "classic right-hand side drawn from the prior metric twice", "nifty/cl/operators/sampling_enabler.py", "                nj = self._likelihood.draw_sample(device_id=device_id)", "                nj = self._prior.draw_sample(device_id=device_id)", "R18.3")
-add("C18", "classic initial gradient with the wrong sign", "nifty/cl/operators/sampling_enabler.py", "_grad=self._likelihood(s) - nj)", "_grad=self._likelihood(s) + nj)", "R18.3")
-add("C18", "classic prior draw not from the inverse", "nifty/cl/operators/sampling_enabler.py", "s = self._prior.draw_sample(from_inverse=True, device_id=device_id)", "s = self._prior.draw_sample(from_inverse=False, device_id=device_id)", "R18.3")
-add("C26", "biased variance", "nifty/cl/probing.py", "        return self._M2 * (1./(self._count-1))", "        return self._M2 * (1./self._count)", "R26.7")
-add("C26", "spread accumulated with the old deviation twice", "nifty/cl/probing.py", "            self._M2 = self._M2 + delta*delta2", "            self._M2 = self._M2 + delta*delta", "R26.7")
-add("C26", "running mean divided by the old count", "nifty/cl/probing.py", "            self._mean = self.mean + delta*(1./self._count)", "            self._mean = self.mean + delta*(1./(self._count-1))", "R26.7")
-add("C26", "offset from the standard share of the total", "nifty/cl/minimization/sample_list.py", "    start = sum(n_locals[:comm.Get_rank()])", "    start = shareRange(sum(n_locals), comm.Get_size(), comm.Get_rank())[0]", "R26.4")
-add("C08", "isotropy shortcut tests two axes only", "nifty/cl/domains/rg_space.py", "        if np.all(self.distances == self.distances[0]):  # shortcut", "        if self.distances[0] == self.distances[-1]:  # shortcut", "R08.10")
-OTO = "nifty/cl/operator_tree_optimiser.py"
-add("C05", "rewrite runs on the caller's operator", OTO, "    op_optimised = deepcopy(op)\n", "    op_optimised = op\n", "R05.1")
-add("C05", "placeholder created on the domain of the cut operator", OTO, "FieldAdapter(res_op.target, next(prepend_id) + str(id(res_op)))", "FieldAdapter(res_op.domain, next(prepend_id) + str(id(res_op)))", "R05.2")
-add("C05", "operator.adjoint(placeholder) instead of placeholder.adjoint(operator)", OTO, "        op = op.partial_insert(same_op[key][1].adjoint(same_op[key][0]))", "        op = op.partial_insert(same_op[key][0].adjoint(same_op[key][1]))", "R05.2")
-add("C05", "self-check compares the rewritten operator with itself", OTO, "        myassert(allclose(op(test_field).asnumpy(), op_optimised(test_field).asnumpy(), 1e-10))", "        myassert(allclose(op_optimised(test_field).asnumpy(), op_optimised(test_field).asnumpy(), 1e-10))", "R05.1")
-add("C05", "subtree placeholders are never bound back", OTO, "    for key in key_list_subtrees:\n        op = op.partial_insert(same_subtrees[key][1].adjoint(same_subtrees[key][0]))\n", "", "R05.2")
-EOP = OPS + "energy_operators.py"
-add("C04", "specialised variable-covariance energy halves the log-determinant for complex sampling too", EOP, "            if not self._cplx:\n                trlog /= 2\n", "            trlog /= 2\n", "R04.2")
-add("C04", "specialised variable-covariance energy with the wrong sign of the log-determinant", EOP, "            res = res + ConstantLikelihoodEnergyOperator(-trlog)", "            res = res + ConstantLikelihoodEnergyOperator(trlog)", "R04.2")
-add("C04", "product gives both factors the constants of the first factor's domain", OPS + "operator.py",
-    "        f2, o2 = self._op2.simplify_for_constant_input(\n            c_inp.extract_part(self._op2.domain))\n        if not isinstance(self._target, MultiDomain):\n            return None, _OpProd(o1, o2)",
-    "        f2, o2 = self._op2.simplify_for_constant_input(\n            c_inp.extract_part(self._op1.domain))\n        if not isinstance(self._target, MultiDomain):\n            return None, _OpProd(o1, o2)", "R04.3")
-add("C04", "chain is specialised from the output side", OPS + "chain_operator.py", "        for op in reversed(self._ops):\n            c_inp, t_op = op.simplify_for_constant_input(c_inp)", "        for op in self._ops:\n            c_inp, t_op = op.simplify_for_constant_input(c_inp)", "R04.3")
-add("C04", "sum rebuilt as a product", OPS + "operator.py", "            return None, _OpSum(o1, o2)", "            return None, _OpProd(o1, o2)", "R04.3")
-add("C06", "mean divides by the volume of the whole domain", "nifty/cl/field.py", "        return tmp.sum(spaces)*(1./tmp.total_volume(spaces))", "        return tmp.sum(spaces)*(1./tmp.total_volume())", None)
-add("C06", "mean of non-uniform volumes without weights", "nifty/cl/field.py", "        tmp = self.weight(1, spaces)\n        return tmp.sum(spaces)*(1./tmp.total_volume(spaces))", "        tmp = self\n        return tmp.sum(spaces)*(1./tmp.total_volume(spaces))", "R06.9")
-add("C06", "uniform-volume integral forgets the weight", "nifty/cl/field.py", "            res = res*swgt\n            return res", "            return res", "R06.9")
-add("C06", "s_integrate weights twice", "nifty/cl/field.py", "        tmp = self.weight(1)\n        return tmp.s_sum()", "        tmp = self.weight(2)\n        return tmp.s_sum()", "R06.9")
-VARIANTS = V
-
 add("C28", "matern power kind without the square root", "nifty/re/correlated_field.py", '        if self.kind.lower() == "power":\n            spectrum = jnp.sqrt(spectrum)\n', "", "R28.2")
 add("C28", "fourier mode lengths wrap with the first axis", "nifty/re/correlated_field.py", "tmp = np.minimum(tmp, shape[i] - tmp) * mspc_distances[i]", "tmp = np.minimum(tmp, shape[0] - tmp) * mspc_distances[i]", "R28.4")
 add("C28", "classic total fluctuation drops mixed terms", "nifty/cl/library/correlated_fields.py",
     "        q = 1.\n        for a in self._a:\n            fl = a.fluctuation_amplitude/self.azm\n            q = q*(1 + fl**2)\n        return (q - 1).sqrt()*self.azm",
     "        q = 0.\n        for a in self._a:\n            fl = a.fluctuation_amplitude/self.azm\n            q = q + fl**2\n        return q.sqrt()*self.azm", "R28.3")
 add("C28", "classic slice fluctuation treats own space like the others", "nifty/cl/library/correlated_fields.py", "            if j == space:\n                q = q*fl**2\n", "            if j == space:\n                q = q*(1 + fl**2)\n", "R28.3")
-add("C06", "multi-field norm ignores ord", "nifty/cl/multi_field.py", "        return (nrm ** ord).sum() ** (1./ord)", "        return np.sqrt((nrm ** 2).sum())", "R06.6")
-add("C06", "Field.norm drops ord", "nifty/cl/field.py", "        return self._val.norm(ord=ord)", "        return self._val.norm()", "R06.6")
-add("C06", "weight indexes the shape vector with the sub-domain index", "nifty/cl/field.py",
-    "                new_shape[self._domain.axes[ind][0]:\n                          self._domain.axes[ind][-1]+1] = wgt.shape", "                new_shape[ind] = wgt.size", "R06.8")
-add("C10", "weight indexes the shape vector with the sub-domain index", "nifty/cl/field.py",
-    "                new_shape[self._domain.axes[ind][0]:\n                          self._domain.axes[ind][-1]+1] = wgt.shape", "                new_shape[ind] = wgt.size", "R10.6")
-add("C11", "inverse gamma stores alpha instead of alpha+1", OPS + "energy_operators.py", "        self._alphap1 = alpha+1\n", "        self._alphap1 = alpha\n", "R11.6")
-add("C11", "Bernoulli non-event term in the integer dtype", OPS + "energy_operators.py", ".vdot(self._d-1.)", ".vdot(self._d-1)", "R11.7")
-add("C11", "Poisson energy without the sum of the rates", OPS + "energy_operators.py", "        res = x.sum() - x.log().vdot(self._d)", "        res = -x.log().vdot(self._d)", "R11.6")
-add("C19", "JAX KL sums instead of averaging", "nifty/re/optimize_kl.py", "_reduce = partial(tree_map, partial(jnp.mean, axis=0))", "_reduce = partial(tree_map, partial(jnp.sum, axis=0))", "R19.3")
-add("C19", "JAX Hamiltonian prior without the factor 1/2", "nifty/re/optimize_kl.py", "+ 0.5 * vdot(primals, primals)", "+ vdot(primals, primals)", "R19.3")
-add("C19", "JAX KL metric maps the tangents too", "nifty/re/optimize_kl.py", "vmet = map(ham.metric, in_axes=(0, None))", "vmet = map(ham.metric, in_axes=(0, 0))", "R19.3")
-add("C19", "JAX KL evaluated at the bare residuals", "nifty/re/optimize_kl.py", "    s = vvg(primals_samples.at(primals).samples)", "    s = vvg(primals_samples._samples)", "R19.3")
-add("C19", "constant keys: value stripped instead of gradient", "nifty/re/optimize_kl.py", "                remove_axes=(False, insert_axes),", "                remove_axes=(insert_axes, False),", "R19.4")
-add("C19", "constant keys: tangent slot filled with the frozen primals", "nifty/re/optimize_kl.py", "flat_fill=(primals_frozen, zeros_like(primals_frozen)),", "flat_fill=(primals_frozen, primals_frozen),", "R19.4")
-add("C19", "constant keys: minimiser starts from the full position", "nifty/re/optimize_kl.py", "            x0=pl,", "            x0=samples.pos,", "R19.4")
-add("C18", "both white draws use the same sub-key", "nifty/re/evi.py", "    prr_inv_metric_smpl = random_like(key=subkey_prr, primals=p_liquid)", "    prr_inv_metric_smpl = random_like(key=subkey_nll, primals=p_liquid)", "R18.3")
-add("C18", "metric sample without the prior draw", "nifty/re/evi.py", "    smpl = nll_smpl + prr_smpl\n", "    smpl = nll_smpl\n", "R18.3")
-add("C18", "CG metric without the prior identity", "nifty/re/evi.py", "    return lh.metric(p_liquid, tangents, **primals_kw) + tangents\n\n\ndef draw_linear_residual", "    return lh.metric(p_liquid, tangents, **primals_kw)\n\n\ndef draw_linear_residual", "R18.3")
-add("C18", "classic right-hand side drawn from the prior metric twice", "nifty/cl/operators/sampling_enabler.py", "                nj = self._likelihood.draw_sample(device_id=device_id)", "                nj = self._prior.draw_sample(device_id=device_id)", "R18.3")
-add("C18", "classic initial gradient with the wrong sign", "nifty/cl/operators/sampling_enabler.py", "_grad=self._likelihood(s) - nj)", "_grad=self._likelihood(s) + nj)", "R18.3")
-add("C18", "classic prior draw not from the inverse", "nifty/cl/operators/sampling_enabler.py", "s = self._prior.draw_sample(from_inverse=True, device_id=device_id)", "s = self._prior.draw_sample(from_inverse=False, device_id=device_id)", "R18.3")
-add("C26", "biased variance", "nifty/cl/probing.py", "        return self._M2 * (1./(self._count-1))", "        return self._M2 * (1./self._count)", "R26.7")
-add("C26", "spread accumulated with the old deviation twice", "nifty/cl/probing.py", "            self._M2 = self._M2 + delta*delta2", "            self._M2 = self._M2 + delta*delta", "R26.7")
-add("C26", "running mean divided by the old count", "nifty/cl/probing.py", "            self._mean = self.mean + delta*(1./self._count)", "            self._mean = self.mean + delta*(1./(self._count-1))", "R26.7")
-add("C26", "offset from the standard share of the total", "nifty/cl/minimization/sample_list.py", "    start = sum(n_locals[:comm.Get_rank()])", "    start = shareRange(sum(n_locals), comm.Get_size(), comm.Get_rank())[0]", "R26.4")
-add("C08", "isotropy shortcut tests two axes only", "nifty/cl/domains/rg_space.py", "        if np.all(self.distances == self.distances[0]):  # shortcut", "        if self.distances[0] == self.distances[-1]:  # shortcut", "R08.10")
-OTO = "nifty/cl/operator_tree_optimiser.py"
-add("C05", "rewrite runs on the caller's operator", OTO, "    op_optimised = deepcopy(op)\n", "    op_optimised = op\n", "R05.1")
-add("C05", "placeholder created on the domain of the cut operator", OTO, "FieldAdapter(res_op.target, next(prepend_id) + str(id(res_op)))", "FieldAdapter(res_op.domain, next(prepend_id) + str(id(res_op)))", "R05.2")
-add("C05", "operator.adjoint(placeholder) instead of placeholder.adjoint(operator)", OTO, "        op = op.partial_insert(same_op[key][1].adjoint(same_op[key][0]))", "        op = op.partial_insert(same_op[key][0].adjoint(same_op[key][1]))", "R05.2")
-add("C05", "self-check compares the rewritten operator with itself", OTO, "        myassert(allclose(op(test_field).asnumpy(), op_optimised(test_field).asnumpy(), 1e-10))", "        myassert(allclose(op_optimised(test_field).asnumpy(), op_optimised(test_field).asnumpy(), 1e-10))", "R05.1")
-add("C05", "subtree placeholders are never bound back", OTO, "    for key in key_list_subtrees:\n        op = op.partial_insert(same_subtrees[key][1].adjoint(same_subtrees[key][0]))\n", "", "R05.2")
-EOP = OPS + "energy_operators.py"
-add("C04", "specialised variable-covariance energy halves the log-determinant for complex sampling too", EOP, "            if not self._cplx:\n                trlog /= 2\n", "            trlog /= 2\n", "R04.2")
-add("C04", "specialised variable-covariance energy with the wrong sign of the log-determinant", EOP, "            res = res + ConstantLikelihoodEnergyOperator(-trlog)", "            res = res + ConstantLikelihoodEnergyOperator(trlog)", "R04.2")
-add("C04", "product gives both factors the constants of the first factor's domain", OPS + "operator.py",
-    "        f2, o2 = self._op2.simplify_for_constant_input(\n            c_inp.extract_part(self._op2.domain))\n        if not isinstance(self._target, MultiDomain):\n            return None, _OpProd(o1, o2)",
-    "        f2, o2 = self._op2.simplify_for_constant_input(\n            c_inp.extract_part(self._op1.domain))\n        if not isinstance(self._target, MultiDomain):\n            return None, _OpProd(o1, o2)", "R04.3")
-add("C04", "chain is specialised from the output side", OPS + "chain_operator.py", "        for op in reversed(self._ops):\n            c_inp, t_op = op.simplify_for_constant_input(c_inp)", "        for op in self._ops:\n            c_inp, t_op = op.simplify_for_constant_input(c_inp)", "R04.3")
-add("C04", "sum rebuilt as a product", OPS + "operator.py", "            return None, _OpSum(o1, o2)", "            return None, _OpProd(o1, o2)", "R04.3")
-add("C06", "mean divides by the volume of the whole domain", "nifty/cl/field.py", "        return tmp.sum(spaces)*(1./tmp.total_volume(spaces))", "        return tmp.sum(spaces)*(1./tmp.total_volume())", None)
-add("C06", "mean of non-uniform volumes without weights", "nifty/cl/field.py", "        tmp = self.weight(1, spaces)\n        return tmp.sum(spaces)*(1./tmp.total_volume(spaces))", "        tmp = self\n        return tmp.sum(spaces)*(1./tmp.total_volume(spaces))", "R06.9")
-add("C06", "uniform-volume integral forgets the weight", "nifty/cl/field.py", "            res = res*swgt\n            return res", "            return res", "R06.9")
-add("C06", "s_integrate weights twice", "nifty/cl/field.py", "        tmp = self.weight(1)\n        return tmp.s_sum()", "        tmp = self.weight(2)\n        return tmp.s_sum()", "R06.9")
-VARIANTS = V
-
 add("C31", "scaled open grid coord2index without padding extent", "nifty/re/multi_grid/grid_impl.py", "        coord = coord / ((self.shape + 2 * self.shifts) * self.distances)[bc]", "        coord = coord / (self.shape * self.distances)[bc]", "R31.4")
 add("C34", "resume projects the unshifted metric", "nifty/re/evidence_lower_bound.py", "            projector = _Projector(eigenvectors)\n            projected_metric = _ProjectedMetric(solver_metric, projector)\n\n        for batch in batches:",
     "            projector = _Projector(eigenvectors)\n            projected_metric = _ProjectedMetric(metric, projector)\n\n        for batch in batches:", "R34.4")
@@ -1460,49 +323,4 @@ add("C34", "exact trace of the inverse without the data-space shift", "nifty/re/
 add("C20", "data-space branch sees the unconjugated transpose", "nifty/re/evi.py", "    forward_lin_T = _functional_conj(forward_lin_T)\n\n    if signal_space:\n", "\n    if signal_space:\n        forward_lin_T = _functional_conj(forward_lin_T)\n", "R20.1")
 add("C20", "linearised data without the R(position) term", "nifty/re/evi.py", "        data = data - likelihood.forward(position) + forward_lin(position)", "        data = data - likelihood.forward(position)", "R20.1")
 add("C20", "sampling uses the inversion controller", "nifty/cl/library/wiener_filter_curvature.py", "op = SamplingEnabler(M, Sinv, iteration_controller_sampling, Sinv)", "op = SamplingEnabler(M, Sinv, iteration_controller, Sinv)", "R20.3")
-add("C06", "multi-field norm ignores ord", "nifty/cl/multi_field.py", "        return (nrm ** ord).sum() ** (1./ord)", "        return np.sqrt((nrm ** 2).sum())", "R06.6")
-add("C06", "Field.norm drops ord", "nifty/cl/field.py", "        return self._val.norm(ord=ord)", "        return self._val.norm()", "R06.6")
-add("C06", "weight indexes the shape vector with the sub-domain index", "nifty/cl/field.py",
-    "                new_shape[self._domain.axes[ind][0]:\n                          self._domain.axes[ind][-1]+1] = wgt.shape", "                new_shape[ind] = wgt.size", "R06.8")
-add("C10", "weight indexes the shape vector with the sub-domain index", "nifty/cl/field.py",
-    "                new_shape[self._domain.axes[ind][0]:\n                          self._domain.axes[ind][-1]+1] = wgt.shape", "                new_shape[ind] = wgt.size", "R10.6")
-add("C11", "inverse gamma stores alpha instead of alpha+1", OPS + "energy_operators.py", "        self._alphap1 = alpha+1\n", "        self._alphap1 = alpha\n", "R11.6")
-add("C11", "Bernoulli non-event term in the integer dtype", OPS + "energy_operators.py", ".vdot(self._d-1.)", ".vdot(self._d-1)", "R11.7")
-add("C11", "Poisson energy without the sum of the rates", OPS + "energy_operators.py", "        res = x.sum() - x.log().vdot(self._d)", "        res = -x.log().vdot(self._d)", "R11.6")
-add("C19", "JAX KL sums instead of averaging", "nifty/re/optimize_kl.py", "_reduce = partial(tree_map, partial(jnp.mean, axis=0))", "_reduce = partial(tree_map, partial(jnp.sum, axis=0))", "R19.3")
-add("C19", "JAX Hamiltonian prior without the factor 1/2", "nifty/re/optimize_kl.py", "+ 0.5 * vdot(primals, primals)", "+ vdot(primals, primals)", "R19.3")
-add("C19", "JAX KL metric maps the tangents too", "nifty/re/optimize_kl.py", "vmet = map(ham.metric, in_axes=(0, None))", "vmet = map(ham.metric, in_axes=(0, 0))", "R19.3")
-add("C19", "JAX KL evaluated at the bare residuals", "nifty/re/optimize_kl.py", "    s = vvg(primals_samples.at(primals).samples)", "    s = vvg(primals_samples._samples)", "R19.3")
-add("C19", "constant keys: value stripped instead of gradient", "nifty/re/optimize_kl.py", "                remove_axes=(False, insert_axes),", "                remove_axes=(insert_axes, False),", "R19.4")
-add("C19", "constant keys: tangent slot filled with the frozen primals", "nifty/re/optimize_kl.py", "flat_fill=(primals_frozen, zeros_like(primals_frozen)),", "flat_fill=(primals_frozen, primals_frozen),", "R19.4")
-add("C19", "constant keys: minimiser starts from the full position", "nifty/re/optimize_kl.py", "            x0=pl,", "            x0=samples.pos,", "R19.4")
-add("C18", "both white draws use the same sub-key", "nifty/re/evi.py", "    prr_inv_metric_smpl = random_like(key=subkey_prr, primals=p_liquid)", "    prr_inv_metric_smpl = random_like(key=subkey_nll, primals=p_liquid)", "R18.3")
-add("C18", "metric sample without the prior draw", "nifty/re/evi.py", "    smpl = nll_smpl + prr_smpl\n", "    smpl = nll_smpl\n", "R18.3")
-add("C18", "CG metric without the prior identity", "nifty/re/evi.py", "    return lh.metric(p_liquid, tangents, **primals_kw) + tangents\n\n\ndef draw_linear_residual", "    return lh.metric(p_liquid, tangents, **primals_kw)\n\n\ndef draw_linear_residual", "R18.3")
-add("C18", "classic right-hand side drawn from the prior metric twice", "nifty/cl/operators/sampling_enabler.py", "                nj = self._likelihood.draw_sample(device_id=device_id)", "                nj = self._prior.draw_sample(device_id=device_id)", "R18.3")
-add("C18", "classic initial gradient with the wrong sign", "nifty/cl/operators/sampling_enabler.py", "_grad=self._likelihood(s) - nj)", "_grad=self._likelihood(s) + nj)", "R18.3")
-add("C18", "classic prior draw not from the inverse", "nifty/cl/operators/sampling_enabler.py", "s = self._prior.draw_sample(from_inverse=True, device_id=device_id)", "s = self._prior.draw_sample(from_inverse=False, device_id=device_id)", "R18.3")
-add("C26", "biased variance", "nifty/cl/probing.py", "        return self._M2 * (1./(self._count-1))", "        return self._M2 * (1./self._count)", "R26.7")
-add("C26", "spread accumulated with the old deviation twice", "nifty/cl/probing.py", "            self._M2 = self._M2 + delta*delta2", "            self._M2 = self._M2 + delta*delta", "R26.7")
-add("C26", "running mean divided by the old count", "nifty/cl/probing.py", "            self._mean = self.mean + delta*(1./self._count)", "            self._mean = self.mean + delta*(1./(self._count-1))", "R26.7")
-add("C26", "offset from the standard share of the total", "nifty/cl/minimization/sample_list.py", "    start = sum(n_locals[:comm.Get_rank()])", "    start = shareRange(sum(n_locals), comm.Get_size(), comm.Get_rank())[0]", "R26.4")
-add("C08", "isotropy shortcut tests two axes only", "nifty/cl/domains/rg_space.py", "        if np.all(self.distances == self.distances[0]):  # shortcut", "        if self.distances[0] == self.distances[-1]:  # shortcut", "R08.10")
-OTO = "nifty/cl/operator_tree_optimiser.py"
-add("C05", "rewrite runs on the caller's operator", OTO, "    op_optimised = deepcopy(op)\n", "    op_optimised = op\n", "R05.1")
-add("C05", "placeholder created on the domain of the cut operator", OTO, "FieldAdapter(res_op.target, next(prepend_id) + str(id(res_op)))", "FieldAdapter(res_op.domain, next(prepend_id) + str(id(res_op)))", "R05.2")
-add("C05", "operator.adjoint(placeholder) instead of placeholder.adjoint(operator)", OTO, "        op = op.partial_insert(same_op[key][1].adjoint(same_op[key][0]))", "        op = op.partial_insert(same_op[key][0].adjoint(same_op[key][1]))", "R05.2")
-add("C05", "self-check compares the rewritten operator with itself", OTO, "        myassert(allclose(op(test_field).asnumpy(), op_optimised(test_field).asnumpy(), 1e-10))", "        myassert(allclose(op_optimised(test_field).asnumpy(), op_optimised(test_field).asnumpy(), 1e-10))", "R05.1")
-add("C05", "subtree placeholders are never bound back", OTO, "    for key in key_list_subtrees:\n        op = op.partial_insert(same_subtrees[key][1].adjoint(same_subtrees[key][0]))\n", "", "R05.2")
-EOP = OPS + "energy_operators.py"
-add("C04", "specialised variable-covariance energy halves the log-determinant for complex sampling too", EOP, "            if not self._cplx:\n                trlog /= 2\n", "            trlog /= 2\n", "R04.2")
-add("C04", "specialised variable-covariance energy with the wrong sign of the log-determinant", EOP, "            res = res + ConstantLikelihoodEnergyOperator(-trlog)", "            res = res + ConstantLikelihoodEnergyOperator(trlog)", "R04.2")
-add("C04", "product gives both factors the constants of the first factor's domain", OPS + "operator.py",
-    "        f2, o2 = self._op2.simplify_for_constant_input(\n            c_inp.extract_part(self._op2.domain))\n        if not isinstance(self._target, MultiDomain):\n            return None, _OpProd(o1, o2)",
-    "        f2, o2 = self._op2.simplify_for_constant_input(\n            c_inp.extract_part(self._op1.domain))\n        if not isinstance(self._target, MultiDomain):\n            return None, _OpProd(o1, o2)", "R04.3")
-add("C04", "chain is specialised from the output side", OPS + "chain_operator.py", "        for op in reversed(self._ops):\n            c_inp, t_op = op.simplify_for_constant_input(c_inp)", "        for op in self._ops:\n            c_inp, t_op = op.simplify_for_constant_input(c_inp)", "R04.3")
-add("C04", "sum rebuilt as a product", OPS + "operator.py", "            return None, _OpSum(o1, o2)", "            return None, _OpProd(o1, o2)", "R04.3")
-add("C06", "mean divides by the volume of the whole domain", "nifty/cl/field.py", "        return tmp.sum(spaces)*(1./tmp.total_volume(spaces))", "        return tmp.sum(spaces)*(1./tmp.total_volume())", None)
-add("C06", "mean of non-uniform volumes without weights", "nifty/cl/field.py", "        tmp = self.weight(1, spaces)\n        return tmp.sum(spaces)*(1./tmp.total_volume(spaces))", "        tmp = self\n        return tmp.sum(spaces)*(1./tmp.total_volume(spaces))", "R06.9")
-add("C06", "uniform-volume integral forgets the weight", "nifty/cl/field.py", "            res = res*swgt\n            return res", "            return res", "R06.9")
-add("C06", "s_integrate weights twice", "nifty/cl/field.py", "        tmp = self.weight(1)\n        return tmp.s_sum()", "        tmp = self.weight(2)\n        return tmp.s_sum()", "R06.9")
 VARIANTS = V
